@@ -16,1710 +16,1586 @@ Definition terms (ts : list tok) (t : pt) : string :=
   digest (show_toks (Some ts)) ++ " " ++ digest (show_pt (Some t)) ++ " " ++ digest (show_pt (parse ts)).
 Definition terms_full (ts : list tok) (t : pt) : string :=
   show_toks (Some ts) ++ nl ++ show_pt (Some t) ++ nl ++ show_pt (parse ts).
-Eval vm_compute in ("<<<M15>>>" ++ check (runes_of_ascii "options { matchKey
-    =
-10 } MetaData options1{
-    matchKey o `doc` , rootA tag
-,uint32 _x /// triple
-`line1
-line2`, char[] chars `say ""hi""`,  }")).
-Eval vm_compute in ("<<<M47>>>" ++ check (runes_of_ascii "packet rootA{ }
-options
-{ uint8x =//	t
-u32 ; i64_
-=	255 ;
+Eval vm_compute in ("<<<M15>>>" ++ check (@nil rune)).
+Eval vm_compute in ("<<<M47>>>" ++ check (runes_of_ascii "root
+packet
+metadata //	t
+{ @lengthOf( rootA ) string
+    Logon@lengthOf( u8x
+    ) , uint8 repeatCount @lengthOf( //x
+crc )
+`it's` , @lengthOf( MetaDataX ) match x as x_y_z { 65535:
+uint8x, // " ++ [27880; 37322]%N ++ runes_of_ascii "
+[	""// no comment""
+    , ""// no comment"" ,  """ ++ [233]%N ++ runes_of_ascii "t" ++ [233]%N ++ runes_of_ascii """ , ""\" ++ [233]%N ++ runes_of_ascii """ , //
+7	, 1,""" ++ [128512]%N ++ runes_of_ascii """] :BodyLength ,
+    """ ++ [128512]%N ++ runes_of_ascii """ :
+    u8x ,65535 :metadata,	""" ++ [233]%N ++ runes_of_ascii "t" ++ [233]%N ++ runes_of_ascii """
+/// triple
+// 50% %s
+: Packet,// packet A { u8 x, }
+} , packetx i8i8
+    `100% of %d` ,  char[] u8x
+    @calculatedFrom(""{,}""  )
+`u8 x,`, zchar[ 3
+] Z9_
+,@calculatedFrom( """"
+    ) @lengthOf(	trueish ) @lengthOf(
+lengthOf) tag , uint64 // packet A { u8 x, }
+metadata // 50% %s
+`100% of %d`
+,
+}
+")).
+Eval vm_compute in ("<<<M79>>>" ++ check (runes_of_ascii "options
+{ }")).
+Eval vm_compute in ("<<<M111>>>" ++ check (runes_of_ascii "
+MetaData	Header {// `tick` ""quote"" 'q'
+i64_ i64_ /// triple
+, chars falsey , // trailing space 
+u32 MetaDataX//x
+, Header metadata ,
+zchar len, }options
+{
+    u8x = '0' calculatedFrom =zchar[ 4294967296	]
+// trailing space 
+// packet A { u8 x, }
+} MetaData  Pad	{}")).
+Eval vm_compute in ("<<<T111>>>" ++ terms [mkTok 37 "MetaData" 2 0 false; mkTok 42 "Header" 2 9 false; mkTok 2 "{" 2 16 false; mkTok 44 "// `tick` ""quote"" 'q'" 2 17 true; mkTok 42 "i64_" 3 0 false; mkTok 42 "i64_" 3 5 false; mkTok 44 "/// triple" 3 10 true; mkTok 40 "," 4 0 false; mkTok 42 "chars" 4 2 false; mkTok 42 "falsey" 4 8 false; mkTok 40 "," 4 15 false; mkTok 44 "// trailing space " 4 17 true; mkTok 22 "u32" 5 0 false; mkTok 42 "MetaDataX" 5 4 false; mkTok 44 "//x" 5 13 true; mkTok 40 "," 6 0 false; mkTok 42 "Header" 6 2 false; mkTok 42 "metadata" 6 9 false; mkTok 40 "," 6 18 false; mkTok 42 "zchar" 7 0 false; mkTok 42 "len" 7 6 false; mkTok 40 "," 7 9 false; mkTok 3 "}" 7 11 false; mkTok 1 "options" 7 12 false; mkTok 2 "{" 8 0 false; mkTok 42 "u8x" 9 4 false; mkTok 4 "=" 9 8 false; mkTok 33 "'0'" 9 10 false; mkTok 42 "calculatedFrom" 9 14 false; mkTok 4 "=" 9 29 false; mkTok 14 "zchar[" 9 30 false; mkTok 30 "4294967296" 9 37 false; mkTok 13 "]" 9 48 false; mkTok 44 "// trailing space " 10 0 true; mkTok 44 "// packet A { u8 x, }" 11 0 true; mkTok 3 "}" 12 0 false; mkTok 37 "MetaData" 12 2 false; mkTok 42 "Pad" 12 12 false; mkTok 2 "{" 12 16 false; mkTok 3 "}" 12 17 false; mkTok 0 "<EOF>" 12 18 false] (mkPacket (mkPtok 37 "MetaData" 2 0 0) (Some (mkPtok 3 "}" 12 17 39)) [(DMeta (mkMetaDef (mkSpan (mkPtok 37 "MetaData" 2 0 0) (mkPtok 3 "}" 7 11 22)) (mkPtok 37 "MetaData" 2 0 0) (mkPtok 42 "Header" 2 9 1) (mkPtok 2 "{" 2 16 2) [(MIRef (mkRefMetaDecl (mkSpan (mkPtok 42 "i64_" 3 0 4) (mkPtok 40 "," 4 0 7)) (mkPtok 42 "i64_" 3 0 4) (mkPtok 42 "i64_" 3 5 5) None (mkPtok 40 "," 4 0 7))); (MIRef (mkRefMetaDecl (mkSpan (mkPtok 42 "chars" 4 2 8) (mkPtok 40 "," 4 15 10)) (mkPtok 42 "chars" 4 2 8) (mkPtok 42 "falsey" 4 8 9) None (mkPtok 40 "," 4 15 10))); (MIDecl (mkMetaDecl (mkSpan (mkPtok 22 "u32" 5 0 12) (mkPtok 40 "," 6 0 15)) (TyBasic (mkSpan (mkPtok 22 "u32" 5 0 12) (mkPtok 22 "u32" 5 0 12)) (mkBasicType (mkSpan (mkPtok 22 "u32" 5 0 12) (mkPtok 22 "u32" 5 0 12)) (mkPtok 22 "u32" 5 0 12))) (mkPtok 42 "MetaDataX" 5 4 13) None (mkPtok 40 "," 6 0 15))); (MIRef (mkRefMetaDecl (mkSpan (mkPtok 42 "Header" 6 2 16) (mkPtok 40 "," 6 18 18)) (mkPtok 42 "Header" 6 2 16) (mkPtok 42 "metadata" 6 9 17) None (mkPtok 40 "," 6 18 18))); (MIRef (mkRefMetaDecl (mkSpan (mkPtok 42 "zchar" 7 0 19) (mkPtok 40 "," 7 9 21)) (mkPtok 42 "zchar" 7 0 19) (mkPtok 42 "len" 7 6 20) None (mkPtok 40 "," 7 9 21)))] (mkPtok 3 "}" 7 11 22))); (DOption (mkOptionDef (mkSpan (mkPtok 1 "options" 7 12 23) (mkPtok 3 "}" 12 0 35)) (mkPtok 1 "options" 7 12 23) (mkPtok 2 "{" 8 0 24) [(mkOptionDecl (mkSpan (mkPtok 42 "u8x" 9 4 25) (mkPtok 33 "'0'" 9 10 27)) (mkPtok 42 "u8x" 9 4 25) (mkPtok 4 "=" 9 8 26) (VPaddingChar (mkSpan (mkPtok 33 "'0'" 9 10 27) (mkPtok 33 "'0'" 9 10 27)) (mkPtok 33 "'0'" 9 10 27)) None); (mkOptionDecl (mkSpan (mkPtok 42 "calculatedFrom" 9 14 28) (mkPtok 13 "]" 9 48 32)) (mkPtok 42 "calculatedFrom" 9 14 28) (mkPtok 4 "=" 9 29 29) (VType (mkSpan (mkPtok 14 "zchar[" 9 30 30) (mkPtok 13 "]" 9 48 32)) (TyFixed (mkSpan (mkPtok 14 "zchar[" 9 30 30) (mkPtok 13 "]" 9 48 32)) (mkFixedString (mkSpan (mkPtok 14 "zchar[" 9 30 30) (mkPtok 13 "]" 9 48 32)) (mkPtok 14 "zchar[" 9 30 30) (mkPtok 30 "4294967296" 9 37 31) (mkPtok 13 "]" 9 48 32)))) None)] (mkPtok 3 "}" 12 0 35))); (DMeta (mkMetaDef (mkSpan (mkPtok 37 "MetaData" 12 2 36) (mkPtok 3 "}" 12 17 39)) (mkPtok 37 "MetaData" 12 2 36) (mkPtok 42 "Pad" 12 12 37) (mkPtok 2 "{" 12 16 38) [] (mkPtok 3 "}" 12 17 39)))])).
+Eval vm_compute in ("<<<M143>>>" ++ check (runes_of_ascii "root  packet
+options1
+{repeat Foo { T@lengthOf( leftPad)`two words`
+    // a // b
+    ,
+    // packet A { u8 x, }
+    A,Z9_ x`tab	here` , chars
+    `a\`,
+},@calculatedFrom( ""{,}"" ) // a // b
+float32
+    // @lengthOf(
+    T `{ , }`,
+    @lengthOf(
+crc )
+    char[ 10  ]
+    float //	t
+, repeat	char[] rootA
+    , As
+`it's` ,
+i16 zchar `" ++ [233]%N ++ runes_of_ascii "` , }packet a1 { @tag( 4294967296) Header { char[] msg_type@calculatedFrom(
+    """ ++ [128512]%N ++ runes_of_ascii """	) `` , } /// triple
+, char[ 1 ]x, @leftPad (
+'0'
+    )int64 trueish
+, }")).
+Eval vm_compute in ("<<<M175>>>" ++ check (runes_of_ascii "options
+    {	}")).
+Eval vm_compute in ("<<<M207>>>" ++ check (runes_of_ascii "packet uint8x { }
+")).
+Eval vm_compute in ("<<<M239>>>" ++ check (runes_of_ascii "packet metadata
+    { } MetaData trueish
+// 50% %s
+//
+{ metadata Logon
+    `a\` , } packet
+rootA {	@tag( 255
+)
 len
-    = ' '
-    ;
-    } // @lengthOf(")).
-Eval vm_compute in ("<<<M79>>>" ++ check (runes_of_ascii "  options
-{  T
-= ' ' }
-MetaData Pad
+    @calculatedFrom( /// triple
+""a	b"") ,	repeat f32a ,
+    repeat
+    body
+// " ++ [128512]%N ++ runes_of_ascii " emoji
+// `tick` ""quote"" 'q'
+{ char[]repeatCount ,
+}
+    , string u@lengthOf(
+    _x
+) ,
+@tag(255 ) Packet @lengthOf(// c
+packetx)	,
+metadata
+@lengthOf(
+    float ) , MetaDataX @calculatedFrom(""" ++ [233]%N ++ runes_of_ascii "t" ++ [233]%N ++ runes_of_ascii """
+    )
+    ,
+repeat
+    zchar[0 ] u8x , repeat float64 calculatedFrom
+    ,	}
+")).
+Eval vm_compute in ("<<<M271>>>" ++ check (runes_of_ascii "MetaData
+o
+    {
+// 50% %s
+// " ++ [27880; 37322]%N ++ runes_of_ascii "
+Foo _x, }
+MetaData // 50% %s
+trueish //	t
+{ u8 crc
+`" ++ [233]%N ++ runes_of_ascii "` ,u64 charz `" ++ [28040; 24687; 31867; 22411]%N ++ runes_of_ascii "` , //x
+zchar[
+    00	] // @lengthOf(
+string_,	}	packet// c
+metadata { @leftPad ( '\x00') u128@lengthOf( len ) , @lengthOf(
+    u128 // a // b
+)
+    x , @lengthOf(
+int
+    ) zchar[3 ] Logon @lengthOf(
+Logon )  `" ++ [233]%N ++ runes_of_ascii "`
+    ,Pad
+    roots ,	} // 50% %s")).
+Eval vm_compute in ("<<<M303>>>" ++ check (runes_of_ascii "packet chars { @tag( 00  ) @tag( 1 ) @lengthOf( Pad)	int8 Header // trailing space 
+@lengthOf( rootA
+), }
+")).
+Eval vm_compute in ("<<<M335>>>" ++ check (runes_of_ascii "
+packet
+// a // b
+// packet A { u8 x, }
+i8i8 {u@calculatedFrom(
+""" ++ [233]%N ++ runes_of_ascii "t" ++ [233]%N ++ runes_of_ascii """)
+`doc`
+    ,
+} // packet A { u8 x, }
+options
+    {
+u8x =true x_y_z = ' ' ;  }
+//x
+/// triple
+MetaData BodyLength{ u128// `tick` ""quote"" 'q'
+float ,}")).
+Eval vm_compute in ("<<<T335>>>" ++ terms [mkTok 35 "packet" 2 0 false; mkTok 44 "// a // b" 3 0 true; mkTok 44 "// packet A { u8 x, }" 4 0 true; mkTok 42 "i8i8" 5 0 false; mkTok 2 "{" 5 5 false; mkTok 42 "u" 5 6 false; mkTok 5 "@calculatedFrom(" 5 7 false; mkTok 31 (string_of_bytes [34; 195; 169; 116; 195; 169; 34]%N) 6 0 false; mkTok 6 ")" 6 5 false; mkTok 43 "`doc`" 7 0 false; mkTok 40 "," 8 4 false; mkTok 3 "}" 9 0 false; mkTok 44 "// packet A { u8 x, }" 9 2 true; mkTok 1 "options" 10 0 false; mkTok 2 "{" 11 4 false; mkTok 42 "u8x" 12 0 false; mkTok 4 "=" 12 4 false; mkTok 10 "true" 12 5 false; mkTok 42 "x_y_z" 12 10 false; mkTok 4 "=" 12 16 false; mkTok 33 "' '" 12 18 false; mkTok 41 ";" 12 22 false; mkTok 3 "}" 12 25 false; mkTok 44 "//x" 13 0 true; mkTok 44 "/// triple" 14 0 true; mkTok 37 "MetaData" 15 0 false; mkTok 42 "BodyLength" 15 9 false; mkTok 2 "{" 15 19 false; mkTok 42 "u128" 15 21 false; mkTok 44 "// `tick` ""quote"" 'q'" 15 25 true; mkTok 42 "float" 16 0 false; mkTok 40 "," 16 6 false; mkTok 3 "}" 16 7 false; mkTok 0 "<EOF>" 16 8 false] (mkPacket (mkPtok 35 "packet" 2 0 0) (Some (mkPtok 3 "}" 16 7 32)) [(DPacket (mkPacketDef (mkSpan (mkPtok 35 "packet" 2 0 0) (mkPtok 3 "}" 9 0 11)) None (mkPtok 35 "packet" 2 0 0) (mkPtok 42 "i8i8" 5 0 3) (mkPtok 2 "{" 5 5 4) [(mkFieldWithAttr (mkSpan (mkPtok 42 "u" 5 6 5) (mkPtok 40 "," 8 4 10)) [] (CheckSumField (mkSpan (mkPtok 42 "u" 5 6 5) (mkPtok 40 "," 8 4 10)) (mkChecksumFieldDecl (mkSpan (mkPtok 42 "u" 5 6 5) (mkPtok 40 "," 8 4 10)) None (mkPtok 42 "u" 5 6 5) (mkCalculatedFrom (mkSpan (mkPtok 5 "@calculatedFrom(" 5 7 6) (mkPtok 6 ")" 6 5 8)) (mkPtok 5 "@calculatedFrom(" 5 7 6) (mkPtok 31 (string_of_bytes [34; 195; 169; 116; 195; 169; 34]%N) 6 0 7) (mkPtok 6 ")" 6 5 8)) (Some (mkPtok 43 "`doc`" 7 0 9)) (mkPtok 40 "," 8 4 10))))] (mkPtok 3 "}" 9 0 11))); (DOption (mkOptionDef (mkSpan (mkPtok 1 "options" 10 0 13) (mkPtok 3 "}" 12 25 22)) (mkPtok 1 "options" 10 0 13) (mkPtok 2 "{" 11 4 14) [(mkOptionDecl (mkSpan (mkPtok 42 "u8x" 12 0 15) (mkPtok 10 "true" 12 5 17)) (mkPtok 42 "u8x" 12 0 15) (mkPtok 4 "=" 12 4 16) (VTrue (mkSpan (mkPtok 10 "true" 12 5 17) (mkPtok 10 "true" 12 5 17)) (mkPtok 10 "true" 12 5 17)) None); (mkOptionDecl (mkSpan (mkPtok 42 "x_y_z" 12 10 18) (mkPtok 41 ";" 12 22 21)) (mkPtok 42 "x_y_z" 12 10 18) (mkPtok 4 "=" 12 16 19) (VPaddingChar (mkSpan (mkPtok 33 "' '" 12 18 20) (mkPtok 33 "' '" 12 18 20)) (mkPtok 33 "' '" 12 18 20)) (Some (mkPtok 41 ";" 12 22 21)))] (mkPtok 3 "}" 12 25 22))); (DMeta (mkMetaDef (mkSpan (mkPtok 37 "MetaData" 15 0 25) (mkPtok 3 "}" 16 7 32)) (mkPtok 37 "MetaData" 15 0 25) (mkPtok 42 "BodyLength" 15 9 26) (mkPtok 2 "{" 15 19 27) [(MIRef (mkRefMetaDecl (mkSpan (mkPtok 42 "u128" 15 21 28) (mkPtok 40 "," 16 6 31)) (mkPtok 42 "u128" 15 21 28) (mkPtok 42 "float" 16 0 30) None (mkPtok 40 "," 16 6 31)))] (mkPtok 3 "}" 16 7 32)))])).
+Eval vm_compute in ("<<<M367>>>" ++ check (runes_of_ascii "  packet metadata	{ char[ // trailing space 
+4294967296
+] a1 // " ++ [27880; 37322]%N ++ runes_of_ascii "
+, } packet BodyLength
+    {
+    trueish , char[ 00
+]
+    Logon // " ++ [128512]%N ++ runes_of_ascii " emoji
+@lengthOf(
+    As
+// " ++ [128512]%N ++ runes_of_ascii " emoji
+// 50% %s
+) , repeat uint32 u8x // 50% %s
+,
+    char[] len
+    @lengthOf( /// triple
+i8i8 )  , packetx chars,
+    // packet A { u8 x, }
+    string Packet@calculatedFrom(	""a	b""),match
+len  as msg_type { [
+42]	: x , }  ,
+chars {
+u128 asx , }	, i32 As  @calculatedFrom(""a	b"" )
+    , repeat repeatCount
+    // " ++ [27880; 37322]%N ++ runes_of_ascii "
+    { repeat u8x {
+    char[]_x
+`crlf
+line` ,
+    match f32a as//	t
+i8i8  { [/// triple
+007	,
+4294967296 ,  """ ++ [28040; 24687]%N ++ runes_of_ascii """ , // packet A { u8 x, }
+""a	b"" // packet A { u8 x, }
+,""// no comment"" ,""a\""b"" ,
+// trailing space 
+//
+""CRC32"" , 7]:Foo 0123456789 :
+    Header
+    ,""it's"" : u 65535 :	Foo , 65535 :
+/// triple
+//x
+stringy
+    , 255  : f32a ,//	t
+}
+, match
+A
+    //	t
+    as u128 { 10 :chars
+    ""{,}"" :i64_""\n""
+    : //	t
+o , ""{,}"" :	x_y_z // 50% %s
+,[ 0123456789, """ ++ [28040; 24687]%N ++ runes_of_ascii """] :	a1 , }
+,
+} ,
+    A @lengthOf(
+    // " ++ [27880; 37322]%N ++ runes_of_ascii "
+    u8x  ) , },	}")).
+Eval vm_compute in ("<<<M399>>>" ++ check (runes_of_ascii "
+")).
+Eval vm_compute in ("<<<M431>>>" ++ check (runes_of_ascii "  MetaData zchar {	char[] rootA
+    , }
+MetaData roots { int16 // @lengthOf(
+Logon	,  u32 matchKey //	t
+`say ""hi""` ,
+char[ 00
+    ]
+f32a
+`line1
+line2` ,// trailing space 
+packetx matchKey	, } MetaData u{ string len , }")).
+Eval vm_compute in ("<<<M463>>>" ++ check (runes_of_ascii "MetaData pack {
+// c
+//	t
+i16
+float`two words` , // " ++ [128512]%N ++ runes_of_ascii " emoji
+string string_,u16 charz ,
+    string_ // a // b
+crc ,	Packet
+Z9_ ,
+    }
+")).
+Eval vm_compute in ("<<<M495>>>" ++ check (runes_of_ascii "root packet  calculatedFrom {@calculatedFrom( """ ++ [128512]%N ++ runes_of_ascii """ ) match metadata as  chars	{ ""a	b"" :
+roots
+    , ""\n"": BodyLength
+, 00: lengthOf , }, } root packet // `tick` ""quote"" 'q'
+crc {	@rightPad(  )
+    string//x
+stringy
+@calculatedFrom( """")`doc`
+// @lengthOf(
+// c
+, @calculatedFrom( ""it's""
+    ) @leftPad
+(
+'0'
+    ) uint16 len @calculatedFrom( ""// no comment"" )
+,// " ++ [128512]%N ++ runes_of_ascii " emoji
+string x
+,}	packet options1{  uint8 matchKey  @lengthOf( u	)
+    ,
+repeat u8x  { float32
+tag `say ""hi""` , options1 Pad ,falsey // trailing space 
+{ repeat i8 body  `tab	here`, } ,} ,	@calculatedFrom(
+    """ ++ [128512]%N ++ runes_of_ascii """ ) string_
+// @lengthOf(
+//
+@lengthOf( falsey )// " ++ [27880; 37322]%N ++ runes_of_ascii "
+`doc` ,  }")).
+Eval vm_compute in ("<<<M527>>>" ++ check (runes_of_ascii "packet
+packetx{ }
+
+")).
+Eval vm_compute in ("<<<M559>>>" ++ check (runes_of_ascii "
+packet
+    //x
+    BodyLength
+    {@lengthOf(
+As
+    )  @rightPad ()@lengthOf( len )uint8 leftPad , u	{	match
+body as Header { // c
+[	4294967296 // c
+,
+7 ,""abc"" , 1 ]
+:
+    // a // b
+    stringy , }
+    , char[ 0 ] /// triple
+leftPad @lengthOf( i8i8 )	,  u64 // 50% %s
+charz
+    , repeat uint16
+    a1  ,
+    // @lengthOf(
+    } // packet A { u8 x, }
+,
+zchar[ //x
+0123456789
+    ]BodyLength @calculatedFrom( ""{,}""
+    ) //
+,
+BodyLength`{ , }` ,
+}packet u8x
+    { repeat len
     //x
     {
-string_ u128  , u64 // @lengthOf(
-uint8x `two words` , int8 repeatCount
-, }
-    packet
-len{
-    Packet
+    u32
+    //
+    f32a `" ++ [28040; 24687; 31867; 22411]%N ++ runes_of_ascii "` ,	A ,i64 matchKey , }  , }
+MetaData	_x{ } packet _x {
+f32a
+    {
+f32 body // a // b
+, uint16 u128, matchKey @lengthOf(Packet ) , }	, repeat zchar[ 0123456789
+    ]
+float
+`" ++ [233]%N ++ runes_of_ascii "` ,
+f32 i8i8 `doc` ,
+    repeat string_ , A
+    // packet A { u8 x, }
     `
 `
-,@calculatedFrom( ""a\""b""
-) zchar[
-    42 ]
-rootA ,
-    @calculatedFrom(
-""packet"" )
-@calculatedFrom( ""\n"" ) Packet @calculatedFrom( ""\" ++ [233]%N ++ runes_of_ascii """  )
-    `" ++ [28040; 24687; 31867; 22411]%N ++ runes_of_ascii "`, @leftPad
-    (
-    '\x00' )
-@leftPad (	)
-@rightPad (
-)
-repeat string_
-    {match asx // c
-as rootA {[
-""`tick`"",65535	]:
-falsey ,} , trueish
-, char Z9_`// not a comment` ,
-    Packet Logon `{ , }`, } ,@tag( 1 )
-    match x as pack//	t
-{
-1 :stringy // `tick` ""quote"" 'q'
-, [	42 ]:  x }  ,
-repeat//x
-i8 u8x , @calculatedFrom(""packet"") string_ // c
-@lengthOf( rootA ),	falsey
-@lengthOf( x )
-,} options
-{}
-root packet u { @lengthOf(x_y_z )	u
-    @calculatedFrom( """"
-)
-`two words`, }")).
-Eval vm_compute in ("<<<M111>>>" ++ check (runes_of_ascii "
-packet a1{ match /// triple
-T as pack
-{007 : Header ,} , calculatedFrom	, } MetaData
-options1
-    { }")).
-Eval vm_compute in ("<<<T111>>>" ++ terms [mkTok 35 "packet" 2 0 false; mkTok 42 "a1" 2 7 false; mkTok 2 "{" 2 9 false; mkTok 38 "match" 2 11 false; mkTok 44 "/// triple" 2 17 true; mkTok 42 "T" 3 0 false; mkTok 17 "as" 3 2 false; mkTok 42 "pack" 3 5 false; mkTok 2 "{" 4 0 false; mkTok 30 "007" 4 1 false; mkTok 39 ":" 4 5 false; mkTok 42 "Header" 4 7 false; mkTok 40 "," 4 14 false; mkTok 3 "}" 4 15 false; mkTok 40 "," 4 17 false; mkTok 42 "calculatedFrom" 4 19 false; mkTok 40 "," 4 34 false; mkTok 3 "}" 4 36 false; mkTok 37 "MetaData" 4 38 false; mkTok 42 "options1" 5 0 false; mkTok 2 "{" 6 4 false; mkTok 3 "}" 6 6 false; mkTok 0 "<EOF>" 6 7 false] (mkPacket (mkPtok 35 "packet" 2 0 0) (Some (mkPtok 3 "}" 6 6 21)) [(DPacket (mkPacketDef (mkSpan (mkPtok 35 "packet" 2 0 0) (mkPtok 3 "}" 4 36 17)) None (mkPtok 35 "packet" 2 0 0) (mkPtok 42 "a1" 2 7 1) (mkPtok 2 "{" 2 9 2) [(mkFieldWithAttr (mkSpan (mkPtok 38 "match" 2 11 3) (mkPtok 40 "," 4 17 14)) [] (MatchField (mkSpan (mkPtok 38 "match" 2 11 3) (mkPtok 40 "," 4 17 14)) (mkMatchFieldDecl (mkSpan (mkPtok 38 "match" 2 11 3) (mkPtok 3 "}" 4 15 13)) (mkPtok 38 "match" 2 11 3) (mkPtok 42 "T" 3 0 5) (mkPtok 17 "as" 3 2 6) (mkPtok 42 "pack" 3 5 7) (mkPtok 2 "{" 4 0 8) [(mkMatchPair (mkSpan (mkPtok 30 "007" 4 1 9) (mkPtok 40 "," 4 14 12)) (MKDigits (mkPtok 30 "007" 4 1 9)) (mkPtok 39 ":" 4 5 10) (mkPtok 42 "Header" 4 7 11) (Some (mkPtok 40 "," 4 14 12)))] (mkPtok 3 "}" 4 15 13)) (mkPtok 40 "," 4 17 14))); (mkFieldWithAttr (mkSpan (mkPtok 42 "calculatedFrom" 4 19 15) (mkPtok 40 "," 4 34 16)) [] (ObjectField (mkSpan (mkPtok 42 "calculatedFrom" 4 19 15) (mkPtok 40 "," 4 34 16)) None (mkPtok 42 "calculatedFrom" 4 19 15) None None (mkPtok 40 "," 4 34 16)))] (mkPtok 3 "}" 4 36 17))); (DMeta (mkMetaDef (mkSpan (mkPtok 37 "MetaData" 4 38 18) (mkPtok 3 "}" 6 6 21)) (mkPtok 37 "MetaData" 4 38 18) (mkPtok 42 "options1" 5 0 19) (mkPtok 2 "{" 6 4 20) [] (mkPtok 3 "}" 6 6 21)))])).
-Eval vm_compute in ("<<<M143>>>" ++ check (runes_of_ascii "//x
-MetaData falsey{ string Pad , }
-")).
-Eval vm_compute in ("<<<M175>>>" ++ check (runes_of_ascii "root packet leftPad
-    { f32a	tag ,
-    }
-")).
-Eval vm_compute in ("<<<M207>>>" ++ check (runes_of_ascii "options
-{ }	MetaData
-Foo {
-char[
-    0 ]  Logon `u8 x,` ,// packet A { u8 x, }
-zchar[ 255 ]
-    calculatedFrom `
-` ,
-    zchar[ 00 ]o
-    `u8 x,` ,char[255 ]
-Header `a\`// `tick` ""quote"" 'q'
-, // a // b
-Pad
-    Pad ,
-    } packet i8i8 {
-    u32
-    // " ++ [128512]%N ++ runes_of_ascii " emoji
-    float,// @lengthOf(
-As @calculatedFrom( ""// no comment"" ) , }")).
-Eval vm_compute in ("<<<M239>>>" ++ check (runes_of_ascii "packet x { lengthOf rootA , @rightPad
-( '0' )
-i8 asx @lengthOf( calculatedFrom // a // b
-),
-@lengthOf( Pad ) repeat //x
-int16 trueish // c
-``// " ++ [27880; 37322]%N ++ runes_of_ascii "
-, @calculatedFrom(
-""" ++ [128512]%N ++ runes_of_ascii """) @tag(0
-)
-@lengthOf( // a // b
-matchKey ) string MetaDataX`doc`
-,
-i16 // `tick` ""quote"" 'q'
-options1 @lengthOf(
-    // " ++ [27880; 37322]%N ++ runes_of_ascii "
-    u8x
-    // " ++ [128512]%N ++ runes_of_ascii " emoji
-    ) `a\` ,
-    u128
-u128`line1
-line2`,}")).
-Eval vm_compute in ("<<<M271>>>" ++ check (runes_of_ascii "
-packet
-crc{ } options
-{ len= '0' } packet uint8x {T  charz `u8 x,` ,
-}
-    MetaData  packetx //	t
-{
-// `tick` ""quote"" 'q'
-// trailing space 
-} options
-    { Header
-    =""CRC32""
-;
-    charz =
-    string MetaDataX
-=
-true ;}
-")).
-Eval vm_compute in ("<<<M303>>>" ++ check (runes_of_ascii "packet a1 {
-}
-options{
-MetaDataX = ""`tick`"" uint8x = false; f32a = zchar[	00] ; } // `tick` ""quote"" 'q'")).
-Eval vm_compute in ("<<<M335>>>" ++ check (runes_of_ascii "options { lengthOf =
-""CRC32"" ; stringy = uint16;  u8x =float32 ; x_y_z
-    // c
-    =  zchar[ 007]
-repeatCount  = ""a\""b"" ;
-// c
-//	t
-}
-MetaData trueish { As roots `" ++ [28040; 24687; 31867; 22411]%N ++ runes_of_ascii "`
-, char[ 00 ] Packet// c
-, } root
-packet roots
-{ int8 Logon, body@lengthOf( lengthOf
-) `
-` , @rightPad (	'0' )
-    Packet@calculatedFrom(""x y""
-)`a\` ,
-@lengthOf( T ) match matchKey as _x// trailing space 
-{ """ ++ [128512]%N ++ runes_of_ascii """	:
-stringy ,
-4294967296:  x_y_z ,""\n""
-: leftPad[
-42 , 42
-    , ""it's"" , ""\n"" ,""// no comment""	] : asx ,} , char[
-    10// trailing space 
-]BodyLength ,
-@leftPad (	'0'
-) char[]
-    /// triple
-    Z9_ `crlf
-line`, string falsey
-    , int16 // c
-asx  @calculatedFrom( ""x y"" ) ,u128 Z9_ `it's` ,
-    @rightPad
-// " ++ [128512]%N ++ runes_of_ascii " emoji
-// @lengthOf(
-( '0'
-)Packet {
-    // " ++ [128512]%N ++ runes_of_ascii " emoji
-    int64
-    float ,
-repeat leftPad{
-repeat
-Z9_ {
-    match T
-as lengthOf{ ""`tick`"" :msg_type""1"" : x_y_z , 0 : chars , } ,
-    } , repeat trueish
-    { zchar[
-255 ]
-crc	`doc` , char Logon @lengthOf( _x
-    // " ++ [128512]%N ++ runes_of_ascii " emoji
-    )
-,
-    //
-    a1 `doc`,
-//x
-//	t
-} , match msg_type as zchar { ""it's"" // c
-:
-/// triple
-// packet A { u8 x, }
-body
-, """ ++ [28040; 24687]%N ++ runes_of_ascii """ : // `tick` ""quote"" 'q'
-u,} ,} , } ,
-}
-packet// `tick` ""quote"" 'q'
-As// " ++ [27880; 37322]%N ++ runes_of_ascii "
-{
-@leftPad (
-    // c
-    '\x00' ) @tag( 255
-    )
-    @lengthOf( // `tick` ""quote"" 'q'
-o
-)zchar[ 42 ] string_ @calculatedFrom(
-""a\""b""	)`" ++ [28040; 24687; 31867; 22411]%N ++ runes_of_ascii "`
-, char[] repeatCount//	t
-@lengthOf(
-calculatedFrom) ,metadata @calculatedFrom(
-    ""abc""
-) `two words`
-    ,
-// `tick` ""quote"" 'q'
-// c
-@lengthOf(matchKey ) match
-packetx as falsey { 007
-: A,""1"" : packetx , //
-7 :charz
-, [ 65535 ]:stringy 65535
-    :a1 [  ""a	b""
-, 1] :
-    Logon
 // a // b
-// " ++ [128512]%N ++ runes_of_ascii " emoji
-}, }")).
-Eval vm_compute in ("<<<T335>>>" ++ terms [mkTok 1 "options" 1 0 false; mkTok 2 "{" 1 8 false; mkTok 42 "lengthOf" 1 10 false; mkTok 4 "=" 1 19 false; mkTok 31 """CRC32""" 2 0 false; mkTok 41 ";" 2 8 false; mkTok 42 "stringy" 2 10 false; mkTok 4 "=" 2 18 false; mkTok 21 "uint16" 2 20 false; mkTok 41 ";" 2 26 false; mkTok 42 "u8x" 2 29 false; mkTok 4 "=" 2 33 false; mkTok 28 "float32" 2 34 false; mkTok 41 ";" 2 42 false; mkTok 42 "x_y_z" 2 44 false; mkTok 44 "// c" 3 4 true; mkTok 4 "=" 4 4 false; mkTok 14 "zchar[" 4 7 false; mkTok 30 "007" 4 14 false; mkTok 13 "]" 4 17 false; mkTok 42 "repeatCount" 5 0 false; mkTok 4 "=" 5 13 false; mkTok 31 """a\""b""" 5 15 false; mkTok 41 ";" 5 22 false; mkTok 44 "// c" 6 0 true; mkTok 44 (string_of_bytes [47; 47; 9; 116]%N) 7 0 true; mkTok 3 "}" 8 0 false; mkTok 37 "MetaData" 9 0 false; mkTok 42 "trueish" 9 9 false; mkTok 2 "{" 9 17 false; mkTok 42 "As" 9 19 false; mkTok 42 "roots" 9 22 false; mkTok 43 (string_of_bytes [96; 230; 182; 136; 230; 129; 175; 231; 177; 187; 229; 158; 139; 96]%N) 9 28 false; mkTok 40 "," 10 0 false; mkTok 12 "char[" 10 2 false; mkTok 30 "00" 10 8 false; mkTok 13 "]" 10 11 false; mkTok 42 "Packet" 10 13 false; mkTok 44 "// c" 10 19 true; mkTok 40 "," 11 0 false; mkTok 3 "}" 11 2 false; mkTok 34 "root" 11 4 false; mkTok 35 "packet" 12 0 false; mkTok 42 "roots" 12 7 false; mkTok 2 "{" 13 0 false; mkTok 24 "int8" 13 2 false; mkTok 42 "Logon" 13 7 false; mkTok 40 "," 13 12 false; mkTok 42 "body" 13 14 false; mkTok 7 "@lengthOf(" 13 18 false; mkTok 42 "lengthOf" 13 29 false; mkTok 6 ")" 14 0 false; mkTok 43 (string_of_bytes [96; 10; 96]%N) 14 2 false; mkTok 40 "," 15 2 false; mkTok 32 "@rightPad" 15 4 false; mkTok 8 "(" 15 14 false; mkTok 33 "'0'" 15 16 false; mkTok 6 ")" 15 20 false; mkTok 42 "Packet" 16 4 false; mkTok 5 "@calculatedFrom(" 16 10 false; mkTok 31 """x y""" 16 26 false; mkTok 6 ")" 17 0 false; mkTok 43 "`a\`" 17 1 false; mkTok 40 "," 17 6 false; mkTok 7 "@lengthOf(" 18 0 false; mkTok 42 "T" 18 11 false; mkTok 6 ")" 18 13 false; mkTok 38 "match" 18 15 false; mkTok 42 "matchKey" 18 21 false; mkTok 17 "as" 18 30 false; mkTok 42 "_x" 18 33 false; mkTok 44 "// trailing space " 18 35 true; mkTok 2 "{" 19 0 false; mkTok 31 (string_of_bytes [34; 240; 159; 152; 128; 34]%N) 19 2 false; mkTok 39 ":" 19 6 false; mkTok 42 "stringy" 20 0 false; mkTok 40 "," 20 8 false; mkTok 30 "4294967296" 21 0 false; mkTok 39 ":" 21 10 false; mkTok 42 "x_y_z" 21 13 false; mkTok 40 "," 21 19 false; mkTok 31 """\n""" 21 20 false; mkTok 39 ":" 22 0 false; mkTok 42 "leftPad" 22 2 false; mkTok 18 "[" 22 9 false; mkTok 30 "42" 23 0 false; mkTok 40 "," 23 3 false; mkTok 30 "42" 23 5 false; mkTok 40 "," 24 4 false; mkTok 31 """it's""" 24 6 false; mkTok 40 "," 24 13 false; mkTok 31 """\n""" 24 15 false; mkTok 40 "," 24 20 false; mkTok 31 """// no comment""" 24 21 false; mkTok 13 "]" 24 37 false; mkTok 39 ":" 24 39 false; mkTok 42 "asx" 24 41 false; mkTok 40 "," 24 45 false; mkTok 3 "}" 24 46 false; mkTok 40 "," 24 48 false; mkTok 12 "char[" 24 50 false; mkTok 30 "10" 25 4 false; mkTok 44 "// trailing space " 25 6 true; mkTok 13 "]" 26 0 false; mkTok 42 "BodyLength" 26 1 false; mkTok 40 "," 26 12 false; mkTok 32 "@leftPad" 27 0 false; mkTok 8 "(" 27 9 false; mkTok 33 "'0'" 27 11 false; mkTok 6 ")" 28 0 false; mkTok 16 "char[]" 28 2 false; mkTok 44 "/// triple" 29 4 true; mkTok 42 "Z9_" 30 4 false; mkTok 43 (string_of_bytes [96; 99; 114; 108; 102; 13; 10; 108; 105; 110; 101; 96]%N) 30 8 false; mkTok 40 "," 31 5 false; mkTok 15 "string" 31 7 false; mkTok 42 "falsey" 31 14 false; mkTok 40 "," 32 4 false; mkTok 25 "int16" 32 6 false; mkTok 44 "// c" 32 12 true; mkTok 42 "asx" 33 0 false; mkTok 5 "@calculatedFrom(" 33 5 false; mkTok 31 """x y""" 33 22 false; mkTok 6 ")" 33 28 false; mkTok 40 "," 33 30 false; mkTok 42 "u128" 33 31 false; mkTok 42 "Z9_" 33 36 false; mkTok 43 "`it's`" 33 40 false; mkTok 40 "," 33 47 false; mkTok 32 "@rightPad" 34 4 false; mkTok 44 (string_of_bytes [47; 47; 32; 240; 159; 152; 128; 32; 101; 109; 111; 106; 105]%N) 35 0 true; mkTok 44 "// @lengthOf(" 36 0 true; mkTok 8 "(" 37 0 false; mkTok 33 "'0'" 37 2 false; mkTok 6 ")" 38 0 false; mkTok 42 "Packet" 38 1 false; mkTok 2 "{" 38 8 false; mkTok 44 (string_of_bytes [47; 47; 32; 240; 159; 152; 128; 32; 101; 109; 111; 106; 105]%N) 39 4 true; mkTok 27 "int64" 40 4 false; mkTok 42 "float" 41 4 false; mkTok 40 "," 41 10 false; mkTok 36 "repeat" 42 0 false; mkTok 42 "leftPad" 42 7 false; mkTok 2 "{" 42 14 false; mkTok 36 "repeat" 43 0 false; mkTok 42 "Z9_" 44 0 false; mkTok 2 "{" 44 4 false; mkTok 38 "match" 45 4 false; mkTok 42 "T" 45 10 false; mkTok 17 "as" 46 0 false; mkTok 42 "lengthOf" 46 3 false; mkTok 2 "{" 46 11 false; mkTok 31 """`tick`""" 46 13 false; mkTok 39 ":" 46 22 false; mkTok 42 "msg_type" 46 23 false; mkTok 31 """1""" 46 31 false; mkTok 39 ":" 46 35 false; mkTok 42 "x_y_z" 46 37 false; mkTok 40 "," 46 43 false; mkTok 30 "0" 46 45 false; mkTok 39 ":" 46 47 false; mkTok 42 "chars" 46 49 false; mkTok 40 "," 46 55 false; mkTok 3 "}" 46 57 false; mkTok 40 "," 46 59 false; mkTok 3 "}" 47 4 false; mkTok 40 "," 47 6 false; mkTok 36 "repeat" 47 8 false; mkTok 42 "trueish" 47 15 false; mkTok 2 "{" 48 4 false; mkTok 14 "zchar[" 48 6 false; mkTok 30 "255" 49 0 false; mkTok 13 "]" 49 4 false; mkTok 42 "crc" 50 0 false; mkTok 43 "`doc`" 50 4 false; mkTok 40 "," 50 10 false; mkTok 19 "char" 50 12 false; mkTok 42 "Logon" 50 17 false; mkTok 7 "@lengthOf(" 50 23 false; mkTok 42 "_x" 50 34 false; mkTok 44 (string_of_bytes [47; 47; 32; 240; 159; 152; 128; 32; 101; 109; 111; 106; 105]%N) 51 4 true; mkTok 6 ")" 52 4 false; mkTok 40 "," 53 0 false; mkTok 44 "//" 54 4 true; mkTok 42 "a1" 55 4 false; mkTok 43 "`doc`" 55 7 false; mkTok 40 "," 55 12 false; mkTok 44 "//x" 56 0 true; mkTok 44 (string_of_bytes [47; 47; 9; 116]%N) 57 0 true; mkTok 3 "}" 58 0 false; mkTok 40 "," 58 2 false; mkTok 38 "match" 58 4 false; mkTok 42 "msg_type" 58 10 false; mkTok 17 "as" 58 19 false; mkTok 42 "zchar" 58 22 false; mkTok 2 "{" 58 28 false; mkTok 31 """it's""" 58 30 false; mkTok 44 "// c" 58 37 true; mkTok 39 ":" 59 0 false; mkTok 44 "/// triple" 60 0 true; mkTok 44 "// packet A { u8 x, }" 61 0 true; mkTok 42 "body" 62 0 false; mkTok 40 "," 63 0 false; mkTok 31 (string_of_bytes [34; 230; 182; 136; 230; 129; 175; 34]%N) 63 2 false; mkTok 39 ":" 63 7 false; mkTok 44 "// `tick` ""quote"" 'q'" 63 9 true; mkTok 42 "u" 64 0 false; mkTok 40 "," 64 1 false; mkTok 3 "}" 64 2 false; mkTok 40 "," 64 4 false; mkTok 3 "}" 64 5 false; mkTok 40 "," 64 7 false; mkTok 3 "}" 64 9 false; mkTok 40 "," 64 11 false; mkTok 3 "}" 65 0 false; mkTok 35 "packet" 66 0 false; mkTok 44 "// `tick` ""quote"" 'q'" 66 6 true; mkTok 42 "As" 67 0 false; mkTok 44 (string_of_bytes [47; 47; 32; 230; 179; 168; 233; 135; 138]%N) 67 2 true; mkTok 2 "{" 68 0 false; mkTok 32 "@leftPad" 69 0 false; mkTok 8 "(" 69 9 false; mkTok 44 "// c" 70 4 true; mkTok 33 "'\x00'" 71 4 false; mkTok 6 ")" 71 11 false; mkTok 9 "@tag(" 71 13 false; mkTok 30 "255" 71 19 false; mkTok 6 ")" 72 4 false; mkTok 7 "@lengthOf(" 73 4 false; mkTok 44 "// `tick` ""quote"" 'q'" 73 15 true; mkTok 42 "o" 74 0 false; mkTok 6 ")" 75 0 false; mkTok 14 "zchar[" 75 1 false; mkTok 30 "42" 75 8 false; mkTok 13 "]" 75 11 false; mkTok 42 "string_" 75 13 false; mkTok 5 "@calculatedFrom(" 75 21 false; mkTok 31 """a\""b""" 76 0 false; mkTok 6 ")" 76 7 false; mkTok 43 (string_of_bytes [96; 230; 182; 136; 230; 129; 175; 231; 177; 187; 229; 158; 139; 96]%N) 76 8 false; mkTok 40 "," 77 0 false; mkTok 16 "char[]" 77 2 false; mkTok 42 "repeatCount" 77 9 false; mkTok 44 (string_of_bytes [47; 47; 9; 116]%N) 77 20 true; mkTok 7 "@lengthOf(" 78 0 false; mkTok 42 "calculatedFrom" 79 0 false; mkTok 6 ")" 79 14 false; mkTok 40 "," 79 16 false; mkTok 42 "metadata" 79 17 false; mkTok 5 "@calculatedFrom(" 79 26 false; mkTok 31 """abc""" 80 4 false; mkTok 6 ")" 81 0 false; mkTok 43 "`two words`" 81 2 false; mkTok 40 "," 82 4 false; mkTok 44 "// `tick` ""quote"" 'q'" 83 0 true; mkTok 44 "// c" 84 0 true; mkTok 7 "@lengthOf(" 85 0 false; mkTok 42 "matchKey" 85 10 false; mkTok 6 ")" 85 19 false; mkTok 38 "match" 85 21 false; mkTok 42 "packetx" 86 0 false; mkTok 17 "as" 86 8 false; mkTok 42 "falsey" 86 11 false; mkTok 2 "{" 86 18 false; mkTok 30 "007" 86 20 false; mkTok 39 ":" 87 0 false; mkTok 42 "A" 87 2 false; mkTok 40 "," 87 3 false; mkTok 31 """1""" 87 4 false; mkTok 39 ":" 87 8 false; mkTok 42 "packetx" 87 10 false; mkTok 40 "," 87 18 false; mkTok 44 "//" 87 20 true; mkTok 30 "7" 88 0 false; mkTok 39 ":" 88 2 false; mkTok 42 "charz" 88 3 false; mkTok 40 "," 89 0 false; mkTok 18 "[" 89 2 false; mkTok 30 "65535" 89 4 false; mkTok 13 "]" 89 10 false; mkTok 39 ":" 89 11 false; mkTok 42 "stringy" 89 12 false; mkTok 30 "65535" 89 20 false; mkTok 39 ":" 90 4 false; mkTok 42 "a1" 90 5 false; mkTok 18 "[" 90 8 false; mkTok 31 (string_of_bytes [34; 97; 9; 98; 34]%N) 90 11 false; mkTok 40 "," 91 0 false; mkTok 30 "1" 91 2 false; mkTok 13 "]" 91 3 false; mkTok 39 ":" 91 5 false; mkTok 42 "Logon" 92 4 false; mkTok 44 "// a // b" 93 0 true; mkTok 44 (string_of_bytes [47; 47; 32; 240; 159; 152; 128; 32; 101; 109; 111; 106; 105]%N) 94 0 true; mkTok 3 "}" 95 0 false; mkTok 40 "," 95 1 false; mkTok 3 "}" 95 3 false; mkTok 0 "<EOF>" 95 4 false] (mkPacket (mkPtok 1 "options" 1 0 0) (Some (mkPtok 3 "}" 95 3 296)) [(DOption (mkOptionDef (mkSpan (mkPtok 1 "options" 1 0 0) (mkPtok 3 "}" 8 0 26)) (mkPtok 1 "options" 1 0 0) (mkPtok 2 "{" 1 8 1) [(mkOptionDecl (mkSpan (mkPtok 42 "lengthOf" 1 10 2) (mkPtok 41 ";" 2 8 5)) (mkPtok 42 "lengthOf" 1 10 2) (mkPtok 4 "=" 1 19 3) (VString (mkSpan (mkPtok 31 """CRC32""" 2 0 4) (mkPtok 31 """CRC32""" 2 0 4)) (mkPtok 31 """CRC32""" 2 0 4)) (Some (mkPtok 41 ";" 2 8 5))); (mkOptionDecl (mkSpan (mkPtok 42 "stringy" 2 10 6) (mkPtok 41 ";" 2 26 9)) (mkPtok 42 "stringy" 2 10 6) (mkPtok 4 "=" 2 18 7) (VType (mkSpan (mkPtok 21 "uint16" 2 20 8) (mkPtok 21 "uint16" 2 20 8)) (TyBasic (mkSpan (mkPtok 21 "uint16" 2 20 8) (mkPtok 21 "uint16" 2 20 8)) (mkBasicType (mkSpan (mkPtok 21 "uint16" 2 20 8) (mkPtok 21 "uint16" 2 20 8)) (mkPtok 21 "uint16" 2 20 8)))) (Some (mkPtok 41 ";" 2 26 9))); (mkOptionDecl (mkSpan (mkPtok 42 "u8x" 2 29 10) (mkPtok 41 ";" 2 42 13)) (mkPtok 42 "u8x" 2 29 10) (mkPtok 4 "=" 2 33 11) (VType (mkSpan (mkPtok 28 "float32" 2 34 12) (mkPtok 28 "float32" 2 34 12)) (TyBasic (mkSpan (mkPtok 28 "float32" 2 34 12) (mkPtok 28 "float32" 2 34 12)) (mkBasicType (mkSpan (mkPtok 28 "float32" 2 34 12) (mkPtok 28 "float32" 2 34 12)) (mkPtok 28 "float32" 2 34 12)))) (Some (mkPtok 41 ";" 2 42 13))); (mkOptionDecl (mkSpan (mkPtok 42 "x_y_z" 2 44 14) (mkPtok 13 "]" 4 17 19)) (mkPtok 42 "x_y_z" 2 44 14) (mkPtok 4 "=" 4 4 16) (VType (mkSpan (mkPtok 14 "zchar[" 4 7 17) (mkPtok 13 "]" 4 17 19)) (TyFixed (mkSpan (mkPtok 14 "zchar[" 4 7 17) (mkPtok 13 "]" 4 17 19)) (mkFixedString (mkSpan (mkPtok 14 "zchar[" 4 7 17) (mkPtok 13 "]" 4 17 19)) (mkPtok 14 "zchar[" 4 7 17) (mkPtok 30 "007" 4 14 18) (mkPtok 13 "]" 4 17 19)))) None); (mkOptionDecl (mkSpan (mkPtok 42 "repeatCount" 5 0 20) (mkPtok 41 ";" 5 22 23)) (mkPtok 42 "repeatCount" 5 0 20) (mkPtok 4 "=" 5 13 21) (VString (mkSpan (mkPtok 31 """a\""b""" 5 15 22) (mkPtok 31 """a\""b""" 5 15 22)) (mkPtok 31 """a\""b""" 5 15 22)) (Some (mkPtok 41 ";" 5 22 23)))] (mkPtok 3 "}" 8 0 26))); (DMeta (mkMetaDef (mkSpan (mkPtok 37 "MetaData" 9 0 27) (mkPtok 3 "}" 11 2 40)) (mkPtok 37 "MetaData" 9 0 27) (mkPtok 42 "trueish" 9 9 28) (mkPtok 2 "{" 9 17 29) [(MIRef (mkRefMetaDecl (mkSpan (mkPtok 42 "As" 9 19 30) (mkPtok 40 "," 10 0 33)) (mkPtok 42 "As" 9 19 30) (mkPtok 42 "roots" 9 22 31) (Some (mkPtok 43 (string_of_bytes [96; 230; 182; 136; 230; 129; 175; 231; 177; 187; 229; 158; 139; 96]%N) 9 28 32)) (mkPtok 40 "," 10 0 33))); (MIDecl (mkMetaDecl (mkSpan (mkPtok 12 "char[" 10 2 34) (mkPtok 40 "," 11 0 39)) (TyFixed (mkSpan (mkPtok 12 "char[" 10 2 34) (mkPtok 13 "]" 10 11 36)) (mkFixedString (mkSpan (mkPtok 12 "char[" 10 2 34) (mkPtok 13 "]" 10 11 36)) (mkPtok 12 "char[" 10 2 34) (mkPtok 30 "00" 10 8 35) (mkPtok 13 "]" 10 11 36))) (mkPtok 42 "Packet" 10 13 37) None (mkPtok 40 "," 11 0 39)))] (mkPtok 3 "}" 11 2 40))); (DPacket (mkPacketDef (mkSpan (mkPtok 34 "root" 11 4 41) (mkPtok 3 "}" 65 0 214)) (Some (mkPtok 34 "root" 11 4 41)) (mkPtok 35 "packet" 12 0 42) (mkPtok 42 "roots" 12 7 43) (mkPtok 2 "{" 13 0 44) [(mkFieldWithAttr (mkSpan (mkPtok 24 "int8" 13 2 45) (mkPtok 40 "," 13 12 47)) [] (MetaField (mkSpan (mkPtok 24 "int8" 13 2 45) (mkPtok 40 "," 13 12 47)) None (mkMetaDecl (mkSpan (mkPtok 24 "int8" 13 2 45) (mkPtok 40 "," 13 12 47)) (TyBasic (mkSpan (mkPtok 24 "int8" 13 2 45) (mkPtok 24 "int8" 13 2 45)) (mkBasicType (mkSpan (mkPtok 24 "int8" 13 2 45) (mkPtok 24 "int8" 13 2 45)) (mkPtok 24 "int8" 13 2 45))) (mkPtok 42 "Logon" 13 7 46) None (mkPtok 40 "," 13 12 47)))); (mkFieldWithAttr (mkSpan (mkPtok 42 "body" 13 14 48) (mkPtok 40 "," 15 2 53)) [] (LengthField (mkSpan (mkPtok 42 "body" 13 14 48) (mkPtok 40 "," 15 2 53)) (mkLengthFieldDecl (mkSpan (mkPtok 42 "body" 13 14 48) (mkPtok 40 "," 15 2 53)) None (mkPtok 42 "body" 13 14 48) (mkLengthOf (mkSpan (mkPtok 7 "@lengthOf(" 13 18 49) (mkPtok 6 ")" 14 0 51)) (mkPtok 7 "@lengthOf(" 13 18 49) (mkPtok 42 "lengthOf" 13 29 50) (mkPtok 6 ")" 14 0 51)) (Some (mkPtok 43 (string_of_bytes [96; 10; 96]%N) 14 2 52)) (mkPtok 40 "," 15 2 53)))); (mkFieldWithAttr (mkSpan (mkPtok 32 "@rightPad" 15 4 54) (mkPtok 40 "," 17 6 63)) [(FAPadding (mkSpan (mkPtok 32 "@rightPad" 15 4 54) (mkPtok 6 ")" 15 20 57)) (mkPaddingAttr (mkSpan (mkPtok 32 "@rightPad" 15 4 54) (mkPtok 6 ")" 15 20 57)) (mkPtok 32 "@rightPad" 15 4 54) (mkPtok 8 "(" 15 14 55) (Some (mkPtok 33 "'0'" 15 16 56)) (mkPtok 6 ")" 15 20 57)))] (CheckSumField (mkSpan (mkPtok 42 "Packet" 16 4 58) (mkPtok 40 "," 17 6 63)) (mkChecksumFieldDecl (mkSpan (mkPtok 42 "Packet" 16 4 58) (mkPtok 40 "," 17 6 63)) None (mkPtok 42 "Packet" 16 4 58) (mkCalculatedFrom (mkSpan (mkPtok 5 "@calculatedFrom(" 16 10 59) (mkPtok 6 ")" 17 0 61)) (mkPtok 5 "@calculatedFrom(" 16 10 59) (mkPtok 31 """x y""" 16 26 60) (mkPtok 6 ")" 17 0 61)) (Some (mkPtok 43 "`a\`" 17 1 62)) (mkPtok 40 "," 17 6 63)))); (mkFieldWithAttr (mkSpan (mkPtok 7 "@lengthOf(" 18 0 64) (mkPtok 40 "," 24 48 99)) [(FALengthOf (mkSpan (mkPtok 7 "@lengthOf(" 18 0 64) (mkPtok 6 ")" 18 13 66)) (mkLengthOf (mkSpan (mkPtok 7 "@lengthOf(" 18 0 64) (mkPtok 6 ")" 18 13 66)) (mkPtok 7 "@lengthOf(" 18 0 64) (mkPtok 42 "T" 18 11 65) (mkPtok 6 ")" 18 13 66)))] (MatchField (mkSpan (mkPtok 38 "match" 18 15 67) (mkPtok 40 "," 24 48 99)) (mkMatchFieldDecl (mkSpan (mkPtok 38 "match" 18 15 67) (mkPtok 3 "}" 24 46 98)) (mkPtok 38 "match" 18 15 67) (mkPtok 42 "matchKey" 18 21 68) (mkPtok 17 "as" 18 30 69) (mkPtok 42 "_x" 18 33 70) (mkPtok 2 "{" 19 0 72) [(mkMatchPair (mkSpan (mkPtok 31 (string_of_bytes [34; 240; 159; 152; 128; 34]%N) 19 2 73) (mkPtok 40 "," 20 8 76)) (MKString (mkPtok 31 (string_of_bytes [34; 240; 159; 152; 128; 34]%N) 19 2 73)) (mkPtok 39 ":" 19 6 74) (mkPtok 42 "stringy" 20 0 75) (Some (mkPtok 40 "," 20 8 76))); (mkMatchPair (mkSpan (mkPtok 30 "4294967296" 21 0 77) (mkPtok 40 "," 21 19 80)) (MKDigits (mkPtok 30 "4294967296" 21 0 77)) (mkPtok 39 ":" 21 10 78) (mkPtok 42 "x_y_z" 21 13 79) (Some (mkPtok 40 "," 21 19 80))); (mkMatchPair (mkSpan (mkPtok 31 """\n""" 21 20 81) (mkPtok 42 "leftPad" 22 2 83)) (MKString (mkPtok 31 """\n""" 21 20 81)) (mkPtok 39 ":" 22 0 82) (mkPtok 42 "leftPad" 22 2 83) None); (mkMatchPair (mkSpan (mkPtok 18 "[" 22 9 84) (mkPtok 40 "," 24 45 97)) (MKList (mkKeyList (mkSpan (mkPtok 18 "[" 22 9 84) (mkPtok 13 "]" 24 37 94)) (mkPtok 18 "[" 22 9 84) (mkPtok 30 "42" 23 0 85) [((mkPtok 40 "," 23 3 86), (mkPtok 30 "42" 23 5 87)); ((mkPtok 40 "," 24 4 88), (mkPtok 31 """it's""" 24 6 89)); ((mkPtok 40 "," 24 13 90), (mkPtok 31 """\n""" 24 15 91)); ((mkPtok 40 "," 24 20 92), (mkPtok 31 """// no comment""" 24 21 93))] (mkPtok 13 "]" 24 37 94))) (mkPtok 39 ":" 24 39 95) (mkPtok 42 "asx" 24 41 96) (Some (mkPtok 40 "," 24 45 97)))] (mkPtok 3 "}" 24 46 98)) (mkPtok 40 "," 24 48 99))); (mkFieldWithAttr (mkSpan (mkPtok 12 "char[" 24 50 100) (mkPtok 40 "," 26 12 105)) [] (MetaField (mkSpan (mkPtok 12 "char[" 24 50 100) (mkPtok 40 "," 26 12 105)) None (mkMetaDecl (mkSpan (mkPtok 12 "char[" 24 50 100) (mkPtok 40 "," 26 12 105)) (TyFixed (mkSpan (mkPtok 12 "char[" 24 50 100) (mkPtok 13 "]" 26 0 103)) (mkFixedString (mkSpan (mkPtok 12 "char[" 24 50 100) (mkPtok 13 "]" 26 0 103)) (mkPtok 12 "char[" 24 50 100) (mkPtok 30 "10" 25 4 101) (mkPtok 13 "]" 26 0 103))) (mkPtok 42 "BodyLength" 26 1 104) None (mkPtok 40 "," 26 12 105)))); (mkFieldWithAttr (mkSpan (mkPtok 32 "@leftPad" 27 0 106) (mkPtok 40 "," 31 5 114)) [(FAPadding (mkSpan (mkPtok 32 "@leftPad" 27 0 106) (mkPtok 6 ")" 28 0 109)) (mkPaddingAttr (mkSpan (mkPtok 32 "@leftPad" 27 0 106) (mkPtok 6 ")" 28 0 109)) (mkPtok 32 "@leftPad" 27 0 106) (mkPtok 8 "(" 27 9 107) (Some (mkPtok 33 "'0'" 27 11 108)) (mkPtok 6 ")" 28 0 109)))] (MetaField (mkSpan (mkPtok 16 "char[]" 28 2 110) (mkPtok 40 "," 31 5 114)) None (mkMetaDecl (mkSpan (mkPtok 16 "char[]" 28 2 110) (mkPtok 40 "," 31 5 114)) (TyDynamic (mkSpan (mkPtok 16 "char[]" 28 2 110) (mkPtok 16 "char[]" 28 2 110)) (mkDynamicString (mkSpan (mkPtok 16 "char[]" 28 2 110) (mkPtok 16 "char[]" 28 2 110)) (mkPtok 16 "char[]" 28 2 110))) (mkPtok 42 "Z9_" 30 4 112) (Some (mkPtok 43 (string_of_bytes [96; 99; 114; 108; 102; 13; 10; 108; 105; 110; 101; 96]%N) 30 8 113)) (mkPtok 40 "," 31 5 114)))); (mkFieldWithAttr (mkSpan (mkPtok 15 "string" 31 7 115) (mkPtok 40 "," 32 4 117)) [] (MetaField (mkSpan (mkPtok 15 "string" 31 7 115) (mkPtok 40 "," 32 4 117)) None (mkMetaDecl (mkSpan (mkPtok 15 "string" 31 7 115) (mkPtok 40 "," 32 4 117)) (TyDynamic (mkSpan (mkPtok 15 "string" 31 7 115) (mkPtok 15 "string" 31 7 115)) (mkDynamicString (mkSpan (mkPtok 15 "string" 31 7 115) (mkPtok 15 "string" 31 7 115)) (mkPtok 15 "string" 31 7 115))) (mkPtok 42 "falsey" 31 14 116) None (mkPtok 40 "," 32 4 117)))); (mkFieldWithAttr (mkSpan (mkPtok 25 "int16" 32 6 118) (mkPtok 40 "," 33 30 124)) [] (CheckSumField (mkSpan (mkPtok 25 "int16" 32 6 118) (mkPtok 40 "," 33 30 124)) (mkChecksumFieldDecl (mkSpan (mkPtok 25 "int16" 32 6 118) (mkPtok 40 "," 33 30 124)) (Some (TyBasic (mkSpan (mkPtok 25 "int16" 32 6 118) (mkPtok 25 "int16" 32 6 118)) (mkBasicType (mkSpan (mkPtok 25 "int16" 32 6 118) (mkPtok 25 "int16" 32 6 118)) (mkPtok 25 "int16" 32 6 118)))) (mkPtok 42 "asx" 33 0 120) (mkCalculatedFrom (mkSpan (mkPtok 5 "@calculatedFrom(" 33 5 121) (mkPtok 6 ")" 33 28 123)) (mkPtok 5 "@calculatedFrom(" 33 5 121) (mkPtok 31 """x y""" 33 22 122) (mkPtok 6 ")" 33 28 123)) None (mkPtok 40 "," 33 30 124)))); (mkFieldWithAttr (mkSpan (mkPtok 42 "u128" 33 31 125) (mkPtok 40 "," 33 47 128)) [] (ObjectField (mkSpan (mkPtok 42 "u128" 33 31 125) (mkPtok 40 "," 33 47 128)) None (mkPtok 42 "u128" 33 31 125) (Some (mkPtok 42 "Z9_" 33 36 126)) (Some (mkPtok 43 "`it's`" 33 40 127)) (mkPtok 40 "," 33 47 128))); (mkFieldWithAttr (mkSpan (mkPtok 32 "@rightPad" 34 4 129) (mkPtok 40 "," 64 11 213)) [(FAPadding (mkSpan (mkPtok 32 "@rightPad" 34 4 129) (mkPtok 6 ")" 38 0 134)) (mkPaddingAttr (mkSpan (mkPtok 32 "@rightPad" 34 4 129) (mkPtok 6 ")" 38 0 134)) (mkPtok 32 "@rightPad" 34 4 129) (mkPtok 8 "(" 37 0 132) (Some (mkPtok 33 "'0'" 37 2 133)) (mkPtok 6 ")" 38 0 134)))] (InerObjectField (mkSpan (mkPtok 42 "Packet" 38 1 135) (mkPtok 40 "," 64 11 213)) None (InerObjectDecl (mkSpan (mkPtok 42 "Packet" 38 1 135) (mkPtok 3 "}" 64 9 212)) (mkPtok 42 "Packet" 38 1 135) (mkPtok 2 "{" 38 8 136) [(MetaField (mkSpan (mkPtok 27 "int64" 40 4 138) (mkPtok 40 "," 41 10 140)) None (mkMetaDecl (mkSpan (mkPtok 27 "int64" 40 4 138) (mkPtok 40 "," 41 10 140)) (TyBasic (mkSpan (mkPtok 27 "int64" 40 4 138) (mkPtok 27 "int64" 40 4 138)) (mkBasicType (mkSpan (mkPtok 27 "int64" 40 4 138) (mkPtok 27 "int64" 40 4 138)) (mkPtok 27 "int64" 40 4 138))) (mkPtok 42 "float" 41 4 139) None (mkPtok 40 "," 41 10 140))); (InerObjectField (mkSpan (mkPtok 36 "repeat" 42 0 141) (mkPtok 40 "," 64 7 211)) (Some (mkPtok 36 "repeat" 42 0 141)) (InerObjectDecl (mkSpan (mkPtok 42 "leftPad" 42 7 142) (mkPtok 3 "}" 64 5 210)) (mkPtok 42 "leftPad" 42 7 142) (mkPtok 2 "{" 42 14 143) [(InerObjectField (mkSpan (mkPtok 36 "repeat" 43 0 144) (mkPtok 40 "," 47 6 166)) (Some (mkPtok 36 "repeat" 43 0 144)) (InerObjectDecl (mkSpan (mkPtok 42 "Z9_" 44 0 145) (mkPtok 3 "}" 47 4 165)) (mkPtok 42 "Z9_" 44 0 145) (mkPtok 2 "{" 44 4 146) [(MatchField (mkSpan (mkPtok 38 "match" 45 4 147) (mkPtok 40 "," 46 59 164)) (mkMatchFieldDecl (mkSpan (mkPtok 38 "match" 45 4 147) (mkPtok 3 "}" 46 57 163)) (mkPtok 38 "match" 45 4 147) (mkPtok 42 "T" 45 10 148) (mkPtok 17 "as" 46 0 149) (mkPtok 42 "lengthOf" 46 3 150) (mkPtok 2 "{" 46 11 151) [(mkMatchPair (mkSpan (mkPtok 31 """`tick`""" 46 13 152) (mkPtok 42 "msg_type" 46 23 154)) (MKString (mkPtok 31 """`tick`""" 46 13 152)) (mkPtok 39 ":" 46 22 153) (mkPtok 42 "msg_type" 46 23 154) None); (mkMatchPair (mkSpan (mkPtok 31 """1""" 46 31 155) (mkPtok 40 "," 46 43 158)) (MKString (mkPtok 31 """1""" 46 31 155)) (mkPtok 39 ":" 46 35 156) (mkPtok 42 "x_y_z" 46 37 157) (Some (mkPtok 40 "," 46 43 158))); (mkMatchPair (mkSpan (mkPtok 30 "0" 46 45 159) (mkPtok 40 "," 46 55 162)) (MKDigits (mkPtok 30 "0" 46 45 159)) (mkPtok 39 ":" 46 47 160) (mkPtok 42 "chars" 46 49 161) (Some (mkPtok 40 "," 46 55 162)))] (mkPtok 3 "}" 46 57 163)) (mkPtok 40 "," 46 59 164))] (mkPtok 3 "}" 47 4 165)) (mkPtok 40 "," 47 6 166)); (InerObjectField (mkSpan (mkPtok 36 "repeat" 47 8 167) (mkPtok 40 "," 58 2 190)) (Some (mkPtok 36 "repeat" 47 8 167)) (InerObjectDecl (mkSpan (mkPtok 42 "trueish" 47 15 168) (mkPtok 3 "}" 58 0 189)) (mkPtok 42 "trueish" 47 15 168) (mkPtok 2 "{" 48 4 169) [(MetaField (mkSpan (mkPtok 14 "zchar[" 48 6 170) (mkPtok 40 "," 50 10 175)) None (mkMetaDecl (mkSpan (mkPtok 14 "zchar[" 48 6 170) (mkPtok 40 "," 50 10 175)) (TyFixed (mkSpan (mkPtok 14 "zchar[" 48 6 170) (mkPtok 13 "]" 49 4 172)) (mkFixedString (mkSpan (mkPtok 14 "zchar[" 48 6 170) (mkPtok 13 "]" 49 4 172)) (mkPtok 14 "zchar[" 48 6 170) (mkPtok 30 "255" 49 0 171) (mkPtok 13 "]" 49 4 172))) (mkPtok 42 "crc" 50 0 173) (Some (mkPtok 43 "`doc`" 50 4 174)) (mkPtok 40 "," 50 10 175))); (LengthField (mkSpan (mkPtok 19 "char" 50 12 176) (mkPtok 40 "," 53 0 182)) (mkLengthFieldDecl (mkSpan (mkPtok 19 "char" 50 12 176) (mkPtok 40 "," 53 0 182)) (Some (TyBasic (mkSpan (mkPtok 19 "char" 50 12 176) (mkPtok 19 "char" 50 12 176)) (mkBasicType (mkSpan (mkPtok 19 "char" 50 12 176) (mkPtok 19 "char" 50 12 176)) (mkPtok 19 "char" 50 12 176)))) (mkPtok 42 "Logon" 50 17 177) (mkLengthOf (mkSpan (mkPtok 7 "@lengthOf(" 50 23 178) (mkPtok 6 ")" 52 4 181)) (mkPtok 7 "@lengthOf(" 50 23 178) (mkPtok 42 "_x" 50 34 179) (mkPtok 6 ")" 52 4 181)) None (mkPtok 40 "," 53 0 182))); (ObjectField (mkSpan (mkPtok 42 "a1" 55 4 184) (mkPtok 40 "," 55 12 186)) None (mkPtok 42 "a1" 55 4 184) None (Some (mkPtok 43 "`doc`" 55 7 185)) (mkPtok 40 "," 55 12 186))] (mkPtok 3 "}" 58 0 189)) (mkPtok 40 "," 58 2 190)); (MatchField (mkSpan (mkPtok 38 "match" 58 4 191) (mkPtok 40 "," 64 4 209)) (mkMatchFieldDecl (mkSpan (mkPtok 38 "match" 58 4 191) (mkPtok 3 "}" 64 2 208)) (mkPtok 38 "match" 58 4 191) (mkPtok 42 "msg_type" 58 10 192) (mkPtok 17 "as" 58 19 193) (mkPtok 42 "zchar" 58 22 194) (mkPtok 2 "{" 58 28 195) [(mkMatchPair (mkSpan (mkPtok 31 """it's""" 58 30 196) (mkPtok 40 "," 63 0 202)) (MKString (mkPtok 31 """it's""" 58 30 196)) (mkPtok 39 ":" 59 0 198) (mkPtok 42 "body" 62 0 201) (Some (mkPtok 40 "," 63 0 202))); (mkMatchPair (mkSpan (mkPtok 31 (string_of_bytes [34; 230; 182; 136; 230; 129; 175; 34]%N) 63 2 203) (mkPtok 40 "," 64 1 207)) (MKString (mkPtok 31 (string_of_bytes [34; 230; 182; 136; 230; 129; 175; 34]%N) 63 2 203)) (mkPtok 39 ":" 63 7 204) (mkPtok 42 "u" 64 0 206) (Some (mkPtok 40 "," 64 1 207)))] (mkPtok 3 "}" 64 2 208)) (mkPtok 40 "," 64 4 209))] (mkPtok 3 "}" 64 5 210)) (mkPtok 40 "," 64 7 211))] (mkPtok 3 "}" 64 9 212)) (mkPtok 40 "," 64 11 213)))] (mkPtok 3 "}" 65 0 214))); (DPacket (mkPacketDef (mkSpan (mkPtok 35 "packet" 66 0 215) (mkPtok 3 "}" 95 3 296)) None (mkPtok 35 "packet" 66 0 215) (mkPtok 42 "As" 67 0 217) (mkPtok 2 "{" 68 0 219) [(mkFieldWithAttr (mkSpan (mkPtok 32 "@leftPad" 69 0 220) (mkPtok 40 "," 77 0 240)) [(FAPadding (mkSpan (mkPtok 32 "@leftPad" 69 0 220) (mkPtok 6 ")" 71 11 224)) (mkPaddingAttr (mkSpan (mkPtok 32 "@leftPad" 69 0 220) (mkPtok 6 ")" 71 11 224)) (mkPtok 32 "@leftPad" 69 0 220) (mkPtok 8 "(" 69 9 221) (Some (mkPtok 33 "'\x00'" 71 4 223)) (mkPtok 6 ")" 71 11 224))); (FATag (mkSpan (mkPtok 9 "@tag(" 71 13 225) (mkPtok 6 ")" 72 4 227)) (mkTagAttr (mkSpan (mkPtok 9 "@tag(" 71 13 225) (mkPtok 6 ")" 72 4 227)) (mkPtok 9 "@tag(" 71 13 225) (mkPtok 30 "255" 71 19 226) (mkPtok 6 ")" 72 4 227))); (FALengthOf (mkSpan (mkPtok 7 "@lengthOf(" 73 4 228) (mkPtok 6 ")" 75 0 231)) (mkLengthOf (mkSpan (mkPtok 7 "@lengthOf(" 73 4 228) (mkPtok 6 ")" 75 0 231)) (mkPtok 7 "@lengthOf(" 73 4 228) (mkPtok 42 "o" 74 0 230) (mkPtok 6 ")" 75 0 231)))] (CheckSumField (mkSpan (mkPtok 14 "zchar[" 75 1 232) (mkPtok 40 "," 77 0 240)) (mkChecksumFieldDecl (mkSpan (mkPtok 14 "zchar[" 75 1 232) (mkPtok 40 "," 77 0 240)) (Some (TyFixed (mkSpan (mkPtok 14 "zchar[" 75 1 232) (mkPtok 13 "]" 75 11 234)) (mkFixedString (mkSpan (mkPtok 14 "zchar[" 75 1 232) (mkPtok 13 "]" 75 11 234)) (mkPtok 14 "zchar[" 75 1 232) (mkPtok 30 "42" 75 8 233) (mkPtok 13 "]" 75 11 234)))) (mkPtok 42 "string_" 75 13 235) (mkCalculatedFrom (mkSpan (mkPtok 5 "@calculatedFrom(" 75 21 236) (mkPtok 6 ")" 76 7 238)) (mkPtok 5 "@calculatedFrom(" 75 21 236) (mkPtok 31 """a\""b""" 76 0 237) (mkPtok 6 ")" 76 7 238)) (Some (mkPtok 43 (string_of_bytes [96; 230; 182; 136; 230; 129; 175; 231; 177; 187; 229; 158; 139; 96]%N) 76 8 239)) (mkPtok 40 "," 77 0 240)))); (mkFieldWithAttr (mkSpan (mkPtok 16 "char[]" 77 2 241) (mkPtok 40 "," 79 16 247)) [] (LengthField (mkSpan (mkPtok 16 "char[]" 77 2 241) (mkPtok 40 "," 79 16 247)) (mkLengthFieldDecl (mkSpan (mkPtok 16 "char[]" 77 2 241) (mkPtok 40 "," 79 16 247)) (Some (TyDynamic (mkSpan (mkPtok 16 "char[]" 77 2 241) (mkPtok 16 "char[]" 77 2 241)) (mkDynamicString (mkSpan (mkPtok 16 "char[]" 77 2 241) (mkPtok 16 "char[]" 77 2 241)) (mkPtok 16 "char[]" 77 2 241)))) (mkPtok 42 "repeatCount" 77 9 242) (mkLengthOf (mkSpan (mkPtok 7 "@lengthOf(" 78 0 244) (mkPtok 6 ")" 79 14 246)) (mkPtok 7 "@lengthOf(" 78 0 244) (mkPtok 42 "calculatedFrom" 79 0 245) (mkPtok 6 ")" 79 14 246)) None (mkPtok 40 "," 79 16 247)))); (mkFieldWithAttr (mkSpan (mkPtok 42 "metadata" 79 17 248) (mkPtok 40 "," 82 4 253)) [] (CheckSumField (mkSpan (mkPtok 42 "metadata" 79 17 248) (mkPtok 40 "," 82 4 253)) (mkChecksumFieldDecl (mkSpan (mkPtok 42 "metadata" 79 17 248) (mkPtok 40 "," 82 4 253)) None (mkPtok 42 "metadata" 79 17 248) (mkCalculatedFrom (mkSpan (mkPtok 5 "@calculatedFrom(" 79 26 249) (mkPtok 6 ")" 81 0 251)) (mkPtok 5 "@calculatedFrom(" 79 26 249) (mkPtok 31 """abc""" 80 4 250) (mkPtok 6 ")" 81 0 251)) (Some (mkPtok 43 "`two words`" 81 2 252)) (mkPtok 40 "," 82 4 253)))); (mkFieldWithAttr (mkSpan (mkPtok 7 "@lengthOf(" 85 0 256) (mkPtok 40 "," 95 1 295)) [(FALengthOf (mkSpan (mkPtok 7 "@lengthOf(" 85 0 256) (mkPtok 6 ")" 85 19 258)) (mkLengthOf (mkSpan (mkPtok 7 "@lengthOf(" 85 0 256) (mkPtok 6 ")" 85 19 258)) (mkPtok 7 "@lengthOf(" 85 0 256) (mkPtok 42 "matchKey" 85 10 257) (mkPtok 6 ")" 85 19 258)))] (MatchField (mkSpan (mkPtok 38 "match" 85 21 259) (mkPtok 40 "," 95 1 295)) (mkMatchFieldDecl (mkSpan (mkPtok 38 "match" 85 21 259) (mkPtok 3 "}" 95 0 294)) (mkPtok 38 "match" 85 21 259) (mkPtok 42 "packetx" 86 0 260) (mkPtok 17 "as" 86 8 261) (mkPtok 42 "falsey" 86 11 262) (mkPtok 2 "{" 86 18 263) [(mkMatchPair (mkSpan (mkPtok 30 "007" 86 20 264) (mkPtok 40 "," 87 3 267)) (MKDigits (mkPtok 30 "007" 86 20 264)) (mkPtok 39 ":" 87 0 265) (mkPtok 42 "A" 87 2 266) (Some (mkPtok 40 "," 87 3 267))); (mkMatchPair (mkSpan (mkPtok 31 """1""" 87 4 268) (mkPtok 40 "," 87 18 271)) (MKString (mkPtok 31 """1""" 87 4 268)) (mkPtok 39 ":" 87 8 269) (mkPtok 42 "packetx" 87 10 270) (Some (mkPtok 40 "," 87 18 271))); (mkMatchPair (mkSpan (mkPtok 30 "7" 88 0 273) (mkPtok 40 "," 89 0 276)) (MKDigits (mkPtok 30 "7" 88 0 273)) (mkPtok 39 ":" 88 2 274) (mkPtok 42 "charz" 88 3 275) (Some (mkPtok 40 "," 89 0 276))); (mkMatchPair (mkSpan (mkPtok 18 "[" 89 2 277) (mkPtok 42 "stringy" 89 12 281)) (MKList (mkKeyList (mkSpan (mkPtok 18 "[" 89 2 277) (mkPtok 13 "]" 89 10 279)) (mkPtok 18 "[" 89 2 277) (mkPtok 30 "65535" 89 4 278) [] (mkPtok 13 "]" 89 10 279))) (mkPtok 39 ":" 89 11 280) (mkPtok 42 "stringy" 89 12 281) None); (mkMatchPair (mkSpan (mkPtok 30 "65535" 89 20 282) (mkPtok 42 "a1" 90 5 284)) (MKDigits (mkPtok 30 "65535" 89 20 282)) (mkPtok 39 ":" 90 4 283) (mkPtok 42 "a1" 90 5 284) None); (mkMatchPair (mkSpan (mkPtok 18 "[" 90 8 285) (mkPtok 42 "Logon" 92 4 291)) (MKList (mkKeyList (mkSpan (mkPtok 18 "[" 90 8 285) (mkPtok 13 "]" 91 3 289)) (mkPtok 18 "[" 90 8 285) (mkPtok 31 (string_of_bytes [34; 97; 9; 98; 34]%N) 90 11 286) [((mkPtok 40 "," 91 0 287), (mkPtok 30 "1" 91 2 288))] (mkPtok 13 "]" 91 3 289))) (mkPtok 39 ":" 91 5 290) (mkPtok 42 "Logon" 92 4 291) None)] (mkPtok 3 "}" 95 0 294)) (mkPtok 40 "," 95 1 295)))] (mkPtok 3 "}" 95 3 296)))])).
-Eval vm_compute in ("<<<M367>>>" ++ check (runes_of_ascii "MetaData string_ {
-char[]
-Packet `
-`
-    , i8i8 A  ,
-string A
-`it's`
-,// trailing space 
-uint64 int
-, }
-// trailing space 
-// " ++ [27880; 37322]%N ++ runes_of_ascii "
-MetaData Z9_ { Header crc , // " ++ [27880; 37322]%N ++ runes_of_ascii "
-} MetaData T {// c
-float32 Z9_ `// not a comment`
-    , char[] /// triple
-uint8x`line1
-line2` ,
-Header u8x,
-char[ 3] a1	,
-    }MetaData Logon { a1 // " ++ [128512]%N ++ runes_of_ascii " emoji
-repeatCount `say ""hi""` , char[
-    42  ] Foo
-    ,
-    zchar[ 00
-    ] metadata
+/// triple
+, match u128 as i8i8 // @lengthOf(
+{
+0123456789 :float ,  10  : roots // " ++ [128512]%N ++ runes_of_ascii " emoji
 ,
-int16  zchar `it's` , }")).
-Eval vm_compute in ("<<<M399>>>" ++ check (runes_of_ascii "packet zchar
-{BodyLength x // `tick` ""quote"" 'q'
-, // trailing space 
-@rightPad ('0' )
-match _x as x { [
-    """ ++ [128512]%N ++ runes_of_ascii """ ] : falsey  , 65535
-:  chars 0 : falsey , [ ""packet""
-    ] :// c
-metadata	0 : repeatCount,00//
-:  packetx ,
-} , } packet crc  { match body
-//x
-//x
-as len {
-7:
-    leftPad
-,007 : x_y_z , 00
-:
-    x_y_z, [ 0, 10 ,
-10 , //	t
-10	] :	calculatedFrom // packet A { u8 x, }
-, ""packet"" : calculatedFrom } , @leftPad ( '0' ) @tag(
-4294967296
-    ) match u128 // c
-as trueish
-{	3
-: i64_
-    ,
-    }, char[255
-]o @lengthOf(leftPad
-    )
-`u8 x,` , } MetaData o {float
-roots ,
-    x_y_z MetaDataX , packetx zchar
-    , }")).
-Eval vm_compute in ("<<<M431>>>" ++ check (runes_of_ascii "options	{ roots = ""CRC32""zchar
-= string; f32a
-=string ; pack
-    =
-""x y"" }options {
-    // @lengthOf(
-    }")).
-Eval vm_compute in ("<<<M463>>>" ++ check (runes_of_ascii " /// triple")).
-Eval vm_compute in ("<<<M495>>>" ++ check (runes_of_ascii "/// triple
-MetaData	asx { roots x_y_z ,
-calculatedFrom o ,
-}
-packet pack { roots
-    // @lengthOf(
-    , }
-")).
-Eval vm_compute in ("<<<M527>>>" ++ check (runes_of_ascii "  packet pack { u8
-len/// triple
-,@rightPad(  ) u64 A@calculatedFrom( ""\n"" )
-, // trailing space 
-@lengthOf(
-    o )
-    @leftPad() @leftPad (
-)int32 metadata, matchKey ,
-} MetaData matchKey { }packet rootA {}options { A= zchar[65535]float = // `tick` ""quote"" 'q'
-3
-    roots //	t
-= 7 Pad
-    // trailing space 
-    =
-    10 ;trueish =false;}
+    ""it's"" : _x
+    , 10 :
+// packet A { u8 x, }
+//	t
+Z9_ [
+    /// triple
+    ""a\""b"",
+""x y"" ]
+    : matchKey, [""\" ++ [233]%N ++ runes_of_ascii """, 10 ,""" ++ [28040; 24687]%N ++ runes_of_ascii """ , 255
+, 0123456789
+,
+// a // b
+// `tick` ""quote"" 'q'
+7  , 007 ] :
+    Pad } , }
 
 ")).
-Eval vm_compute in ("<<<M559>>>" ++ check (runes_of_ascii "//
-MetaData o { i16 zchar // a // b
-, char[//	t
-00
-] string_	, }")).
-Eval vm_compute in ("<<<T559>>>" ++ terms [mkTok 44 "//" 1 0 true; mkTok 37 "MetaData" 2 0 false; mkTok 42 "o" 2 9 false; mkTok 2 "{" 2 11 false; mkTok 25 "i16" 2 13 false; mkTok 42 "zchar" 2 17 false; mkTok 44 "// a // b" 2 23 true; mkTok 40 "," 3 0 false; mkTok 12 "char[" 3 2 false; mkTok 44 (string_of_bytes [47; 47; 9; 116]%N) 3 7 true; mkTok 30 "00" 4 0 false; mkTok 13 "]" 5 0 false; mkTok 42 "string_" 5 2 false; mkTok 40 "," 5 10 false; mkTok 3 "}" 5 12 false; mkTok 0 "<EOF>" 5 13 false] (mkPacket (mkPtok 37 "MetaData" 2 0 1) (Some (mkPtok 3 "}" 5 12 14)) [(DMeta (mkMetaDef (mkSpan (mkPtok 37 "MetaData" 2 0 1) (mkPtok 3 "}" 5 12 14)) (mkPtok 37 "MetaData" 2 0 1) (mkPtok 42 "o" 2 9 2) (mkPtok 2 "{" 2 11 3) [(MIDecl (mkMetaDecl (mkSpan (mkPtok 25 "i16" 2 13 4) (mkPtok 40 "," 3 0 7)) (TyBasic (mkSpan (mkPtok 25 "i16" 2 13 4) (mkPtok 25 "i16" 2 13 4)) (mkBasicType (mkSpan (mkPtok 25 "i16" 2 13 4) (mkPtok 25 "i16" 2 13 4)) (mkPtok 25 "i16" 2 13 4))) (mkPtok 42 "zchar" 2 17 5) None (mkPtok 40 "," 3 0 7))); (MIDecl (mkMetaDecl (mkSpan (mkPtok 12 "char[" 3 2 8) (mkPtok 40 "," 5 10 13)) (TyFixed (mkSpan (mkPtok 12 "char[" 3 2 8) (mkPtok 13 "]" 5 0 11)) (mkFixedString (mkSpan (mkPtok 12 "char[" 3 2 8) (mkPtok 13 "]" 5 0 11)) (mkPtok 12 "char[" 3 2 8) (mkPtok 30 "00" 4 0 10) (mkPtok 13 "]" 5 0 11))) (mkPtok 42 "string_" 5 2 12) None (mkPtok 40 "," 5 10 13)))] (mkPtok 3 "}" 5 12 14)))])).
-Eval vm_compute in ("<<<M591>>>" ++ check (runes_of_ascii "root packet A	{ // packet A { u8 x, }
-char[]  msg_type
-    `two words` , // a // b
-@calculatedFrom( ""abc"" )
-@leftPad
-(
-'\x00'
-) @calculatedFrom(
-    ""x y""
-    ) repeat
-//x
-// @lengthOf(
-int64 chars, zchar[ 1
-] _x@calculatedFrom(	""1""
-    ) `doc` ,
-// c
-//x
-}packet stringy
-{int8
-calculatedFrom  @lengthOf(_x ) `line1
-line2` , @tag( 42 ) char[ 10 ]//
-Logon@lengthOf( roots ) `" ++ [233]%N ++ runes_of_ascii "`// " ++ [128512]%N ++ runes_of_ascii " emoji
-, i32 //
-options1  , i16 x_y_z ,
-    } 	 ")).
-Eval vm_compute in ("<<<M623>>>" ++ check (runes_of_ascii "MetaData f32a { u32 roots , T matchKey  `tab	here` ,
-/// triple
-// packet A { u8 x, }
-} 	 ")).
-Eval vm_compute in ("<<<M655>>>" ++ check (runes_of_ascii "root packet // " ++ [27880; 37322]%N ++ runes_of_ascii "
-_x	{repeat int64 trueish//x
-, string calculatedFrom , Z9_ As
-    , match tag
-as trueish { 65535:  repeatCount
-, }//
-, }
+Eval vm_compute in ("<<<T559>>>" ++ terms [mkTok 35 "packet" 2 0 false; mkTok 44 "//x" 3 4 true; mkTok 42 "BodyLength" 4 4 false; mkTok 2 "{" 5 4 false; mkTok 7 "@lengthOf(" 5 5 false; mkTok 42 "As" 6 0 false; mkTok 6 ")" 7 4 false; mkTok 32 "@rightPad" 7 7 false; mkTok 8 "(" 7 17 false; mkTok 6 ")" 7 18 false; mkTok 7 "@lengthOf(" 7 19 false; mkTok 42 "len" 7 30 false; mkTok 6 ")" 7 34 false; mkTok 20 "uint8" 7 35 false; mkTok 42 "leftPad" 7 41 false; mkTok 40 "," 7 49 false; mkTok 42 "u" 7 51 false; mkTok 2 "{" 7 53 false; mkTok 38 "match" 7 55 false; mkTok 42 "body" 8 0 false; mkTok 17 "as" 8 5 false; mkTok 42 "Header" 8 8 false; mkTok 2 "{" 8 15 false; mkTok 44 "// c" 8 17 true; mkTok 18 "[" 9 0 false; mkTok 30 "4294967296" 9 2 false; mkTok 44 "// c" 9 13 true; mkTok 40 "," 10 0 false; mkTok 30 "7" 11 0 false; mkTok 40 "," 11 2 false; mkTok 31 """abc""" 11 3 false; mkTok 40 "," 11 9 false; mkTok 30 "1" 11 11 false; mkTok 13 "]" 11 13 false; mkTok 39 ":" 12 0 false; mkTok 44 "// a // b" 13 4 true; mkTok 42 "stringy" 14 4 false; mkTok 40 "," 14 12 false; mkTok 3 "}" 14 14 false; mkTok 40 "," 15 4 false; mkTok 12 "char[" 15 6 false; mkTok 30 "0" 15 12 false; mkTok 13 "]" 15 14 false; mkTok 44 "/// triple" 15 16 true; mkTok 42 "leftPad" 16 0 false; mkTok 7 "@lengthOf(" 16 8 false; mkTok 42 "i8i8" 16 19 false; mkTok 6 ")" 16 24 false; mkTok 40 "," 16 26 false; mkTok 23 "u64" 16 29 false; mkTok 44 "// 50% %s" 16 33 true; mkTok 42 "charz" 17 0 false; mkTok 40 "," 18 4 false; mkTok 36 "repeat" 18 6 false; mkTok 21 "uint16" 18 13 false; mkTok 42 "a1" 19 4 false; mkTok 40 "," 19 8 false; mkTok 44 "// @lengthOf(" 20 4 true; mkTok 3 "}" 21 4 false; mkTok 44 "// packet A { u8 x, }" 21 6 true; mkTok 40 "," 22 0 false; mkTok 14 "zchar[" 23 0 false; mkTok 44 "//x" 23 7 true; mkTok 30 "0123456789" 24 0 false; mkTok 13 "]" 25 4 false; mkTok 42 "BodyLength" 25 5 false; mkTok 5 "@calculatedFrom(" 25 16 false; mkTok 31 """{,}""" 25 33 false; mkTok 6 ")" 26 4 false; mkTok 44 "//" 26 6 true; mkTok 40 "," 27 0 false; mkTok 42 "BodyLength" 28 0 false; mkTok 43 "`{ , }`" 28 10 false; mkTok 40 "," 28 18 false; mkTok 3 "}" 29 0 false; mkTok 35 "packet" 29 1 false; mkTok 42 "u8x" 29 8 false; mkTok 2 "{" 30 4 false; mkTok 36 "repeat" 30 6 false; mkTok 42 "len" 30 13 false; mkTok 44 "//x" 31 4 true; mkTok 2 "{" 32 4 false; mkTok 22 "u32" 33 4 false; mkTok 44 "//" 34 4 true; mkTok 42 "f32a" 35 4 false; mkTok 43 (string_of_bytes [96; 230; 182; 136; 230; 129; 175; 231; 177; 187; 229; 158; 139; 96]%N) 35 9 false; mkTok 40 "," 35 16 false; mkTok 42 "A" 35 18 false; mkTok 40 "," 35 20 false; mkTok 27 "i64" 35 21 false; mkTok 42 "matchKey" 35 25 false; mkTok 40 "," 35 34 false; mkTok 3 "}" 35 36 false; mkTok 40 "," 35 39 false; mkTok 3 "}" 35 41 false; mkTok 37 "MetaData" 36 0 false; mkTok 42 "_x" 36 9 false; mkTok 2 "{" 36 11 false; mkTok 3 "}" 36 13 false; mkTok 35 "packet" 36 15 false; mkTok 42 "_x" 36 22 false; mkTok 2 "{" 36 25 false; mkTok 42 "f32a" 37 0 false; mkTok 2 "{" 38 4 false; mkTok 28 "f32" 39 0 false; mkTok 42 "body" 39 4 false; mkTok 44 "// a // b" 39 9 true; mkTok 40 "," 40 0 false; mkTok 21 "uint16" 40 2 false; mkTok 42 "u128" 40 9 false; mkTok 40 "," 40 13 false; mkTok 42 "matchKey" 40 15 false; mkTok 7 "@lengthOf(" 40 24 false; mkTok 42 "Packet" 40 34 false; mkTok 6 ")" 40 41 false; mkTok 40 "," 40 43 false; mkTok 3 "}" 40 45 false; mkTok 40 "," 40 47 false; mkTok 36 "repeat" 40 49 false; mkTok 14 "zchar[" 40 56 false; mkTok 30 "0123456789" 40 63 false; mkTok 13 "]" 41 4 false; mkTok 42 "float" 42 0 false; mkTok 43 (string_of_bytes [96; 195; 169; 96]%N) 43 0 false; mkTok 40 "," 43 4 false; mkTok 28 "f32" 44 0 false; mkTok 42 "i8i8" 44 4 false; mkTok 43 "`doc`" 44 9 false; mkTok 40 "," 44 15 false; mkTok 36 "repeat" 45 4 false; mkTok 42 "string_" 45 11 false; mkTok 40 "," 45 19 false; mkTok 42 "A" 45 21 false; mkTok 44 "// packet A { u8 x, }" 46 4 true; mkTok 43 (string_of_bytes [96; 10; 96]%N) 47 4 false; mkTok 44 "// a // b" 49 0 true; mkTok 44 "/// triple" 50 0 true; mkTok 40 "," 51 0 false; mkTok 38 "match" 51 2 false; mkTok 42 "u128" 51 8 false; mkTok 17 "as" 51 13 false; mkTok 42 "i8i8" 51 16 false; mkTok 44 "// @lengthOf(" 51 21 true; mkTok 2 "{" 52 0 false; mkTok 30 "0123456789" 53 0 false; mkTok 39 ":" 53 11 false; mkTok 42 "float" 53 12 false; mkTok 40 "," 53 18 false; mkTok 30 "10" 53 21 false; mkTok 39 ":" 53 25 false; mkTok 42 "roots" 53 27 false; mkTok 44 (string_of_bytes [47; 47; 32; 240; 159; 152; 128; 32; 101; 109; 111; 106; 105]%N) 53 33 true; mkTok 40 "," 54 0 false; mkTok 31 """it's""" 55 4 false; mkTok 39 ":" 55 11 false; mkTok 42 "_x" 55 13 false; mkTok 40 "," 56 4 false; mkTok 30 "10" 56 6 false; mkTok 39 ":" 56 9 false; mkTok 44 "// packet A { u8 x, }" 57 0 true; mkTok 44 (string_of_bytes [47; 47; 9; 116]%N) 58 0 true; mkTok 42 "Z9_" 59 0 false; mkTok 18 "[" 59 4 false; mkTok 44 "/// triple" 60 4 true; mkTok 31 """a\""b""" 61 4 false; mkTok 40 "," 61 10 false; mkTok 31 """x y""" 62 0 false; mkTok 13 "]" 62 6 false; mkTok 39 ":" 63 4 false; mkTok 42 "matchKey" 63 6 false; mkTok 40 "," 63 14 false; mkTok 18 "[" 63 16 false; mkTok 31 (string_of_bytes [34; 92; 195; 169; 34]%N) 63 17 false; mkTok 40 "," 63 21 false; mkTok 30 "10" 63 23 false; mkTok 40 "," 63 26 false; mkTok 31 (string_of_bytes [34; 230; 182; 136; 230; 129; 175; 34]%N) 63 27 false; mkTok 40 "," 63 32 false; mkTok 30 "255" 63 34 false; mkTok 40 "," 64 0 false; mkTok 30 "0123456789" 64 2 false; mkTok 40 "," 65 0 false; mkTok 44 "// a // b" 66 0 true; mkTok 44 "// `tick` ""quote"" 'q'" 67 0 true; mkTok 30 "7" 68 0 false; mkTok 40 "," 68 3 false; mkTok 30 "007" 68 5 false; mkTok 13 "]" 68 9 false; mkTok 39 ":" 68 11 false; mkTok 42 "Pad" 69 4 false; mkTok 3 "}" 69 8 false; mkTok 40 "," 69 10 false; mkTok 3 "}" 69 12 false; mkTok 0 "<EOF>" 71 0 false] (mkPacket (mkPtok 35 "packet" 2 0 0) (Some (mkPtok 3 "}" 69 12 192)) [(DPacket (mkPacketDef (mkSpan (mkPtok 35 "packet" 2 0 0) (mkPtok 3 "}" 29 0 74)) None (mkPtok 35 "packet" 2 0 0) (mkPtok 42 "BodyLength" 4 4 2) (mkPtok 2 "{" 5 4 3) [(mkFieldWithAttr (mkSpan (mkPtok 7 "@lengthOf(" 5 5 4) (mkPtok 40 "," 7 49 15)) [(FALengthOf (mkSpan (mkPtok 7 "@lengthOf(" 5 5 4) (mkPtok 6 ")" 7 4 6)) (mkLengthOf (mkSpan (mkPtok 7 "@lengthOf(" 5 5 4) (mkPtok 6 ")" 7 4 6)) (mkPtok 7 "@lengthOf(" 5 5 4) (mkPtok 42 "As" 6 0 5) (mkPtok 6 ")" 7 4 6))); (FAPadding (mkSpan (mkPtok 32 "@rightPad" 7 7 7) (mkPtok 6 ")" 7 18 9)) (mkPaddingAttr (mkSpan (mkPtok 32 "@rightPad" 7 7 7) (mkPtok 6 ")" 7 18 9)) (mkPtok 32 "@rightPad" 7 7 7) (mkPtok 8 "(" 7 17 8) None (mkPtok 6 ")" 7 18 9))); (FALengthOf (mkSpan (mkPtok 7 "@lengthOf(" 7 19 10) (mkPtok 6 ")" 7 34 12)) (mkLengthOf (mkSpan (mkPtok 7 "@lengthOf(" 7 19 10) (mkPtok 6 ")" 7 34 12)) (mkPtok 7 "@lengthOf(" 7 19 10) (mkPtok 42 "len" 7 30 11) (mkPtok 6 ")" 7 34 12)))] (MetaField (mkSpan (mkPtok 20 "uint8" 7 35 13) (mkPtok 40 "," 7 49 15)) None (mkMetaDecl (mkSpan (mkPtok 20 "uint8" 7 35 13) (mkPtok 40 "," 7 49 15)) (TyBasic (mkSpan (mkPtok 20 "uint8" 7 35 13) (mkPtok 20 "uint8" 7 35 13)) (mkBasicType (mkSpan (mkPtok 20 "uint8" 7 35 13) (mkPtok 20 "uint8" 7 35 13)) (mkPtok 20 "uint8" 7 35 13))) (mkPtok 42 "leftPad" 7 41 14) None (mkPtok 40 "," 7 49 15)))); (mkFieldWithAttr (mkSpan (mkPtok 42 "u" 7 51 16) (mkPtok 40 "," 22 0 60)) [] (InerObjectField (mkSpan (mkPtok 42 "u" 7 51 16) (mkPtok 40 "," 22 0 60)) None (InerObjectDecl (mkSpan (mkPtok 42 "u" 7 51 16) (mkPtok 3 "}" 21 4 58)) (mkPtok 42 "u" 7 51 16) (mkPtok 2 "{" 7 53 17) [(MatchField (mkSpan (mkPtok 38 "match" 7 55 18) (mkPtok 40 "," 15 4 39)) (mkMatchFieldDecl (mkSpan (mkPtok 38 "match" 7 55 18) (mkPtok 3 "}" 14 14 38)) (mkPtok 38 "match" 7 55 18) (mkPtok 42 "body" 8 0 19) (mkPtok 17 "as" 8 5 20) (mkPtok 42 "Header" 8 8 21) (mkPtok 2 "{" 8 15 22) [(mkMatchPair (mkSpan (mkPtok 18 "[" 9 0 24) (mkPtok 40 "," 14 12 37)) (MKList (mkKeyList (mkSpan (mkPtok 18 "[" 9 0 24) (mkPtok 13 "]" 11 13 33)) (mkPtok 18 "[" 9 0 24) (mkPtok 30 "4294967296" 9 2 25) [((mkPtok 40 "," 10 0 27), (mkPtok 30 "7" 11 0 28)); ((mkPtok 40 "," 11 2 29), (mkPtok 31 """abc""" 11 3 30)); ((mkPtok 40 "," 11 9 31), (mkPtok 30 "1" 11 11 32))] (mkPtok 13 "]" 11 13 33))) (mkPtok 39 ":" 12 0 34) (mkPtok 42 "stringy" 14 4 36) (Some (mkPtok 40 "," 14 12 37)))] (mkPtok 3 "}" 14 14 38)) (mkPtok 40 "," 15 4 39)); (LengthField (mkSpan (mkPtok 12 "char[" 15 6 40) (mkPtok 40 "," 16 26 48)) (mkLengthFieldDecl (mkSpan (mkPtok 12 "char[" 15 6 40) (mkPtok 40 "," 16 26 48)) (Some (TyFixed (mkSpan (mkPtok 12 "char[" 15 6 40) (mkPtok 13 "]" 15 14 42)) (mkFixedString (mkSpan (mkPtok 12 "char[" 15 6 40) (mkPtok 13 "]" 15 14 42)) (mkPtok 12 "char[" 15 6 40) (mkPtok 30 "0" 15 12 41) (mkPtok 13 "]" 15 14 42)))) (mkPtok 42 "leftPad" 16 0 44) (mkLengthOf (mkSpan (mkPtok 7 "@lengthOf(" 16 8 45) (mkPtok 6 ")" 16 24 47)) (mkPtok 7 "@lengthOf(" 16 8 45) (mkPtok 42 "i8i8" 16 19 46) (mkPtok 6 ")" 16 24 47)) None (mkPtok 40 "," 16 26 48))); (MetaField (mkSpan (mkPtok 23 "u64" 16 29 49) (mkPtok 40 "," 18 4 52)) None (mkMetaDecl (mkSpan (mkPtok 23 "u64" 16 29 49) (mkPtok 40 "," 18 4 52)) (TyBasic (mkSpan (mkPtok 23 "u64" 16 29 49) (mkPtok 23 "u64" 16 29 49)) (mkBasicType (mkSpan (mkPtok 23 "u64" 16 29 49) (mkPtok 23 "u64" 16 29 49)) (mkPtok 23 "u64" 16 29 49))) (mkPtok 42 "charz" 17 0 51) None (mkPtok 40 "," 18 4 52))); (MetaField (mkSpan (mkPtok 36 "repeat" 18 6 53) (mkPtok 40 "," 19 8 56)) (Some (mkPtok 36 "repeat" 18 6 53)) (mkMetaDecl (mkSpan (mkPtok 21 "uint16" 18 13 54) (mkPtok 40 "," 19 8 56)) (TyBasic (mkSpan (mkPtok 21 "uint16" 18 13 54) (mkPtok 21 "uint16" 18 13 54)) (mkBasicType (mkSpan (mkPtok 21 "uint16" 18 13 54) (mkPtok 21 "uint16" 18 13 54)) (mkPtok 21 "uint16" 18 13 54))) (mkPtok 42 "a1" 19 4 55) None (mkPtok 40 "," 19 8 56)))] (mkPtok 3 "}" 21 4 58)) (mkPtok 40 "," 22 0 60))); (mkFieldWithAttr (mkSpan (mkPtok 14 "zchar[" 23 0 61) (mkPtok 40 "," 27 0 70)) [] (CheckSumField (mkSpan (mkPtok 14 "zchar[" 23 0 61) (mkPtok 40 "," 27 0 70)) (mkChecksumFieldDecl (mkSpan (mkPtok 14 "zchar[" 23 0 61) (mkPtok 40 "," 27 0 70)) (Some (TyFixed (mkSpan (mkPtok 14 "zchar[" 23 0 61) (mkPtok 13 "]" 25 4 64)) (mkFixedString (mkSpan (mkPtok 14 "zchar[" 23 0 61) (mkPtok 13 "]" 25 4 64)) (mkPtok 14 "zchar[" 23 0 61) (mkPtok 30 "0123456789" 24 0 63) (mkPtok 13 "]" 25 4 64)))) (mkPtok 42 "BodyLength" 25 5 65) (mkCalculatedFrom (mkSpan (mkPtok 5 "@calculatedFrom(" 25 16 66) (mkPtok 6 ")" 26 4 68)) (mkPtok 5 "@calculatedFrom(" 25 16 66) (mkPtok 31 """{,}""" 25 33 67) (mkPtok 6 ")" 26 4 68)) None (mkPtok 40 "," 27 0 70)))); (mkFieldWithAttr (mkSpan (mkPtok 42 "BodyLength" 28 0 71) (mkPtok 40 "," 28 18 73)) [] (ObjectField (mkSpan (mkPtok 42 "BodyLength" 28 0 71) (mkPtok 40 "," 28 18 73)) None (mkPtok 42 "BodyLength" 28 0 71) None (Some (mkPtok 43 "`{ , }`" 28 10 72)) (mkPtok 40 "," 28 18 73)))] (mkPtok 3 "}" 29 0 74))); (DPacket (mkPacketDef (mkSpan (mkPtok 35 "packet" 29 1 75) (mkPtok 3 "}" 35 41 94)) None (mkPtok 35 "packet" 29 1 75) (mkPtok 42 "u8x" 29 8 76) (mkPtok 2 "{" 30 4 77) [(mkFieldWithAttr (mkSpan (mkPtok 36 "repeat" 30 6 78) (mkPtok 40 "," 35 39 93)) [] (InerObjectField (mkSpan (mkPtok 36 "repeat" 30 6 78) (mkPtok 40 "," 35 39 93)) (Some (mkPtok 36 "repeat" 30 6 78)) (InerObjectDecl (mkSpan (mkPtok 42 "len" 30 13 79) (mkPtok 3 "}" 35 36 92)) (mkPtok 42 "len" 30 13 79) (mkPtok 2 "{" 32 4 81) [(MetaField (mkSpan (mkPtok 22 "u32" 33 4 82) (mkPtok 40 "," 35 16 86)) None (mkMetaDecl (mkSpan (mkPtok 22 "u32" 33 4 82) (mkPtok 40 "," 35 16 86)) (TyBasic (mkSpan (mkPtok 22 "u32" 33 4 82) (mkPtok 22 "u32" 33 4 82)) (mkBasicType (mkSpan (mkPtok 22 "u32" 33 4 82) (mkPtok 22 "u32" 33 4 82)) (mkPtok 22 "u32" 33 4 82))) (mkPtok 42 "f32a" 35 4 84) (Some (mkPtok 43 (string_of_bytes [96; 230; 182; 136; 230; 129; 175; 231; 177; 187; 229; 158; 139; 96]%N) 35 9 85)) (mkPtok 40 "," 35 16 86))); (ObjectField (mkSpan (mkPtok 42 "A" 35 18 87) (mkPtok 40 "," 35 20 88)) None (mkPtok 42 "A" 35 18 87) None None (mkPtok 40 "," 35 20 88)); (MetaField (mkSpan (mkPtok 27 "i64" 35 21 89) (mkPtok 40 "," 35 34 91)) None (mkMetaDecl (mkSpan (mkPtok 27 "i64" 35 21 89) (mkPtok 40 "," 35 34 91)) (TyBasic (mkSpan (mkPtok 27 "i64" 35 21 89) (mkPtok 27 "i64" 35 21 89)) (mkBasicType (mkSpan (mkPtok 27 "i64" 35 21 89) (mkPtok 27 "i64" 35 21 89)) (mkPtok 27 "i64" 35 21 89))) (mkPtok 42 "matchKey" 35 25 90) None (mkPtok 40 "," 35 34 91)))] (mkPtok 3 "}" 35 36 92)) (mkPtok 40 "," 35 39 93)))] (mkPtok 3 "}" 35 41 94))); (DMeta (mkMetaDef (mkSpan (mkPtok 37 "MetaData" 36 0 95) (mkPtok 3 "}" 36 13 98)) (mkPtok 37 "MetaData" 36 0 95) (mkPtok 42 "_x" 36 9 96) (mkPtok 2 "{" 36 11 97) [] (mkPtok 3 "}" 36 13 98))); (DPacket (mkPacketDef (mkSpan (mkPtok 35 "packet" 36 15 99) (mkPtok 3 "}" 69 12 192)) None (mkPtok 35 "packet" 36 15 99) (mkPtok 42 "_x" 36 22 100) (mkPtok 2 "{" 36 25 101) [(mkFieldWithAttr (mkSpan (mkPtok 42 "f32a" 37 0 102) (mkPtok 40 "," 40 47 117)) [] (InerObjectField (mkSpan (mkPtok 42 "f32a" 37 0 102) (mkPtok 40 "," 40 47 117)) None (InerObjectDecl (mkSpan (mkPtok 42 "f32a" 37 0 102) (mkPtok 3 "}" 40 45 116)) (mkPtok 42 "f32a" 37 0 102) (mkPtok 2 "{" 38 4 103) [(MetaField (mkSpan (mkPtok 28 "f32" 39 0 104) (mkPtok 40 "," 40 0 107)) None (mkMetaDecl (mkSpan (mkPtok 28 "f32" 39 0 104) (mkPtok 40 "," 40 0 107)) (TyBasic (mkSpan (mkPtok 28 "f32" 39 0 104) (mkPtok 28 "f32" 39 0 104)) (mkBasicType (mkSpan (mkPtok 28 "f32" 39 0 104) (mkPtok 28 "f32" 39 0 104)) (mkPtok 28 "f32" 39 0 104))) (mkPtok 42 "body" 39 4 105) None (mkPtok 40 "," 40 0 107))); (MetaField (mkSpan (mkPtok 21 "uint16" 40 2 108) (mkPtok 40 "," 40 13 110)) None (mkMetaDecl (mkSpan (mkPtok 21 "uint16" 40 2 108) (mkPtok 40 "," 40 13 110)) (TyBasic (mkSpan (mkPtok 21 "uint16" 40 2 108) (mkPtok 21 "uint16" 40 2 108)) (mkBasicType (mkSpan (mkPtok 21 "uint16" 40 2 108) (mkPtok 21 "uint16" 40 2 108)) (mkPtok 21 "uint16" 40 2 108))) (mkPtok 42 "u128" 40 9 109) None (mkPtok 40 "," 40 13 110))); (LengthField (mkSpan (mkPtok 42 "matchKey" 40 15 111) (mkPtok 40 "," 40 43 115)) (mkLengthFieldDecl (mkSpan (mkPtok 42 "matchKey" 40 15 111) (mkPtok 40 "," 40 43 115)) None (mkPtok 42 "matchKey" 40 15 111) (mkLengthOf (mkSpan (mkPtok 7 "@lengthOf(" 40 24 112) (mkPtok 6 ")" 40 41 114)) (mkPtok 7 "@lengthOf(" 40 24 112) (mkPtok 42 "Packet" 40 34 113) (mkPtok 6 ")" 40 41 114)) None (mkPtok 40 "," 40 43 115)))] (mkPtok 3 "}" 40 45 116)) (mkPtok 40 "," 40 47 117))); (mkFieldWithAttr (mkSpan (mkPtok 36 "repeat" 40 49 118) (mkPtok 40 "," 43 4 124)) [] (MetaField (mkSpan (mkPtok 36 "repeat" 40 49 118) (mkPtok 40 "," 43 4 124)) (Some (mkPtok 36 "repeat" 40 49 118)) (mkMetaDecl (mkSpan (mkPtok 14 "zchar[" 40 56 119) (mkPtok 40 "," 43 4 124)) (TyFixed (mkSpan (mkPtok 14 "zchar[" 40 56 119) (mkPtok 13 "]" 41 4 121)) (mkFixedString (mkSpan (mkPtok 14 "zchar[" 40 56 119) (mkPtok 13 "]" 41 4 121)) (mkPtok 14 "zchar[" 40 56 119) (mkPtok 30 "0123456789" 40 63 120) (mkPtok 13 "]" 41 4 121))) (mkPtok 42 "float" 42 0 122) (Some (mkPtok 43 (string_of_bytes [96; 195; 169; 96]%N) 43 0 123)) (mkPtok 40 "," 43 4 124)))); (mkFieldWithAttr (mkSpan (mkPtok 28 "f32" 44 0 125) (mkPtok 40 "," 44 15 128)) [] (MetaField (mkSpan (mkPtok 28 "f32" 44 0 125) (mkPtok 40 "," 44 15 128)) None (mkMetaDecl (mkSpan (mkPtok 28 "f32" 44 0 125) (mkPtok 40 "," 44 15 128)) (TyBasic (mkSpan (mkPtok 28 "f32" 44 0 125) (mkPtok 28 "f32" 44 0 125)) (mkBasicType (mkSpan (mkPtok 28 "f32" 44 0 125) (mkPtok 28 "f32" 44 0 125)) (mkPtok 28 "f32" 44 0 125))) (mkPtok 42 "i8i8" 44 4 126) (Some (mkPtok 43 "`doc`" 44 9 127)) (mkPtok 40 "," 44 15 128)))); (mkFieldWithAttr (mkSpan (mkPtok 36 "repeat" 45 4 129) (mkPtok 40 "," 45 19 131)) [] (ObjectField (mkSpan (mkPtok 36 "repeat" 45 4 129) (mkPtok 40 "," 45 19 131)) (Some (mkPtok 36 "repeat" 45 4 129)) (mkPtok 42 "string_" 45 11 130) None None (mkPtok 40 "," 45 19 131))); (mkFieldWithAttr (mkSpan (mkPtok 42 "A" 45 21 132) (mkPtok 40 "," 51 0 137)) [] (ObjectField (mkSpan (mkPtok 42 "A" 45 21 132) (mkPtok 40 "," 51 0 137)) None (mkPtok 42 "A" 45 21 132) None (Some (mkPtok 43 (string_of_bytes [96; 10; 96]%N) 47 4 134)) (mkPtok 40 "," 51 0 137))); (mkFieldWithAttr (mkSpan (mkPtok 38 "match" 51 2 138) (mkPtok 40 "," 69 10 191)) [] (MatchField (mkSpan (mkPtok 38 "match" 51 2 138) (mkPtok 40 "," 69 10 191)) (mkMatchFieldDecl (mkSpan (mkPtok 38 "match" 51 2 138) (mkPtok 3 "}" 69 8 190)) (mkPtok 38 "match" 51 2 138) (mkPtok 42 "u128" 51 8 139) (mkPtok 17 "as" 51 13 140) (mkPtok 42 "i8i8" 51 16 141) (mkPtok 2 "{" 52 0 143) [(mkMatchPair (mkSpan (mkPtok 30 "0123456789" 53 0 144) (mkPtok 40 "," 53 18 147)) (MKDigits (mkPtok 30 "0123456789" 53 0 144)) (mkPtok 39 ":" 53 11 145) (mkPtok 42 "float" 53 12 146) (Some (mkPtok 40 "," 53 18 147))); (mkMatchPair (mkSpan (mkPtok 30 "10" 53 21 148) (mkPtok 40 "," 54 0 152)) (MKDigits (mkPtok 30 "10" 53 21 148)) (mkPtok 39 ":" 53 25 149) (mkPtok 42 "roots" 53 27 150) (Some (mkPtok 40 "," 54 0 152))); (mkMatchPair (mkSpan (mkPtok 31 """it's""" 55 4 153) (mkPtok 40 "," 56 4 156)) (MKString (mkPtok 31 """it's""" 55 4 153)) (mkPtok 39 ":" 55 11 154) (mkPtok 42 "_x" 55 13 155) (Some (mkPtok 40 "," 56 4 156))); (mkMatchPair (mkSpan (mkPtok 30 "10" 56 6 157) (mkPtok 42 "Z9_" 59 0 161)) (MKDigits (mkPtok 30 "10" 56 6 157)) (mkPtok 39 ":" 56 9 158) (mkPtok 42 "Z9_" 59 0 161) None); (mkMatchPair (mkSpan (mkPtok 18 "[" 59 4 162) (mkPtok 40 "," 63 14 170)) (MKList (mkKeyList (mkSpan (mkPtok 18 "[" 59 4 162) (mkPtok 13 "]" 62 6 167)) (mkPtok 18 "[" 59 4 162) (mkPtok 31 """a\""b""" 61 4 164) [((mkPtok 40 "," 61 10 165), (mkPtok 31 """x y""" 62 0 166))] (mkPtok 13 "]" 62 6 167))) (mkPtok 39 ":" 63 4 168) (mkPtok 42 "matchKey" 63 6 169) (Some (mkPtok 40 "," 63 14 170))); (mkMatchPair (mkSpan (mkPtok 18 "[" 63 16 171) (mkPtok 42 "Pad" 69 4 189)) (MKList (mkKeyList (mkSpan (mkPtok 18 "[" 63 16 171) (mkPtok 13 "]" 68 9 187)) (mkPtok 18 "[" 63 16 171) (mkPtok 31 (string_of_bytes [34; 92; 195; 169; 34]%N) 63 17 172) [((mkPtok 40 "," 63 21 173), (mkPtok 30 "10" 63 23 174)); ((mkPtok 40 "," 63 26 175), (mkPtok 31 (string_of_bytes [34; 230; 182; 136; 230; 129; 175; 34]%N) 63 27 176)); ((mkPtok 40 "," 63 32 177), (mkPtok 30 "255" 63 34 178)); ((mkPtok 40 "," 64 0 179), (mkPtok 30 "0123456789" 64 2 180)); ((mkPtok 40 "," 65 0 181), (mkPtok 30 "7" 68 0 184)); ((mkPtok 40 "," 68 3 185), (mkPtok 30 "007" 68 5 186))] (mkPtok 13 "]" 68 9 187))) (mkPtok 39 ":" 68 11 188) (mkPtok 42 "Pad" 69 4 189) None)] (mkPtok 3 "}" 69 8 190)) (mkPtok 40 "," 69 10 191)))] (mkPtok 3 "}" 69 12 192)))])).
+Eval vm_compute in ("<<<M591>>>" ++ check (runes_of_ascii "options
+{ x  = string
+x_y_z ='\x00';falsey =
+1; chars = true; Logon =
+    ""packet"" }
+
 ")).
-Eval vm_compute in ("<<<M687>>>" ++ check (runes_of_ascii "packet
-//	t
-//x
-As
-{ matchKey@lengthOf(string_)
-    , matchKey `say ""hi""`// packet A { u8 x, }
-,}")).
-Eval vm_compute in ("<<<M719>>>" ++ check (runes_of_ascii "packet
-A //
-{
-@tag(255
-) @lengthOf(
-// packet A { u8 x, }
-//
-x
-    )  u `crlf
-line`,
-repeat
-body { zchar[ 00
-    //	t
-    ]  crc`a\`
-    , }// c
-, }")).
-Eval vm_compute in ("<<<M751>>>" ++ check (runes_of_ascii "  root  packet As { }")).
-Eval vm_compute in ("<<<M783>>>" ++ check (runes_of_ascii "packet  Z9_{
+Eval vm_compute in ("<<<M623>>>" ++ check (runes_of_ascii "  packet x {tag// trailing space 
+,
     }
 ")).
-Eval vm_compute in ("<<<T783>>>" ++ terms [mkTok 35 "packet" 1 0 false; mkTok 42 "Z9_" 1 8 false; mkTok 2 "{" 1 11 false; mkTok 3 "}" 2 4 false; mkTok 0 "<EOF>" 3 0 false] (mkPacket (mkPtok 35 "packet" 1 0 0) (Some (mkPtok 3 "}" 2 4 3)) [(DPacket (mkPacketDef (mkSpan (mkPtok 35 "packet" 1 0 0) (mkPtok 3 "}" 2 4 3)) None (mkPtok 35 "packet" 1 0 0) (mkPtok 42 "Z9_" 1 8 1) (mkPtok 2 "{" 1 11 2) [] (mkPtok 3 "}" 2 4 3)))])).
-Eval vm_compute in ("<<<M815>>>" ++ check (runes_of_ascii "MetaData// packet A { u8 x, }
-matchKey { u64
-leftPad
-    //x
+Eval vm_compute in ("<<<M655>>>" ++ check (runes_of_ascii "packet
+// 50% %s
+//	t
+int{
+    } // " ++ [128512]%N ++ runes_of_ascii " emoji")).
+Eval vm_compute in ("<<<M687>>>" ++ check (runes_of_ascii "root /// triple
+packet calculatedFrom { string	crc	,  @calculatedFrom( ""abc"" ) u8
+float, match // " ++ [27880; 37322]%N ++ runes_of_ascii "
+BodyLength
+    // 50% %s
+    as Packet{ 0 : charz
     ,
-u32 T `it's` , uint8 x,
+    } ,
+}")).
+Eval vm_compute in ("<<<M719>>>" ++ check (runes_of_ascii "
+packet
+    // c
+    float{
+@tag( 1 )
+@calculatedFrom( ""1"" // trailing space 
+)
+    matchKey @lengthOf( crc )`` , } MetaData pack
+{char[]
+BodyLength , trueish
+    crc ,
+    char[	0123456789]	A // @lengthOf(
+`
+`
+,
+zchar leftPad
+`two words`	, } packet
+charz//x
+{x {
+    u16
+x
+`line1
+line2`// a // b
+,	repeat
+a1 ,roots asx , } , matchKey rootA
+,
+@lengthOf( options1 )  u16
+Z9_, @calculatedFrom( """ ++ [233]%N ++ runes_of_ascii "t" ++ [233]%N ++ runes_of_ascii """ ) match rootA as// @lengthOf(
+matchKey
+{ // " ++ [27880; 37322]%N ++ runes_of_ascii "
+0123456789
+:u8x ,65535 : crc// " ++ [27880; 37322]%N ++ runes_of_ascii "
+,
+[
+    1 ,
+    ""x y"" ,
+1 ]
+: x_y_z ,
+    [ 00  , """ ++ [128512]%N ++ runes_of_ascii """]
+    : MetaDataX ,
+    }	, i16
+    /// triple
+    float
+    , @calculatedFrom( ""a	b""	)// " ++ [128512]%N ++ runes_of_ascii " emoji
+@lengthOf( Foo ) repeat//	t
+chars // @lengthOf(
+, pack , }
+root packet i8i8 { @calculatedFrom(
+""" ++ [128512]%N ++ runes_of_ascii """) Header { repeat
+    Pad _x ,
+}, }
+")).
+Eval vm_compute in ("<<<M751>>>" ++ check (runes_of_ascii "// a // b
+options{ Pad = ""x y"" ; As =  7 x_y_z
+= '\x00'
+float = '\x00';i8i8= 1 } packet
+packetx {
+    @rightPad//	t
+(
+'\x00' )
+repeat
+char[]  zchar , }root
+packet int { @lengthOf( packetx ) repeat A , } //	t")).
+Eval vm_compute in ("<<<M783>>>" ++ check (runes_of_ascii "root
+packet i64_ {  u8
+Logon ,asx
+@lengthOf( calculatedFrom ) `two words`
+, @rightPad ('\x00' ) @tag(4294967296 ) @leftPad ( )u32 roots
+    , repeat
+    // " ++ [128512]%N ++ runes_of_ascii " emoji
+    char[
+65535 ] Foo , }
+")).
+Eval vm_compute in ("<<<T783>>>" ++ terms [mkTok 34 "root" 1 0 false; mkTok 35 "packet" 2 0 false; mkTok 42 "i64_" 2 7 false; mkTok 2 "{" 2 12 false; mkTok 20 "u8" 2 15 false; mkTok 42 "Logon" 3 0 false; mkTok 40 "," 3 6 false; mkTok 42 "asx" 3 7 false; mkTok 7 "@lengthOf(" 4 0 false; mkTok 42 "calculatedFrom" 4 11 false; mkTok 6 ")" 4 26 false; mkTok 43 "`two words`" 4 28 false; mkTok 40 "," 5 0 false; mkTok 32 "@rightPad" 5 2 false; mkTok 8 "(" 5 12 false; mkTok 33 "'\x00'" 5 13 false; mkTok 6 ")" 5 20 false; mkTok 9 "@tag(" 5 22 false; mkTok 30 "4294967296" 5 27 false; mkTok 6 ")" 5 38 false; mkTok 32 "@leftPad" 5 40 false; mkTok 8 "(" 5 49 false; mkTok 6 ")" 5 51 false; mkTok 22 "u32" 5 52 false; mkTok 42 "roots" 5 56 false; mkTok 40 "," 6 4 false; mkTok 36 "repeat" 6 6 false; mkTok 44 (string_of_bytes [47; 47; 32; 240; 159; 152; 128; 32; 101; 109; 111; 106; 105]%N) 7 4 true; mkTok 12 "char[" 8 4 false; mkTok 30 "65535" 9 0 false; mkTok 13 "]" 9 6 false; mkTok 42 "Foo" 9 8 false; mkTok 40 "," 9 12 false; mkTok 3 "}" 9 14 false; mkTok 0 "<EOF>" 10 0 false] (mkPacket (mkPtok 34 "root" 1 0 0) (Some (mkPtok 3 "}" 9 14 33)) [(DPacket (mkPacketDef (mkSpan (mkPtok 34 "root" 1 0 0) (mkPtok 3 "}" 9 14 33)) (Some (mkPtok 34 "root" 1 0 0)) (mkPtok 35 "packet" 2 0 1) (mkPtok 42 "i64_" 2 7 2) (mkPtok 2 "{" 2 12 3) [(mkFieldWithAttr (mkSpan (mkPtok 20 "u8" 2 15 4) (mkPtok 40 "," 3 6 6)) [] (MetaField (mkSpan (mkPtok 20 "u8" 2 15 4) (mkPtok 40 "," 3 6 6)) None (mkMetaDecl (mkSpan (mkPtok 20 "u8" 2 15 4) (mkPtok 40 "," 3 6 6)) (TyBasic (mkSpan (mkPtok 20 "u8" 2 15 4) (mkPtok 20 "u8" 2 15 4)) (mkBasicType (mkSpan (mkPtok 20 "u8" 2 15 4) (mkPtok 20 "u8" 2 15 4)) (mkPtok 20 "u8" 2 15 4))) (mkPtok 42 "Logon" 3 0 5) None (mkPtok 40 "," 3 6 6)))); (mkFieldWithAttr (mkSpan (mkPtok 42 "asx" 3 7 7) (mkPtok 40 "," 5 0 12)) [] (LengthField (mkSpan (mkPtok 42 "asx" 3 7 7) (mkPtok 40 "," 5 0 12)) (mkLengthFieldDecl (mkSpan (mkPtok 42 "asx" 3 7 7) (mkPtok 40 "," 5 0 12)) None (mkPtok 42 "asx" 3 7 7) (mkLengthOf (mkSpan (mkPtok 7 "@lengthOf(" 4 0 8) (mkPtok 6 ")" 4 26 10)) (mkPtok 7 "@lengthOf(" 4 0 8) (mkPtok 42 "calculatedFrom" 4 11 9) (mkPtok 6 ")" 4 26 10)) (Some (mkPtok 43 "`two words`" 4 28 11)) (mkPtok 40 "," 5 0 12)))); (mkFieldWithAttr (mkSpan (mkPtok 32 "@rightPad" 5 2 13) (mkPtok 40 "," 6 4 25)) [(FAPadding (mkSpan (mkPtok 32 "@rightPad" 5 2 13) (mkPtok 6 ")" 5 20 16)) (mkPaddingAttr (mkSpan (mkPtok 32 "@rightPad" 5 2 13) (mkPtok 6 ")" 5 20 16)) (mkPtok 32 "@rightPad" 5 2 13) (mkPtok 8 "(" 5 12 14) (Some (mkPtok 33 "'\x00'" 5 13 15)) (mkPtok 6 ")" 5 20 16))); (FATag (mkSpan (mkPtok 9 "@tag(" 5 22 17) (mkPtok 6 ")" 5 38 19)) (mkTagAttr (mkSpan (mkPtok 9 "@tag(" 5 22 17) (mkPtok 6 ")" 5 38 19)) (mkPtok 9 "@tag(" 5 22 17) (mkPtok 30 "4294967296" 5 27 18) (mkPtok 6 ")" 5 38 19))); (FAPadding (mkSpan (mkPtok 32 "@leftPad" 5 40 20) (mkPtok 6 ")" 5 51 22)) (mkPaddingAttr (mkSpan (mkPtok 32 "@leftPad" 5 40 20) (mkPtok 6 ")" 5 51 22)) (mkPtok 32 "@leftPad" 5 40 20) (mkPtok 8 "(" 5 49 21) None (mkPtok 6 ")" 5 51 22)))] (MetaField (mkSpan (mkPtok 22 "u32" 5 52 23) (mkPtok 40 "," 6 4 25)) None (mkMetaDecl (mkSpan (mkPtok 22 "u32" 5 52 23) (mkPtok 40 "," 6 4 25)) (TyBasic (mkSpan (mkPtok 22 "u32" 5 52 23) (mkPtok 22 "u32" 5 52 23)) (mkBasicType (mkSpan (mkPtok 22 "u32" 5 52 23) (mkPtok 22 "u32" 5 52 23)) (mkPtok 22 "u32" 5 52 23))) (mkPtok 42 "roots" 5 56 24) None (mkPtok 40 "," 6 4 25)))); (mkFieldWithAttr (mkSpan (mkPtok 36 "repeat" 6 6 26) (mkPtok 40 "," 9 12 32)) [] (MetaField (mkSpan (mkPtok 36 "repeat" 6 6 26) (mkPtok 40 "," 9 12 32)) (Some (mkPtok 36 "repeat" 6 6 26)) (mkMetaDecl (mkSpan (mkPtok 12 "char[" 8 4 28) (mkPtok 40 "," 9 12 32)) (TyFixed (mkSpan (mkPtok 12 "char[" 8 4 28) (mkPtok 13 "]" 9 6 30)) (mkFixedString (mkSpan (mkPtok 12 "char[" 8 4 28) (mkPtok 13 "]" 9 6 30)) (mkPtok 12 "char[" 8 4 28) (mkPtok 30 "65535" 9 0 29) (mkPtok 13 "]" 9 6 30))) (mkPtok 42 "Foo" 9 8 31) None (mkPtok 40 "," 9 12 32))))] (mkPtok 3 "}" 9 14 33)))])).
+Eval vm_compute in ("<<<M815>>>" ++ check (runes_of_ascii "packet Z9_{  @tag( 007
+) @tag( 007 ) @lengthOf( trueish
+) char[]
+i8i8 `{ , }` , } MetaData trueish
+    {  char[] metadata ,
+char[
+    0123456789]
+uint8x , //
+} packet Packet/// triple
+{ uint16 float
+@lengthOf(
+    Z9_
+) `" ++ [28040; 24687; 31867; 22411]%N ++ runes_of_ascii "`
+    ,
+@calculatedFrom( ""// no comment"" )
+// a // b
+//	t
+crc,uint8x `" ++ [233]%N ++ runes_of_ascii "`
+, uint16 packetx , @leftPad
+    (
+) repeat rootA
+{
+repeat
+    // `tick` ""quote"" 'q'
+    As options1	, } ,match x as tag {1
+// 50% %s
+//
+:
+// " ++ [128512]%N ++ runes_of_ascii " emoji
+// 50% %s
+T
+// c
+// 50% %s
+,
+""abc"" : tag""\n""
+    // @lengthOf(
+    :
+/// triple
+//x
+tag ,  65535 :	u ,
+} // trailing space 
+, match
+    // trailing space 
+    Pad as
+Foo // `tick` ""quote"" 'q'
+{ ""it's"":
+T , } ,metadata,@lengthOf(rootA )  @rightPad ('\x00' )
     // packet A { u8 x, }
-    char[] f32a	`say ""hi""`
-, f64// trailing space 
-stringy ``	, lengthOf
-Packet  `say ""hi""`, }")).
-Eval vm_compute in ("<<<M847>>>" ++ check (runes_of_ascii "packet MetaDataX
-{ char[]
-len , // a // b
-float64 len
-@calculatedFrom( ""packet"" )
-, }
+    match i64_	as  stringy { """ ++ [233]%N ++ runes_of_ascii "t" ++ [233]%N ++ runes_of_ascii """ : crc
+,
+00 : trueish 0 :repeatCount
+    ,
+3
+    :
+falsey , """ ++ [28040; 24687]%N ++ runes_of_ascii """ : lengthOf  [ """"// `tick` ""quote"" 'q'
+, 1 ]
+    : lengthOf , } ,
+} MetaData A {
+    chars MetaDataX ,
+    char[ 7 ] x_y_z,
+f32 u `crlf
+line`
+,
+int64 packetx`say ""hi""`
+, } MetaData
+Foo { i64 lengthOf `crlf
+line`, }
+")).
+Eval vm_compute in ("<<<M847>>>" ++ check (runes_of_ascii "root packet
+    rootA
+    {
+@tag(
+    7
+)@calculatedFrom(
+""`tick`"" ) a1
+    // packet A { u8 x, }
+    @calculatedFrom( """ ++ [28040; 24687]%N ++ runes_of_ascii """ ) ,
+// packet A { u8 x, }
+//x
+}
+
 ")).
 Eval vm_compute in ("<<<M879>>>" ++ check (runes_of_ascii "// `tick` ""quote"" 'q'
-MetaData	BodyLength {
-char[ 00
+root  packet zchar
+{
+// @lengthOf(
+//x
+match packetx as//x
+u128{ 65535: f32a	""abc""
+: stringy ,	""// no comment"" :
+uint8x // a // b
+[
+    ""packet""
+] : msg_type
+, ""`tick`"":
+BodyLength
+00 :stringy
+, } ,}
+root
+    packet lengthOf
+{ @calculatedFrom(""packet"" )char[] trueish , }
+
+")).
+Eval vm_compute in ("<<<M911>>>" ++ check (runes_of_ascii "root packet Header {
+    @lengthOf(	x_y_z // packet A { u8 x, }
+)// packet A { u8 x, }
+@tag(
+//x
+// 50% %s
+0123456789
+    )	@lengthOf(
+    As ) string len`two words`
+,
+    match Pad
+as _x
+{
+""\" ++ [233]%N ++ runes_of_ascii """
+    : Z9_, } , i8i8 @lengthOf(	repeatCount// trailing space 
+)
+//x
+//x
+`doc`	,
+char[ 0 // trailing space 
+]	chars	, @leftPad
+( ' ' ) Logon `tab	here` , // c
+@calculatedFrom( ""\" ++ [233]%N ++ runes_of_ascii """	) repeat zchar { zchar[ 4294967296 ]
+    A `
+` ,
+repeat
+a1
+    {//	t
+repeat
+Header  , zchar[
+    7 ]packetx
+`{ , }`
+,
+char[007
+]_x , } ,	match chars as
+o {
+    ""\" ++ [233]%N ++ runes_of_ascii """
+:// " ++ [27880; 37322]%N ++ runes_of_ascii "
+calculatedFrom ""\n"":u8x ,
+""a	b"" : Pad //
+,65535
+: int
+    ,	}
+, char[] float// @lengthOf(
+@lengthOf(lengthOf )
+    ,
+}
+    , uint32 asx `
+` , char[] uint8x  @calculatedFrom( //x
+""abc"" ) ,
+    //
+    @tag( 255
+    ) @calculatedFrom( ""a\\""
+    ) zchar[
+    3
+] options1 ,charz `two words` ,
+    // c
+    }")).
+Eval vm_compute in ("<<<M943>>>" ++ check (runes_of_ascii "MetaData
+rootA	{ // " ++ [128512]%N ++ runes_of_ascii " emoji
+T	calculatedFrom
+``
+    , x msg_type , } root packet Pad { falsey { repeat  tag
+a1 `" ++ [28040; 24687; 31867; 22411]%N ++ runes_of_ascii "`
+    , } ,@calculatedFrom( ""CRC32""  ) repeat len ,
+int16	charz @calculatedFrom( ""x y"" ) //	t
+,string matchKey
+    , zchar[3 ]
+Header `it's` , trueish
+@lengthOf(
+stringy
+), char[] metadata //	t
+@lengthOf( options1 )
+    , u roots `` ,} MetaData lengthOf
+    { float32 metadata,
+char
+body `100% of %d`
+    , // a // b
+}
+")).
+Eval vm_compute in ("<<<M975>>>" ++ check (runes_of_ascii "packet metadata { uint8x { repeat //
+u16 string_, }
+//	t
+//x
+, } packet MetaDataX  { @rightPad	(' ' ) tag {  zchar[ 007
+] tag
 //x
 // " ++ [27880; 37322]%N ++ runes_of_ascii "
-]
-A
-`a\`	, zchar[// trailing space 
-0123456789 ] T // packet A { u8 x, }
-`tab	here` ,As asx `" ++ [28040; 24687; 31867; 22411]%N ++ runes_of_ascii "` ,
-char[]falsey ,  o // " ++ [128512]%N ++ runes_of_ascii " emoji
-Foo `tab	here` , } root packet
-i64_ {
-    repeat uint64 o,
 @calculatedFrom(
-""abc"" ) uint8x ,
-@tag( 4294967296
-    ) char[ 255]
-    repeatCount `` ,	}")).
-Eval vm_compute in ("<<<M911>>>" ++ check (runes_of_ascii "
-MetaData Header { } root// " ++ [128512]%N ++ runes_of_ascii " emoji
-packet i8i8{ @rightPad // trailing space 
-(
-'0' )	u16
-u8x @lengthOf( Header )
-`u8 x,`,
-}
-    MetaData
-u128
-{  zchar[ 00 ]falsey, body repeatCount , len
-    repeatCount
-    ,
-u8 chars  `line1
-line2`
-    , }")).
-Eval vm_compute in ("<<<M943>>>" ++ check (runes_of_ascii "packet
-crc
-    {
-@leftPad ( ' ' ) u64 packetx @lengthOf(trueish ) ,
-float
+""1"" ) ,
+    string u , repeat A	T ,
+// 50% %s
+// packet A { u8 x, }
+roots @lengthOf(
+    Logon),
+    }
+, @calculatedFrom( """ ++ [28040; 24687]%N ++ runes_of_ascii """ )repeat
+string_	`tab	here`,}packet x
+{ float32 // 50% %s
+BodyLength @lengthOf(Header )
+`doc`//	t
+,}
+")).
+Eval vm_compute in ("<<<M1007>>>" ++ check (runes_of_ascii "MetaData
+    Pad {uint64 options1 , int32	roots ,
+int16 A `` //
+, msg_type
+    trueish , }")).
+Eval vm_compute in ("<<<T1007>>>" ++ terms [mkTok 37 "MetaData" 1 0 false; mkTok 42 "Pad" 2 4 false; mkTok 2 "{" 2 8 false; mkTok 23 "uint64" 2 9 false; mkTok 42 "options1" 2 16 false; mkTok 40 "," 2 25 false; mkTok 26 "int32" 2 27 false; mkTok 42 "roots" 2 33 false; mkTok 40 "," 2 39 false; mkTok 25 "int16" 3 0 false; mkTok 42 "A" 3 6 false; mkTok 43 "``" 3 8 false; mkTok 44 "//" 3 11 true; mkTok 40 "," 4 0 false; mkTok 42 "msg_type" 4 2 false; mkTok 42 "trueish" 5 4 false; mkTok 40 "," 5 12 false; mkTok 3 "}" 5 14 false; mkTok 0 "<EOF>" 5 15 false] (mkPacket (mkPtok 37 "MetaData" 1 0 0) (Some (mkPtok 3 "}" 5 14 17)) [(DMeta (mkMetaDef (mkSpan (mkPtok 37 "MetaData" 1 0 0) (mkPtok 3 "}" 5 14 17)) (mkPtok 37 "MetaData" 1 0 0) (mkPtok 42 "Pad" 2 4 1) (mkPtok 2 "{" 2 8 2) [(MIDecl (mkMetaDecl (mkSpan (mkPtok 23 "uint64" 2 9 3) (mkPtok 40 "," 2 25 5)) (TyBasic (mkSpan (mkPtok 23 "uint64" 2 9 3) (mkPtok 23 "uint64" 2 9 3)) (mkBasicType (mkSpan (mkPtok 23 "uint64" 2 9 3) (mkPtok 23 "uint64" 2 9 3)) (mkPtok 23 "uint64" 2 9 3))) (mkPtok 42 "options1" 2 16 4) None (mkPtok 40 "," 2 25 5))); (MIDecl (mkMetaDecl (mkSpan (mkPtok 26 "int32" 2 27 6) (mkPtok 40 "," 2 39 8)) (TyBasic (mkSpan (mkPtok 26 "int32" 2 27 6) (mkPtok 26 "int32" 2 27 6)) (mkBasicType (mkSpan (mkPtok 26 "int32" 2 27 6) (mkPtok 26 "int32" 2 27 6)) (mkPtok 26 "int32" 2 27 6))) (mkPtok 42 "roots" 2 33 7) None (mkPtok 40 "," 2 39 8))); (MIDecl (mkMetaDecl (mkSpan (mkPtok 25 "int16" 3 0 9) (mkPtok 40 "," 4 0 13)) (TyBasic (mkSpan (mkPtok 25 "int16" 3 0 9) (mkPtok 25 "int16" 3 0 9)) (mkBasicType (mkSpan (mkPtok 25 "int16" 3 0 9) (mkPtok 25 "int16" 3 0 9)) (mkPtok 25 "int16" 3 0 9))) (mkPtok 42 "A" 3 6 10) (Some (mkPtok 43 "``" 3 8 11)) (mkPtok 40 "," 4 0 13))); (MIRef (mkRefMetaDecl (mkSpan (mkPtok 42 "msg_type" 4 2 14) (mkPtok 40 "," 5 12 16)) (mkPtok 42 "msg_type" 4 2 14) (mkPtok 42 "trueish" 5 4 15) None (mkPtok 40 "," 5 12 16)))] (mkPtok 3 "}" 5 14 17)))])).
+Eval vm_compute in ("<<<M1039>>>" ++ check (runes_of_ascii "MetaData MetaDataX // packet A { u8 x, }
+{ uint8
+    stringy// `tick` ""quote"" 'q'
+`a\` , float32 // @lengthOf(
+f32a , u32 T , float32 uint8x
+, } // " ++ [27880; 37322]%N)).
+Eval vm_compute in ("<<<M1071>>>" ++ check (runes_of_ascii "packet
+    u8x
+//	t
+// 50% %s
+{ } 	 ")).
+Eval vm_compute in ("<<<M1103>>>" ++ check (runes_of_ascii "MetaData i8i8 {rootA
+stringy
+, char[ 4294967296 ] asx , i8 uint8x, zchar  int
+,} // `tick` ""quote"" 'q'")).
+Eval vm_compute in ("<<<M1135>>>" ++ check (runes_of_ascii "  packet
+    stringy {
+    repeatCount @calculatedFrom(""a	b""),
+    @lengthOf( string_ //x
+) repeat
+i64_ metadata `it's`
+    , }
+")).
+Eval vm_compute in ("<<<M1167>>>" ++ check (runes_of_ascii "
+MetaData  o { }
+// a // b
+")).
+Eval vm_compute in ("<<<M1199>>>" ++ check (runes_of_ascii "packet
+i8i8 // " ++ [128512]%N ++ runes_of_ascii " emoji
+{@calculatedFrom( ""abc""
+    ) match _x  as trueish {
+[
+007 ,4294967296 , 4294967296 ] : // trailing space 
+uint8x ,""{,}"" :
+stringy ,
+4294967296
+    // c
+    : packetx ,
+    //	t
+    [ // trailing space 
+10
+    , 1
+]// trailing space 
+:
+chars
+, """"
+:
+    u8x
+, }, @calculatedFrom(
+""" ++ [28040; 24687]%N ++ runes_of_ascii """ )
+u32 u @lengthOf( u128 ) ,
+As @calculatedFrom(""a	b"" )
+    ,@leftPad (' '
+) @calculatedFrom(	""1""
+    )@calculatedFrom( ""\" ++ [233]%N ++ runes_of_ascii """
+    ) //
+zchar[ 1 // packet A { u8 x, }
+]
+MetaDataX
+,}")).
+Eval vm_compute in ("<<<M1231>>>" ++ check (runes_of_ascii "root	packet pack
+{ @calculatedFrom( ""CRC32""
+// 50% %s
+// c
+)	msg_type lengthOf,  string	float `u8 x,` ,
+// 50% %s
+// packet A { u8 x, }
+trueish@calculatedFrom(
+""// no comment"" ),// trailing space 
+f32a `doc` // `tick` ""quote"" 'q'
+, i64 Header @calculatedFrom(
+    ""abc""
+// c
+//	t
+)
+//	t
+//	t
 `line1
 line2` ,
-// packet A { u8 x, }
-// trailing space 
-}packet
-msg_type{zchar[ 3 ]i8i8
-@lengthOf( u )	,char[] roots , match x_y_z as
-uint8x
-{ ""a	b"":body	, } /// triple
-,
-@tag(
-42 )	@rightPad
-// `tick` ""quote"" 'q'
-//x
-(
-'0'	) Packet
-// " ++ [128512]%N ++ runes_of_ascii " emoji
-// packet A { u8 x, }
-@calculatedFrom( ""1"" // c
-) `
-`,@lengthOf(  MetaDataX ) i32 // `tick` ""quote"" 'q'
-trueish,
-@rightPad ( ' '  )
-    u128
-@lengthOf( _x )  , }")).
-Eval vm_compute in ("<<<M975>>>" ++ check (runes_of_ascii "//x
-packet zchar { match a1 as
-BodyLength
-    {
-    [// " ++ [128512]%N ++ runes_of_ascii " emoji
-""a\\""] :trueish ,
-} ,@leftPad (
-    //	t
-    '0' )	repeatCount @calculatedFrom( ""a	b"" )
-`tab	here`
-    ,int8 o @lengthOf(
-i64_ )
-    `u8 x,` ,
-    u8 chars	,
-} packet trueish {@lengthOf( crc )@calculatedFrom( """ ++ [128512]%N ++ runes_of_ascii """) @calculatedFrom(  ""`tick`""  )//x
-match BodyLength as Z9_
-    {
-    3: falsey [ 42 , 00 , 3
-, 10
-]
-    :
-    packetx	,255:
-metadata	,} // trailing space 
-, repeat x_y_z
-Header , @calculatedFrom( ""CRC32"" ) Z9_ // trailing space 
-{	x
-    // @lengthOf(
-    @calculatedFrom( ""1""
-// packet A { u8 x, }
-//x
-) `it's`	,
-// packet A { u8 x, }
-// trailing space 
-string
-Header, }
-,
-    @lengthOf( roots  ) i64_
-    , }
-// @lengthOf(
-")).
-Eval vm_compute in ("<<<M1007>>>" ++ check (runes_of_ascii "options
-{ u8x =  0123456789
-    ;
-    } packet rootA {
-    i8i8 repeatCount
-    ,}
-// " ++ [27880; 37322]%N ++ runes_of_ascii "
-// a // b
-root packet MetaDataX { // @lengthOf(
-Logon // " ++ [27880; 37322]%N ++ runes_of_ascii "
-{int64 i8i8 @lengthOf(  Header ) ,
-    //x
-    } ,}	root packet // @lengthOf(
-Pad {	roots { i16 Logon
-    @calculatedFrom( """ ++ [233]%N ++ runes_of_ascii "t" ++ [233]%N ++ runes_of_ascii """) , match As	as float
-{ [ ""packet"" //
-, ""// no comment""
-    ] : a1
-, 65535	: f32a, [
-    ""a\""b""
-    ,
-""// no comment"" , ""a	b"",
-    //
-    ""a	b"",
-""a\\""]
-:
-x , ""{,}""
-:	rootA
-,
-10
-:	msg_type
-, } ,
 }
-    ,
-} options {}
 ")).
-Eval vm_compute in ("<<<T1007>>>" ++ terms [mkTok 1 "options" 1 0 false; mkTok 2 "{" 2 0 false; mkTok 42 "u8x" 2 2 false; mkTok 4 "=" 2 6 false; mkTok 30 "0123456789" 2 9 false; mkTok 41 ";" 3 4 false; mkTok 3 "}" 4 4 false; mkTok 35 "packet" 4 6 false; mkTok 42 "rootA" 4 13 false; mkTok 2 "{" 4 19 false; mkTok 42 "i8i8" 5 4 false; mkTok 42 "repeatCount" 5 9 false; mkTok 40 "," 6 4 false; mkTok 3 "}" 6 5 false; mkTok 44 (string_of_bytes [47; 47; 32; 230; 179; 168; 233; 135; 138]%N) 7 0 true; mkTok 44 "// a // b" 8 0 true; mkTok 34 "root" 9 0 false; mkTok 35 "packet" 9 5 false; mkTok 42 "MetaDataX" 9 12 false; mkTok 2 "{" 9 22 false; mkTok 44 "// @lengthOf(" 9 24 true; mkTok 42 "Logon" 10 0 false; mkTok 44 (string_of_bytes [47; 47; 32; 230; 179; 168; 233; 135; 138]%N) 10 6 true; mkTok 2 "{" 11 0 false; mkTok 27 "int64" 11 1 false; mkTok 42 "i8i8" 11 7 false; mkTok 7 "@lengthOf(" 11 12 false; mkTok 42 "Header" 11 24 false; mkTok 6 ")" 11 31 false; mkTok 40 "," 11 33 false; mkTok 44 "//x" 12 4 true; mkTok 3 "}" 13 4 false; mkTok 40 "," 13 6 false; mkTok 3 "}" 13 7 false; mkTok 34 "root" 13 9 false; mkTok 35 "packet" 13 14 false; mkTok 44 "// @lengthOf(" 13 21 true; mkTok 42 "Pad" 14 0 false; mkTok 2 "{" 14 4 false; mkTok 42 "roots" 14 6 false; mkTok 2 "{" 14 12 false; mkTok 25 "i16" 14 14 false; mkTok 42 "Logon" 14 18 false; mkTok 5 "@calculatedFrom(" 15 4 false; mkTok 31 (string_of_bytes [34; 195; 169; 116; 195; 169; 34]%N) 15 21 false; mkTok 6 ")" 15 26 false; mkTok 40 "," 15 28 false; mkTok 38 "match" 15 30 false; mkTok 42 "As" 15 36 false; mkTok 17 "as" 15 39 false; mkTok 42 "float" 15 42 false; mkTok 2 "{" 16 0 false; mkTok 18 "[" 16 2 false; mkTok 31 """packet""" 16 4 false; mkTok 44 "//" 16 13 true; mkTok 40 "," 17 0 false; mkTok 31 """// no comment""" 17 2 false; mkTok 13 "]" 18 4 false; mkTok 39 ":" 18 6 false; mkTok 42 "a1" 18 8 false; mkTok 40 "," 19 0 false; mkTok 30 "65535" 19 2 false; mkTok 39 ":" 19 8 false; mkTok 42 "f32a" 19 10 false; mkTok 40 "," 19 14 false; mkTok 18 "[" 19 16 false; mkTok 31 """a\""b""" 20 4 false; mkTok 40 "," 21 4 false; mkTok 31 """// no comment""" 22 0 false; mkTok 40 "," 22 16 false; mkTok 31 (string_of_bytes [34; 97; 9; 98; 34]%N) 22 18 false; mkTok 40 "," 22 23 false; mkTok 44 "//" 23 4 true; mkTok 31 (string_of_bytes [34; 97; 9; 98; 34]%N) 24 4 false; mkTok 40 "," 24 9 false; mkTok 31 """a\\""" 25 0 false; mkTok 13 "]" 25 5 false; mkTok 39 ":" 26 0 false; mkTok 42 "x" 27 0 false; mkTok 40 "," 27 2 false; mkTok 31 """{,}""" 27 4 false; mkTok 39 ":" 28 0 false; mkTok 42 "rootA" 28 2 false; mkTok 40 "," 29 0 false; mkTok 30 "10" 30 0 false; mkTok 39 ":" 31 0 false; mkTok 42 "msg_type" 31 2 false; mkTok 40 "," 32 0 false; mkTok 3 "}" 32 2 false; mkTok 40 "," 32 4 false; mkTok 3 "}" 33 0 false; mkTok 40 "," 34 4 false; mkTok 3 "}" 35 0 false; mkTok 1 "options" 35 2 false; mkTok 2 "{" 35 10 false; mkTok 3 "}" 35 11 false; mkTok 0 "<EOF>" 36 0 false] (mkPacket (mkPtok 1 "options" 1 0 0) (Some (mkPtok 3 "}" 35 11 95)) [(DOption (mkOptionDef (mkSpan (mkPtok 1 "options" 1 0 0) (mkPtok 3 "}" 4 4 6)) (mkPtok 1 "options" 1 0 0) (mkPtok 2 "{" 2 0 1) [(mkOptionDecl (mkSpan (mkPtok 42 "u8x" 2 2 2) (mkPtok 41 ";" 3 4 5)) (mkPtok 42 "u8x" 2 2 2) (mkPtok 4 "=" 2 6 3) (VDigits (mkSpan (mkPtok 30 "0123456789" 2 9 4) (mkPtok 30 "0123456789" 2 9 4)) (mkPtok 30 "0123456789" 2 9 4)) (Some (mkPtok 41 ";" 3 4 5)))] (mkPtok 3 "}" 4 4 6))); (DPacket (mkPacketDef (mkSpan (mkPtok 35 "packet" 4 6 7) (mkPtok 3 "}" 6 5 13)) None (mkPtok 35 "packet" 4 6 7) (mkPtok 42 "rootA" 4 13 8) (mkPtok 2 "{" 4 19 9) [(mkFieldWithAttr (mkSpan (mkPtok 42 "i8i8" 5 4 10) (mkPtok 40 "," 6 4 12)) [] (ObjectField (mkSpan (mkPtok 42 "i8i8" 5 4 10) (mkPtok 40 "," 6 4 12)) None (mkPtok 42 "i8i8" 5 4 10) (Some (mkPtok 42 "repeatCount" 5 9 11)) None (mkPtok 40 "," 6 4 12)))] (mkPtok 3 "}" 6 5 13))); (DPacket (mkPacketDef (mkSpan (mkPtok 34 "root" 9 0 16) (mkPtok 3 "}" 13 7 33)) (Some (mkPtok 34 "root" 9 0 16)) (mkPtok 35 "packet" 9 5 17) (mkPtok 42 "MetaDataX" 9 12 18) (mkPtok 2 "{" 9 22 19) [(mkFieldWithAttr (mkSpan (mkPtok 42 "Logon" 10 0 21) (mkPtok 40 "," 13 6 32)) [] (InerObjectField (mkSpan (mkPtok 42 "Logon" 10 0 21) (mkPtok 40 "," 13 6 32)) None (InerObjectDecl (mkSpan (mkPtok 42 "Logon" 10 0 21) (mkPtok 3 "}" 13 4 31)) (mkPtok 42 "Logon" 10 0 21) (mkPtok 2 "{" 11 0 23) [(LengthField (mkSpan (mkPtok 27 "int64" 11 1 24) (mkPtok 40 "," 11 33 29)) (mkLengthFieldDecl (mkSpan (mkPtok 27 "int64" 11 1 24) (mkPtok 40 "," 11 33 29)) (Some (TyBasic (mkSpan (mkPtok 27 "int64" 11 1 24) (mkPtok 27 "int64" 11 1 24)) (mkBasicType (mkSpan (mkPtok 27 "int64" 11 1 24) (mkPtok 27 "int64" 11 1 24)) (mkPtok 27 "int64" 11 1 24)))) (mkPtok 42 "i8i8" 11 7 25) (mkLengthOf (mkSpan (mkPtok 7 "@lengthOf(" 11 12 26) (mkPtok 6 ")" 11 31 28)) (mkPtok 7 "@lengthOf(" 11 12 26) (mkPtok 42 "Header" 11 24 27) (mkPtok 6 ")" 11 31 28)) None (mkPtok 40 "," 11 33 29)))] (mkPtok 3 "}" 13 4 31)) (mkPtok 40 "," 13 6 32)))] (mkPtok 3 "}" 13 7 33))); (DPacket (mkPacketDef (mkSpan (mkPtok 34 "root" 13 9 34) (mkPtok 3 "}" 35 0 92)) (Some (mkPtok 34 "root" 13 9 34)) (mkPtok 35 "packet" 13 14 35) (mkPtok 42 "Pad" 14 0 37) (mkPtok 2 "{" 14 4 38) [(mkFieldWithAttr (mkSpan (mkPtok 42 "roots" 14 6 39) (mkPtok 40 "," 34 4 91)) [] (InerObjectField (mkSpan (mkPtok 42 "roots" 14 6 39) (mkPtok 40 "," 34 4 91)) None (InerObjectDecl (mkSpan (mkPtok 42 "roots" 14 6 39) (mkPtok 3 "}" 33 0 90)) (mkPtok 42 "roots" 14 6 39) (mkPtok 2 "{" 14 12 40) [(CheckSumField (mkSpan (mkPtok 25 "i16" 14 14 41) (mkPtok 40 "," 15 28 46)) (mkChecksumFieldDecl (mkSpan (mkPtok 25 "i16" 14 14 41) (mkPtok 40 "," 15 28 46)) (Some (TyBasic (mkSpan (mkPtok 25 "i16" 14 14 41) (mkPtok 25 "i16" 14 14 41)) (mkBasicType (mkSpan (mkPtok 25 "i16" 14 14 41) (mkPtok 25 "i16" 14 14 41)) (mkPtok 25 "i16" 14 14 41)))) (mkPtok 42 "Logon" 14 18 42) (mkCalculatedFrom (mkSpan (mkPtok 5 "@calculatedFrom(" 15 4 43) (mkPtok 6 ")" 15 26 45)) (mkPtok 5 "@calculatedFrom(" 15 4 43) (mkPtok 31 (string_of_bytes [34; 195; 169; 116; 195; 169; 34]%N) 15 21 44) (mkPtok 6 ")" 15 26 45)) None (mkPtok 40 "," 15 28 46))); (MatchField (mkSpan (mkPtok 38 "match" 15 30 47) (mkPtok 40 "," 32 4 89)) (mkMatchFieldDecl (mkSpan (mkPtok 38 "match" 15 30 47) (mkPtok 3 "}" 32 2 88)) (mkPtok 38 "match" 15 30 47) (mkPtok 42 "As" 15 36 48) (mkPtok 17 "as" 15 39 49) (mkPtok 42 "float" 15 42 50) (mkPtok 2 "{" 16 0 51) [(mkMatchPair (mkSpan (mkPtok 18 "[" 16 2 52) (mkPtok 40 "," 19 0 60)) (MKList (mkKeyList (mkSpan (mkPtok 18 "[" 16 2 52) (mkPtok 13 "]" 18 4 57)) (mkPtok 18 "[" 16 2 52) (mkPtok 31 """packet""" 16 4 53) [((mkPtok 40 "," 17 0 55), (mkPtok 31 """// no comment""" 17 2 56))] (mkPtok 13 "]" 18 4 57))) (mkPtok 39 ":" 18 6 58) (mkPtok 42 "a1" 18 8 59) (Some (mkPtok 40 "," 19 0 60))); (mkMatchPair (mkSpan (mkPtok 30 "65535" 19 2 61) (mkPtok 40 "," 19 14 64)) (MKDigits (mkPtok 30 "65535" 19 2 61)) (mkPtok 39 ":" 19 8 62) (mkPtok 42 "f32a" 19 10 63) (Some (mkPtok 40 "," 19 14 64))); (mkMatchPair (mkSpan (mkPtok 18 "[" 19 16 65) (mkPtok 40 "," 27 2 79)) (MKList (mkKeyList (mkSpan (mkPtok 18 "[" 19 16 65) (mkPtok 13 "]" 25 5 76)) (mkPtok 18 "[" 19 16 65) (mkPtok 31 """a\""b""" 20 4 66) [((mkPtok 40 "," 21 4 67), (mkPtok 31 """// no comment""" 22 0 68)); ((mkPtok 40 "," 22 16 69), (mkPtok 31 (string_of_bytes [34; 97; 9; 98; 34]%N) 22 18 70)); ((mkPtok 40 "," 22 23 71), (mkPtok 31 (string_of_bytes [34; 97; 9; 98; 34]%N) 24 4 73)); ((mkPtok 40 "," 24 9 74), (mkPtok 31 """a\\""" 25 0 75))] (mkPtok 13 "]" 25 5 76))) (mkPtok 39 ":" 26 0 77) (mkPtok 42 "x" 27 0 78) (Some (mkPtok 40 "," 27 2 79))); (mkMatchPair (mkSpan (mkPtok 31 """{,}""" 27 4 80) (mkPtok 40 "," 29 0 83)) (MKString (mkPtok 31 """{,}""" 27 4 80)) (mkPtok 39 ":" 28 0 81) (mkPtok 42 "rootA" 28 2 82) (Some (mkPtok 40 "," 29 0 83))); (mkMatchPair (mkSpan (mkPtok 30 "10" 30 0 84) (mkPtok 40 "," 32 0 87)) (MKDigits (mkPtok 30 "10" 30 0 84)) (mkPtok 39 ":" 31 0 85) (mkPtok 42 "msg_type" 31 2 86) (Some (mkPtok 40 "," 32 0 87)))] (mkPtok 3 "}" 32 2 88)) (mkPtok 40 "," 32 4 89))] (mkPtok 3 "}" 33 0 90)) (mkPtok 40 "," 34 4 91)))] (mkPtok 3 "}" 35 0 92))); (DOption (mkOptionDef (mkSpan (mkPtok 1 "options" 35 2 93) (mkPtok 3 "}" 35 11 95)) (mkPtok 1 "options" 35 2 93) (mkPtok 2 "{" 35 10 94) [] (mkPtok 3 "}" 35 11 95)))])).
-Eval vm_compute in ("<<<M1039>>>" ++ check (runes_of_ascii "packet
-f32a {int16 x	@calculatedFrom( ""{,}"" ) ,  repeat char[]
-    As	, repeat char[] u128 , stringy @calculatedFrom( ""a	b"") ,
-    } MetaData A
-    { zchar[
-    65535	] //
-body,}")).
-Eval vm_compute in ("<<<M1071>>>" ++ check (runes_of_ascii "packet Logon { repeat
-    u64
-a1
-    //
-    `u8 x,`,uint16 string_ @lengthOf( BodyLength )
-, @tag( 7 ) @tag( 7 )@rightPad
-    (' '
-) metadata ,
-    repeat	char[ 007 ] Foo
-// `tick` ""quote"" 'q'
-// trailing space 
-`u8 x,` , }
-
-")).
-Eval vm_compute in ("<<<M1103>>>" ++ check (runes_of_ascii " // " ++ [27880; 37322]%N)).
-Eval vm_compute in ("<<<M1135>>>" ++ check (runes_of_ascii "options {
-//	t
-// packet A { u8 x, }
-roots // packet A { u8 x, }
-= char[42 ]
-; }")).
-Eval vm_compute in ("<<<M1167>>>" ++ check (runes_of_ascii "packet // packet A { u8 x, }
-rootA
-{
-}")).
-Eval vm_compute in ("<<<M1199>>>" ++ check (runes_of_ascii "
-packet	Packet {
-    @calculatedFrom(
-    ""1""  )
-uint8x, @leftPad	('\x00'
+Eval vm_compute in ("<<<T1231>>>" ++ terms [mkTok 34 "root" 1 0 false; mkTok 35 "packet" 1 5 false; mkTok 42 "pack" 1 12 false; mkTok 2 "{" 2 0 false; mkTok 5 "@calculatedFrom(" 2 2 false; mkTok 31 """CRC32""" 2 19 false; mkTok 44 "// 50% %s" 3 0 true; mkTok 44 "// c" 4 0 true; mkTok 6 ")" 5 0 false; mkTok 42 "msg_type" 5 2 false; mkTok 42 "lengthOf" 5 11 false; mkTok 40 "," 5 19 false; mkTok 15 "string" 5 22 false; mkTok 42 "float" 5 29 false; mkTok 43 "`u8 x,`" 5 35 false; mkTok 40 "," 5 43 false; mkTok 44 "// 50% %s" 6 0 true; mkTok 44 "// packet A { u8 x, }" 7 0 true; mkTok 42 "trueish" 8 0 false; mkTok 5 "@calculatedFrom(" 8 7 false; mkTok 31 """// no comment""" 9 0 false; mkTok 6 ")" 9 16 false; mkTok 40 "," 9 17 false; mkTok 44 "// trailing space " 9 18 true; mkTok 42 "f32a" 10 0 false; mkTok 43 "`doc`" 10 5 false; mkTok 44 "// `tick` ""quote"" 'q'" 10 11 true; mkTok 40 "," 11 0 false; mkTok 27 "i64" 11 2 false; mkTok 42 "Header" 11 6 false; mkTok 5 "@calculatedFrom(" 11 13 false; mkTok 31 """abc""" 12 4 false; mkTok 44 "// c" 13 0 true; mkTok 44 (string_of_bytes [47; 47; 9; 116]%N) 14 0 true; mkTok 6 ")" 15 0 false; mkTok 44 (string_of_bytes [47; 47; 9; 116]%N) 16 0 true; mkTok 44 (string_of_bytes [47; 47; 9; 116]%N) 17 0 true; mkTok 43 (string_of_bytes [96; 108; 105; 110; 101; 49; 10; 108; 105; 110; 101; 50; 96]%N) 18 0 false; mkTok 40 "," 19 7 false; mkTok 3 "}" 20 0 false; mkTok 0 "<EOF>" 21 0 false] (mkPacket (mkPtok 34 "root" 1 0 0) (Some (mkPtok 3 "}" 20 0 39)) [(DPacket (mkPacketDef (mkSpan (mkPtok 34 "root" 1 0 0) (mkPtok 3 "}" 20 0 39)) (Some (mkPtok 34 "root" 1 0 0)) (mkPtok 35 "packet" 1 5 1) (mkPtok 42 "pack" 1 12 2) (mkPtok 2 "{" 2 0 3) [(mkFieldWithAttr (mkSpan (mkPtok 5 "@calculatedFrom(" 2 2 4) (mkPtok 40 "," 5 19 11)) [(FACalculatedFrom (mkSpan (mkPtok 5 "@calculatedFrom(" 2 2 4) (mkPtok 6 ")" 5 0 8)) (mkCalculatedFrom (mkSpan (mkPtok 5 "@calculatedFrom(" 2 2 4) (mkPtok 6 ")" 5 0 8)) (mkPtok 5 "@calculatedFrom(" 2 2 4) (mkPtok 31 """CRC32""" 2 19 5) (mkPtok 6 ")" 5 0 8)))] (ObjectField (mkSpan (mkPtok 42 "msg_type" 5 2 9) (mkPtok 40 "," 5 19 11)) None (mkPtok 42 "msg_type" 5 2 9) (Some (mkPtok 42 "lengthOf" 5 11 10)) None (mkPtok 40 "," 5 19 11))); (mkFieldWithAttr (mkSpan (mkPtok 15 "string" 5 22 12) (mkPtok 40 "," 5 43 15)) [] (MetaField (mkSpan (mkPtok 15 "string" 5 22 12) (mkPtok 40 "," 5 43 15)) None (mkMetaDecl (mkSpan (mkPtok 15 "string" 5 22 12) (mkPtok 40 "," 5 43 15)) (TyDynamic (mkSpan (mkPtok 15 "string" 5 22 12) (mkPtok 15 "string" 5 22 12)) (mkDynamicString (mkSpan (mkPtok 15 "string" 5 22 12) (mkPtok 15 "string" 5 22 12)) (mkPtok 15 "string" 5 22 12))) (mkPtok 42 "float" 5 29 13) (Some (mkPtok 43 "`u8 x,`" 5 35 14)) (mkPtok 40 "," 5 43 15)))); (mkFieldWithAttr (mkSpan (mkPtok 42 "trueish" 8 0 18) (mkPtok 40 "," 9 17 22)) [] (CheckSumField (mkSpan (mkPtok 42 "trueish" 8 0 18) (mkPtok 40 "," 9 17 22)) (mkChecksumFieldDecl (mkSpan (mkPtok 42 "trueish" 8 0 18) (mkPtok 40 "," 9 17 22)) None (mkPtok 42 "trueish" 8 0 18) (mkCalculatedFrom (mkSpan (mkPtok 5 "@calculatedFrom(" 8 7 19) (mkPtok 6 ")" 9 16 21)) (mkPtok 5 "@calculatedFrom(" 8 7 19) (mkPtok 31 """// no comment""" 9 0 20) (mkPtok 6 ")" 9 16 21)) None (mkPtok 40 "," 9 17 22)))); (mkFieldWithAttr (mkSpan (mkPtok 42 "f32a" 10 0 24) (mkPtok 40 "," 11 0 27)) [] (ObjectField (mkSpan (mkPtok 42 "f32a" 10 0 24) (mkPtok 40 "," 11 0 27)) None (mkPtok 42 "f32a" 10 0 24) None (Some (mkPtok 43 "`doc`" 10 5 25)) (mkPtok 40 "," 11 0 27))); (mkFieldWithAttr (mkSpan (mkPtok 27 "i64" 11 2 28) (mkPtok 40 "," 19 7 38)) [] (CheckSumField (mkSpan (mkPtok 27 "i64" 11 2 28) (mkPtok 40 "," 19 7 38)) (mkChecksumFieldDecl (mkSpan (mkPtok 27 "i64" 11 2 28) (mkPtok 40 "," 19 7 38)) (Some (TyBasic (mkSpan (mkPtok 27 "i64" 11 2 28) (mkPtok 27 "i64" 11 2 28)) (mkBasicType (mkSpan (mkPtok 27 "i64" 11 2 28) (mkPtok 27 "i64" 11 2 28)) (mkPtok 27 "i64" 11 2 28)))) (mkPtok 42 "Header" 11 6 29) (mkCalculatedFrom (mkSpan (mkPtok 5 "@calculatedFrom(" 11 13 30) (mkPtok 6 ")" 15 0 34)) (mkPtok 5 "@calculatedFrom(" 11 13 30) (mkPtok 31 """abc""" 12 4 31) (mkPtok 6 ")" 15 0 34)) (Some (mkPtok 43 (string_of_bytes [96; 108; 105; 110; 101; 49; 10; 108; 105; 110; 101; 50; 96]%N) 18 0 37)) (mkPtok 40 "," 19 7 38))))] (mkPtok 3 "}" 20 0 39)))])).
+Eval vm_compute in ("<<<M1263>>>" ++ check (runes_of_ascii "MetaData
+    Z9_ { }")).
+Eval vm_compute in ("<<<M1295>>>" ++ check (runes_of_ascii "
+options{ BodyLength =  true
     /// triple
-    ) char[] f32a @lengthOf( /// triple
-f32a // packet A { u8 x, }
-) `a\` ,  }
-
-")).
-Eval vm_compute in ("<<<M1231>>>" ++ check (runes_of_ascii "
-options  {Foo =
-    true // trailing space 
-;}
-    packet
-u128{ @calculatedFrom( ""x y"")  lengthOf@lengthOf(
-msg_type)	`tab	here` ,
-    asx
-x
-, zchar[ 10
-    // c
-    ] i64_ , repeat body ,
-char[255 // @lengthOf(
-]asx@calculatedFrom( """ ++ [128512]%N ++ runes_of_ascii """
-    )
+    chars
+    =
+    ""it's"" ;float=	'\x00'}")).
+Eval vm_compute in ("<<<M1327>>>" ++ check (runes_of_ascii "root packet int {
+float  A	`// not a comment` , @lengthOf(string_ )zchar[ 0123456789
+]string_  ,
+u32 body`a\`, @lengthOf( zchar )
+@calculatedFrom(// packet A { u8 x, }
+""packet""
+    ) @lengthOf( roots
+)
+matchKey
 `crlf
-line`,u128
-    string_ ,
-int { zchar[ 7
-]_x , }  , }")).
-Eval vm_compute in ("<<<T1231>>>" ++ terms [mkTok 1 "options" 2 0 false; mkTok 2 "{" 2 9 false; mkTok 42 "Foo" 2 10 false; mkTok 4 "=" 2 14 false; mkTok 10 "true" 3 4 false; mkTok 44 "// trailing space " 3 9 true; mkTok 41 ";" 4 0 false; mkTok 3 "}" 4 1 false; mkTok 35 "packet" 5 4 false; mkTok 42 "u128" 6 0 false; mkTok 2 "{" 6 4 false; mkTok 5 "@calculatedFrom(" 6 6 false; mkTok 31 """x y""" 6 23 false; mkTok 6 ")" 6 28 false; mkTok 42 "lengthOf" 6 31 false; mkTok 7 "@lengthOf(" 6 39 false; mkTok 42 "msg_type" 7 0 false; mkTok 6 ")" 7 8 false; mkTok 43 (string_of_bytes [96; 116; 97; 98; 9; 104; 101; 114; 101; 96]%N) 7 10 false; mkTok 40 "," 7 21 false; mkTok 42 "asx" 8 4 false; mkTok 42 "x" 9 0 false; mkTok 40 "," 10 0 false; mkTok 14 "zchar[" 10 2 false; mkTok 30 "10" 10 9 false; mkTok 44 "// c" 11 4 true; mkTok 13 "]" 12 4 false; mkTok 42 "i64_" 12 6 false; mkTok 40 "," 12 11 false; mkTok 36 "repeat" 12 13 false; mkTok 42 "body" 12 20 false; mkTok 40 "," 12 25 false; mkTok 12 "char[" 13 0 false; mkTok 30 "255" 13 5 false; mkTok 44 "// @lengthOf(" 13 9 true; mkTok 13 "]" 14 0 false; mkTok 42 "asx" 14 1 false; mkTok 5 "@calculatedFrom(" 14 4 false; mkTok 31 (string_of_bytes [34; 240; 159; 152; 128; 34]%N) 14 21 false; mkTok 6 ")" 15 4 false; mkTok 43 (string_of_bytes [96; 99; 114; 108; 102; 13; 10; 108; 105; 110; 101; 96]%N) 16 0 false; mkTok 40 "," 17 5 false; mkTok 42 "u128" 17 6 false; mkTok 42 "string_" 18 4 false; mkTok 40 "," 18 12 false; mkTok 42 "int" 19 0 false; mkTok 2 "{" 19 4 false; mkTok 14 "zchar[" 19 6 false; mkTok 30 "7" 19 13 false; mkTok 13 "]" 20 0 false; mkTok 42 "_x" 20 1 false; mkTok 40 "," 20 4 false; mkTok 3 "}" 20 6 false; mkTok 40 "," 20 9 false; mkTok 3 "}" 20 11 false; mkTok 0 "<EOF>" 20 12 false] (mkPacket (mkPtok 1 "options" 2 0 0) (Some (mkPtok 3 "}" 20 11 54)) [(DOption (mkOptionDef (mkSpan (mkPtok 1 "options" 2 0 0) (mkPtok 3 "}" 4 1 7)) (mkPtok 1 "options" 2 0 0) (mkPtok 2 "{" 2 9 1) [(mkOptionDecl (mkSpan (mkPtok 42 "Foo" 2 10 2) (mkPtok 41 ";" 4 0 6)) (mkPtok 42 "Foo" 2 10 2) (mkPtok 4 "=" 2 14 3) (VTrue (mkSpan (mkPtok 10 "true" 3 4 4) (mkPtok 10 "true" 3 4 4)) (mkPtok 10 "true" 3 4 4)) (Some (mkPtok 41 ";" 4 0 6)))] (mkPtok 3 "}" 4 1 7))); (DPacket (mkPacketDef (mkSpan (mkPtok 35 "packet" 5 4 8) (mkPtok 3 "}" 20 11 54)) None (mkPtok 35 "packet" 5 4 8) (mkPtok 42 "u128" 6 0 9) (mkPtok 2 "{" 6 4 10) [(mkFieldWithAttr (mkSpan (mkPtok 5 "@calculatedFrom(" 6 6 11) (mkPtok 40 "," 7 21 19)) [(FACalculatedFrom (mkSpan (mkPtok 5 "@calculatedFrom(" 6 6 11) (mkPtok 6 ")" 6 28 13)) (mkCalculatedFrom (mkSpan (mkPtok 5 "@calculatedFrom(" 6 6 11) (mkPtok 6 ")" 6 28 13)) (mkPtok 5 "@calculatedFrom(" 6 6 11) (mkPtok 31 """x y""" 6 23 12) (mkPtok 6 ")" 6 28 13)))] (LengthField (mkSpan (mkPtok 42 "lengthOf" 6 31 14) (mkPtok 40 "," 7 21 19)) (mkLengthFieldDecl (mkSpan (mkPtok 42 "lengthOf" 6 31 14) (mkPtok 40 "," 7 21 19)) None (mkPtok 42 "lengthOf" 6 31 14) (mkLengthOf (mkSpan (mkPtok 7 "@lengthOf(" 6 39 15) (mkPtok 6 ")" 7 8 17)) (mkPtok 7 "@lengthOf(" 6 39 15) (mkPtok 42 "msg_type" 7 0 16) (mkPtok 6 ")" 7 8 17)) (Some (mkPtok 43 (string_of_bytes [96; 116; 97; 98; 9; 104; 101; 114; 101; 96]%N) 7 10 18)) (mkPtok 40 "," 7 21 19)))); (mkFieldWithAttr (mkSpan (mkPtok 42 "asx" 8 4 20) (mkPtok 40 "," 10 0 22)) [] (ObjectField (mkSpan (mkPtok 42 "asx" 8 4 20) (mkPtok 40 "," 10 0 22)) None (mkPtok 42 "asx" 8 4 20) (Some (mkPtok 42 "x" 9 0 21)) None (mkPtok 40 "," 10 0 22))); (mkFieldWithAttr (mkSpan (mkPtok 14 "zchar[" 10 2 23) (mkPtok 40 "," 12 11 28)) [] (MetaField (mkSpan (mkPtok 14 "zchar[" 10 2 23) (mkPtok 40 "," 12 11 28)) None (mkMetaDecl (mkSpan (mkPtok 14 "zchar[" 10 2 23) (mkPtok 40 "," 12 11 28)) (TyFixed (mkSpan (mkPtok 14 "zchar[" 10 2 23) (mkPtok 13 "]" 12 4 26)) (mkFixedString (mkSpan (mkPtok 14 "zchar[" 10 2 23) (mkPtok 13 "]" 12 4 26)) (mkPtok 14 "zchar[" 10 2 23) (mkPtok 30 "10" 10 9 24) (mkPtok 13 "]" 12 4 26))) (mkPtok 42 "i64_" 12 6 27) None (mkPtok 40 "," 12 11 28)))); (mkFieldWithAttr (mkSpan (mkPtok 36 "repeat" 12 13 29) (mkPtok 40 "," 12 25 31)) [] (ObjectField (mkSpan (mkPtok 36 "repeat" 12 13 29) (mkPtok 40 "," 12 25 31)) (Some (mkPtok 36 "repeat" 12 13 29)) (mkPtok 42 "body" 12 20 30) None None (mkPtok 40 "," 12 25 31))); (mkFieldWithAttr (mkSpan (mkPtok 12 "char[" 13 0 32) (mkPtok 40 "," 17 5 41)) [] (CheckSumField (mkSpan (mkPtok 12 "char[" 13 0 32) (mkPtok 40 "," 17 5 41)) (mkChecksumFieldDecl (mkSpan (mkPtok 12 "char[" 13 0 32) (mkPtok 40 "," 17 5 41)) (Some (TyFixed (mkSpan (mkPtok 12 "char[" 13 0 32) (mkPtok 13 "]" 14 0 35)) (mkFixedString (mkSpan (mkPtok 12 "char[" 13 0 32) (mkPtok 13 "]" 14 0 35)) (mkPtok 12 "char[" 13 0 32) (mkPtok 30 "255" 13 5 33) (mkPtok 13 "]" 14 0 35)))) (mkPtok 42 "asx" 14 1 36) (mkCalculatedFrom (mkSpan (mkPtok 5 "@calculatedFrom(" 14 4 37) (mkPtok 6 ")" 15 4 39)) (mkPtok 5 "@calculatedFrom(" 14 4 37) (mkPtok 31 (string_of_bytes [34; 240; 159; 152; 128; 34]%N) 14 21 38) (mkPtok 6 ")" 15 4 39)) (Some (mkPtok 43 (string_of_bytes [96; 99; 114; 108; 102; 13; 10; 108; 105; 110; 101; 96]%N) 16 0 40)) (mkPtok 40 "," 17 5 41)))); (mkFieldWithAttr (mkSpan (mkPtok 42 "u128" 17 6 42) (mkPtok 40 "," 18 12 44)) [] (ObjectField (mkSpan (mkPtok 42 "u128" 17 6 42) (mkPtok 40 "," 18 12 44)) None (mkPtok 42 "u128" 17 6 42) (Some (mkPtok 42 "string_" 18 4 43)) None (mkPtok 40 "," 18 12 44))); (mkFieldWithAttr (mkSpan (mkPtok 42 "int" 19 0 45) (mkPtok 40 "," 20 9 53)) [] (InerObjectField (mkSpan (mkPtok 42 "int" 19 0 45) (mkPtok 40 "," 20 9 53)) None (InerObjectDecl (mkSpan (mkPtok 42 "int" 19 0 45) (mkPtok 3 "}" 20 6 52)) (mkPtok 42 "int" 19 0 45) (mkPtok 2 "{" 19 4 46) [(MetaField (mkSpan (mkPtok 14 "zchar[" 19 6 47) (mkPtok 40 "," 20 4 51)) None (mkMetaDecl (mkSpan (mkPtok 14 "zchar[" 19 6 47) (mkPtok 40 "," 20 4 51)) (TyFixed (mkSpan (mkPtok 14 "zchar[" 19 6 47) (mkPtok 13 "]" 20 0 49)) (mkFixedString (mkSpan (mkPtok 14 "zchar[" 19 6 47) (mkPtok 13 "]" 20 0 49)) (mkPtok 14 "zchar[" 19 6 47) (mkPtok 30 "7" 19 13 48) (mkPtok 13 "]" 20 0 49))) (mkPtok 42 "_x" 20 1 50) None (mkPtok 40 "," 20 4 51)))] (mkPtok 3 "}" 20 6 52)) (mkPtok 40 "," 20 9 53)))] (mkPtok 3 "}" 20 11 54)))])).
-Eval vm_compute in ("<<<M1263>>>" ++ check (runes_of_ascii "packet i64_ {match
-tag as x
-{ """ ++ [128512]%N ++ runes_of_ascii """ : string_ ,
-    ""a\\"" : rootA ,
-""abc""
-    :
-    pack , },
-@tag( 3 ) // @lengthOf(
-string metadata , string stringy
-`u8 x,`
-// @lengthOf(
-// a // b
-, }
+line` , float32 Header	`// not a comment` , u64 asx
+    @calculatedFrom(""1"" )`tab	here`,@tag( 007 )string asx , int64	_x , } 	 ")).
+Eval vm_compute in ("<<<M1359>>>" ++ check (runes_of_ascii "
 ")).
-Eval vm_compute in ("<<<M1295>>>" ++ check (runes_of_ascii "  packet i64_ { }
-
-")).
-Eval vm_compute in ("<<<M1327>>>" ++ check (runes_of_ascii "// packet A { u8 x, }
-options { matchKey =	true ; } MetaData int {uint16
-    packetx`tab	here` ,	}
-options/// triple
-{ msg_type = """"  ; } // @lengthOf(")).
-Eval vm_compute in ("<<<M1359>>>" ++ check (runes_of_ascii "MetaData MetaDataX { string pack ``  , u32
-    falsey	,
-char[//	t
-65535 ] chars, u64	int ,// c
-}
-options
-{ i8i8= true	;
-float =
-' '
-    ;
-}	packet Foo {// a // b
-@lengthOf( i64_ )
-repeat
-    calculatedFrom{
-    match // a // b
-repeatCount as stringy {
-255 :
-    msg_type  ,65535	: // a // b
-roots ""a\""b""  : repeatCount ,[
-    ""packet"" ,
-""1""]
-:
-    o
-    """ ++ [28040; 24687]%N ++ runes_of_ascii """:zchar ""CRC32"" :A ,}, int64 chars @calculatedFrom( ""a\""b"" )// packet A { u8 x, }
-`say ""hi""`
-, packetx @lengthOf(
-x_y_z ) ,
-    // `tick` ""quote"" 'q'
-    }, stringy @calculatedFrom( """ ++ [28040; 24687]%N ++ runes_of_ascii """) `u8 x,`
-, zchar[	007 ] chars,zchar[ 1
-]f32a `" ++ [28040; 24687; 31867; 22411]%N ++ runes_of_ascii "`
-    , }")).
-Eval vm_compute in ("<<<M1391>>>" ++ check (runes_of_ascii "MetaData  T {
-} root packet MetaDataX {
-// packet A { u8 x, }
-// `tick` ""quote"" 'q'
-@lengthOf( trueish
-)repeat
-//
-//	t
-BodyLength ``  , }MetaData
-    A // `tick` ""quote"" 'q'
-{ float32 trueish , } packet
-o
-    //x
-    {
-    @lengthOf( Foo)  i8i8 stringy
-    ,}MetaData trueish	{
-    string o , }")).
-Eval vm_compute in ("<<<M1423>>>" ++ check (runes_of_ascii "MetaData uint8x {
-    } packet i8i8{ // a // b
-repeat uint64 roots , string
-    falsey
-,// trailing space 
-} options  {
-repeatCount = 007 ; }
-")).
-Eval vm_compute in ("<<<M1455>>>" ++ check (runes_of_ascii "packet	i64_
-    // `tick` ""quote"" 'q'
-    { @lengthOf(  charz )  zchar[
-00  ]charz	`
-`	,@rightPad ( '0')
-@calculatedFrom(  ""`tick`"" ) i16 charz , repeat Pad { uint8x
-MetaDataX , int { repeat // packet A { u8 x, }
-uint64 u8x ,// packet A { u8 x, }
-repeat
-    // `tick` ""quote"" 'q'
-    uint8x
-    { // a // b
-repeat Z9_
-x_y_z ,
-    match
-    x_y_z
-// a // b
-// a // b
-as _x {
-    007 :crc	,
-[ 00 ,  0
-, 1 , 007 ,
-4294967296 ]:
-    u128
-,  }
-, char[
-    42
-//	t
-//
-] float,}, } , char[]x
-    ,repeat
-zchar  {
-match
-Logon  as rootA {	0
-:
-    chars , [ 42
-] :repeatCount
-    // c
-    ,
-""" ++ [233]%N ++ runes_of_ascii "t" ++ [233]%N ++ runes_of_ascii """
-:	BodyLength, ""x y"" : Z9_
-, [4294967296	, 42 ,
-3 , 255 , 00 ,
-    ""x y"" , 10
-    , 42 ]
-    : falsey , }, },
-}  , }// a // b
-packet	options1// " ++ [128512]%N ++ runes_of_ascii " emoji
-{ // c
-len @lengthOf(T
-), }")).
-Eval vm_compute in ("<<<T1455>>>" ++ terms [mkTok 35 "packet" 1 0 false; mkTok 42 "i64_" 1 7 false; mkTok 44 "// `tick` ""quote"" 'q'" 2 4 true; mkTok 2 "{" 3 4 false; mkTok 7 "@lengthOf(" 3 6 false; mkTok 42 "charz" 3 18 false; mkTok 6 ")" 3 24 false; mkTok 14 "zchar[" 3 27 false; mkTok 30 "00" 4 0 false; mkTok 13 "]" 4 4 false; mkTok 42 "charz" 4 5 false; mkTok 43 (string_of_bytes [96; 10; 96]%N) 4 11 false; mkTok 40 "," 5 2 false; mkTok 32 "@rightPad" 5 3 false; mkTok 8 "(" 5 13 false; mkTok 33 "'0'" 5 15 false; mkTok 6 ")" 5 18 false; mkTok 5 "@calculatedFrom(" 6 0 false; mkTok 31 """`tick`""" 6 18 false; mkTok 6 ")" 6 27 false; mkTok 25 "i16" 6 29 false; mkTok 42 "charz" 6 33 false; mkTok 40 "," 6 39 false; mkTok 36 "repeat" 6 41 false; mkTok 42 "Pad" 6 48 false; mkTok 2 "{" 6 52 false; mkTok 42 "uint8x" 6 54 false; mkTok 42 "MetaDataX" 7 0 false; mkTok 40 "," 7 10 false; mkTok 42 "int" 7 12 false; mkTok 2 "{" 7 16 false; mkTok 36 "repeat" 7 18 false; mkTok 44 "// packet A { u8 x, }" 7 25 true; mkTok 23 "uint64" 8 0 false; mkTok 42 "u8x" 8 7 false; mkTok 40 "," 8 11 false; mkTok 44 "// packet A { u8 x, }" 8 12 true; mkTok 36 "repeat" 9 0 false; mkTok 44 "// `tick` ""quote"" 'q'" 10 4 true; mkTok 42 "uint8x" 11 4 false; mkTok 2 "{" 12 4 false; mkTok 44 "// a // b" 12 6 true; mkTok 36 "repeat" 13 0 false; mkTok 42 "Z9_" 13 7 false; mkTok 42 "x_y_z" 14 0 false; mkTok 40 "," 14 6 false; mkTok 38 "match" 15 4 false; mkTok 42 "x_y_z" 16 4 false; mkTok 44 "// a // b" 17 0 true; mkTok 44 "// a // b" 18 0 true; mkTok 17 "as" 19 0 false; mkTok 42 "_x" 19 3 false; mkTok 2 "{" 19 6 false; mkTok 30 "007" 20 4 false; mkTok 39 ":" 20 8 false; mkTok 42 "crc" 20 9 false; mkTok 40 "," 20 13 false; mkTok 18 "[" 21 0 false; mkTok 30 "00" 21 2 false; mkTok 40 "," 21 5 false; mkTok 30 "0" 21 8 false; mkTok 40 "," 22 0 false; mkTok 30 "1" 22 2 false; mkTok 40 "," 22 4 false; mkTok 30 "007" 22 6 false; mkTok 40 "," 22 10 false; mkTok 30 "4294967296" 23 0 false; mkTok 13 "]" 23 11 false; mkTok 39 ":" 23 12 false; mkTok 42 "u128" 24 4 false; mkTok 40 "," 25 0 false; mkTok 3 "}" 25 3 false; mkTok 40 "," 26 0 false; mkTok 12 "char[" 26 2 false; mkTok 30 "42" 27 4 false; mkTok 44 (string_of_bytes [47; 47; 9; 116]%N) 28 0 true; mkTok 44 "//" 29 0 true; mkTok 13 "]" 30 0 false; mkTok 42 "float" 30 2 false; mkTok 40 "," 30 7 false; mkTok 3 "}" 30 8 false; mkTok 40 "," 30 9 false; mkTok 3 "}" 30 11 false; mkTok 40 "," 30 13 false; mkTok 16 "char[]" 30 15 false; mkTok 42 "x" 30 21 false; mkTok 40 "," 31 4 false; mkTok 36 "repeat" 31 5 false; mkTok 42 "zchar" 32 0 false; mkTok 2 "{" 32 7 false; mkTok 38 "match" 33 0 false; mkTok 42 "Logon" 34 0 false; mkTok 17 "as" 34 7 false; mkTok 42 "rootA" 34 10 false; mkTok 2 "{" 34 16 false; mkTok 30 "0" 34 18 false; mkTok 39 ":" 35 0 false; mkTok 42 "chars" 36 4 false; mkTok 40 "," 36 10 false; mkTok 18 "[" 36 12 false; mkTok 30 "42" 36 14 false; mkTok 13 "]" 37 0 false; mkTok 39 ":" 37 2 false; mkTok 42 "repeatCount" 37 3 false; mkTok 44 "// c" 38 4 true; mkTok 40 "," 39 4 false; mkTok 31 (string_of_bytes [34; 195; 169; 116; 195; 169; 34]%N) 40 0 false; mkTok 39 ":" 41 0 false; mkTok 42 "BodyLength" 41 2 false; mkTok 40 "," 41 12 false; mkTok 31 """x y""" 41 14 false; mkTok 39 ":" 41 20 false; mkTok 42 "Z9_" 41 22 false; mkTok 40 "," 42 0 false; mkTok 18 "[" 42 2 false; mkTok 30 "4294967296" 42 3 false; mkTok 40 "," 42 14 false; mkTok 30 "42" 42 16 false; mkTok 40 "," 42 19 false; mkTok 30 "3" 43 0 false; mkTok 40 "," 43 2 false; mkTok 30 "255" 43 4 false; mkTok 40 "," 43 8 false; mkTok 30 "00" 43 10 false; mkTok 40 "," 43 13 false; mkTok 31 """x y""" 44 4 false; mkTok 40 "," 44 10 false; mkTok 30 "10" 44 12 false; mkTok 40 "," 45 4 false; mkTok 30 "42" 45 6 false; mkTok 13 "]" 45 9 false; mkTok 39 ":" 46 4 false; mkTok 42 "falsey" 46 6 false; mkTok 40 "," 46 13 false; mkTok 3 "}" 46 15 false; mkTok 40 "," 46 16 false; mkTok 3 "}" 46 18 false; mkTok 40 "," 46 19 false; mkTok 3 "}" 47 0 false; mkTok 40 "," 47 3 false; mkTok 3 "}" 47 5 false; mkTok 44 "// a // b" 47 6 true; mkTok 35 "packet" 48 0 false; mkTok 42 "options1" 48 7 false; mkTok 44 (string_of_bytes [47; 47; 32; 240; 159; 152; 128; 32; 101; 109; 111; 106; 105]%N) 48 15 true; mkTok 2 "{" 49 0 false; mkTok 44 "// c" 49 2 true; mkTok 42 "len" 50 0 false; mkTok 7 "@lengthOf(" 50 4 false; mkTok 42 "T" 50 14 false; mkTok 6 ")" 51 0 false; mkTok 40 "," 51 1 false; mkTok 3 "}" 51 3 false; mkTok 0 "<EOF>" 51 4 false] (mkPacket (mkPtok 35 "packet" 1 0 0) (Some (mkPtok 3 "}" 51 3 152)) [(DPacket (mkPacketDef (mkSpan (mkPtok 35 "packet" 1 0 0) (mkPtok 3 "}" 47 5 140)) None (mkPtok 35 "packet" 1 0 0) (mkPtok 42 "i64_" 1 7 1) (mkPtok 2 "{" 3 4 3) [(mkFieldWithAttr (mkSpan (mkPtok 7 "@lengthOf(" 3 6 4) (mkPtok 40 "," 5 2 12)) [(FALengthOf (mkSpan (mkPtok 7 "@lengthOf(" 3 6 4) (mkPtok 6 ")" 3 24 6)) (mkLengthOf (mkSpan (mkPtok 7 "@lengthOf(" 3 6 4) (mkPtok 6 ")" 3 24 6)) (mkPtok 7 "@lengthOf(" 3 6 4) (mkPtok 42 "charz" 3 18 5) (mkPtok 6 ")" 3 24 6)))] (MetaField (mkSpan (mkPtok 14 "zchar[" 3 27 7) (mkPtok 40 "," 5 2 12)) None (mkMetaDecl (mkSpan (mkPtok 14 "zchar[" 3 27 7) (mkPtok 40 "," 5 2 12)) (TyFixed (mkSpan (mkPtok 14 "zchar[" 3 27 7) (mkPtok 13 "]" 4 4 9)) (mkFixedString (mkSpan (mkPtok 14 "zchar[" 3 27 7) (mkPtok 13 "]" 4 4 9)) (mkPtok 14 "zchar[" 3 27 7) (mkPtok 30 "00" 4 0 8) (mkPtok 13 "]" 4 4 9))) (mkPtok 42 "charz" 4 5 10) (Some (mkPtok 43 (string_of_bytes [96; 10; 96]%N) 4 11 11)) (mkPtok 40 "," 5 2 12)))); (mkFieldWithAttr (mkSpan (mkPtok 32 "@rightPad" 5 3 13) (mkPtok 40 "," 6 39 22)) [(FAPadding (mkSpan (mkPtok 32 "@rightPad" 5 3 13) (mkPtok 6 ")" 5 18 16)) (mkPaddingAttr (mkSpan (mkPtok 32 "@rightPad" 5 3 13) (mkPtok 6 ")" 5 18 16)) (mkPtok 32 "@rightPad" 5 3 13) (mkPtok 8 "(" 5 13 14) (Some (mkPtok 33 "'0'" 5 15 15)) (mkPtok 6 ")" 5 18 16))); (FACalculatedFrom (mkSpan (mkPtok 5 "@calculatedFrom(" 6 0 17) (mkPtok 6 ")" 6 27 19)) (mkCalculatedFrom (mkSpan (mkPtok 5 "@calculatedFrom(" 6 0 17) (mkPtok 6 ")" 6 27 19)) (mkPtok 5 "@calculatedFrom(" 6 0 17) (mkPtok 31 """`tick`""" 6 18 18) (mkPtok 6 ")" 6 27 19)))] (MetaField (mkSpan (mkPtok 25 "i16" 6 29 20) (mkPtok 40 "," 6 39 22)) None (mkMetaDecl (mkSpan (mkPtok 25 "i16" 6 29 20) (mkPtok 40 "," 6 39 22)) (TyBasic (mkSpan (mkPtok 25 "i16" 6 29 20) (mkPtok 25 "i16" 6 29 20)) (mkBasicType (mkSpan (mkPtok 25 "i16" 6 29 20) (mkPtok 25 "i16" 6 29 20)) (mkPtok 25 "i16" 6 29 20))) (mkPtok 42 "charz" 6 33 21) None (mkPtok 40 "," 6 39 22)))); (mkFieldWithAttr (mkSpan (mkPtok 36 "repeat" 6 41 23) (mkPtok 40 "," 47 3 139)) [] (InerObjectField (mkSpan (mkPtok 36 "repeat" 6 41 23) (mkPtok 40 "," 47 3 139)) (Some (mkPtok 36 "repeat" 6 41 23)) (InerObjectDecl (mkSpan (mkPtok 42 "Pad" 6 48 24) (mkPtok 3 "}" 47 0 138)) (mkPtok 42 "Pad" 6 48 24) (mkPtok 2 "{" 6 52 25) [(ObjectField (mkSpan (mkPtok 42 "uint8x" 6 54 26) (mkPtok 40 "," 7 10 28)) None (mkPtok 42 "uint8x" 6 54 26) (Some (mkPtok 42 "MetaDataX" 7 0 27)) None (mkPtok 40 "," 7 10 28)); (InerObjectField (mkSpan (mkPtok 42 "int" 7 12 29) (mkPtok 40 "," 30 13 83)) None (InerObjectDecl (mkSpan (mkPtok 42 "int" 7 12 29) (mkPtok 3 "}" 30 11 82)) (mkPtok 42 "int" 7 12 29) (mkPtok 2 "{" 7 16 30) [(MetaField (mkSpan (mkPtok 36 "repeat" 7 18 31) (mkPtok 40 "," 8 11 35)) (Some (mkPtok 36 "repeat" 7 18 31)) (mkMetaDecl (mkSpan (mkPtok 23 "uint64" 8 0 33) (mkPtok 40 "," 8 11 35)) (TyBasic (mkSpan (mkPtok 23 "uint64" 8 0 33) (mkPtok 23 "uint64" 8 0 33)) (mkBasicType (mkSpan (mkPtok 23 "uint64" 8 0 33) (mkPtok 23 "uint64" 8 0 33)) (mkPtok 23 "uint64" 8 0 33))) (mkPtok 42 "u8x" 8 7 34) None (mkPtok 40 "," 8 11 35))); (InerObjectField (mkSpan (mkPtok 36 "repeat" 9 0 37) (mkPtok 40 "," 30 9 81)) (Some (mkPtok 36 "repeat" 9 0 37)) (InerObjectDecl (mkSpan (mkPtok 42 "uint8x" 11 4 39) (mkPtok 3 "}" 30 8 80)) (mkPtok 42 "uint8x" 11 4 39) (mkPtok 2 "{" 12 4 40) [(ObjectField (mkSpan (mkPtok 36 "repeat" 13 0 42) (mkPtok 40 "," 14 6 45)) (Some (mkPtok 36 "repeat" 13 0 42)) (mkPtok 42 "Z9_" 13 7 43) (Some (mkPtok 42 "x_y_z" 14 0 44)) None (mkPtok 40 "," 14 6 45)); (MatchField (mkSpan (mkPtok 38 "match" 15 4 46) (mkPtok 40 "," 26 0 72)) (mkMatchFieldDecl (mkSpan (mkPtok 38 "match" 15 4 46) (mkPtok 3 "}" 25 3 71)) (mkPtok 38 "match" 15 4 46) (mkPtok 42 "x_y_z" 16 4 47) (mkPtok 17 "as" 19 0 50) (mkPtok 42 "_x" 19 3 51) (mkPtok 2 "{" 19 6 52) [(mkMatchPair (mkSpan (mkPtok 30 "007" 20 4 53) (mkPtok 40 "," 20 13 56)) (MKDigits (mkPtok 30 "007" 20 4 53)) (mkPtok 39 ":" 20 8 54) (mkPtok 42 "crc" 20 9 55) (Some (mkPtok 40 "," 20 13 56))); (mkMatchPair (mkSpan (mkPtok 18 "[" 21 0 57) (mkPtok 40 "," 25 0 70)) (MKList (mkKeyList (mkSpan (mkPtok 18 "[" 21 0 57) (mkPtok 13 "]" 23 11 67)) (mkPtok 18 "[" 21 0 57) (mkPtok 30 "00" 21 2 58) [((mkPtok 40 "," 21 5 59), (mkPtok 30 "0" 21 8 60)); ((mkPtok 40 "," 22 0 61), (mkPtok 30 "1" 22 2 62)); ((mkPtok 40 "," 22 4 63), (mkPtok 30 "007" 22 6 64)); ((mkPtok 40 "," 22 10 65), (mkPtok 30 "4294967296" 23 0 66))] (mkPtok 13 "]" 23 11 67))) (mkPtok 39 ":" 23 12 68) (mkPtok 42 "u128" 24 4 69) (Some (mkPtok 40 "," 25 0 70)))] (mkPtok 3 "}" 25 3 71)) (mkPtok 40 "," 26 0 72)); (MetaField (mkSpan (mkPtok 12 "char[" 26 2 73) (mkPtok 40 "," 30 7 79)) None (mkMetaDecl (mkSpan (mkPtok 12 "char[" 26 2 73) (mkPtok 40 "," 30 7 79)) (TyFixed (mkSpan (mkPtok 12 "char[" 26 2 73) (mkPtok 13 "]" 30 0 77)) (mkFixedString (mkSpan (mkPtok 12 "char[" 26 2 73) (mkPtok 13 "]" 30 0 77)) (mkPtok 12 "char[" 26 2 73) (mkPtok 30 "42" 27 4 74) (mkPtok 13 "]" 30 0 77))) (mkPtok 42 "float" 30 2 78) None (mkPtok 40 "," 30 7 79)))] (mkPtok 3 "}" 30 8 80)) (mkPtok 40 "," 30 9 81))] (mkPtok 3 "}" 30 11 82)) (mkPtok 40 "," 30 13 83)); (MetaField (mkSpan (mkPtok 16 "char[]" 30 15 84) (mkPtok 40 "," 31 4 86)) None (mkMetaDecl (mkSpan (mkPtok 16 "char[]" 30 15 84) (mkPtok 40 "," 31 4 86)) (TyDynamic (mkSpan (mkPtok 16 "char[]" 30 15 84) (mkPtok 16 "char[]" 30 15 84)) (mkDynamicString (mkSpan (mkPtok 16 "char[]" 30 15 84) (mkPtok 16 "char[]" 30 15 84)) (mkPtok 16 "char[]" 30 15 84))) (mkPtok 42 "x" 30 21 85) None (mkPtok 40 "," 31 4 86))); (InerObjectField (mkSpan (mkPtok 36 "repeat" 31 5 87) (mkPtok 40 "," 46 19 137)) (Some (mkPtok 36 "repeat" 31 5 87)) (InerObjectDecl (mkSpan (mkPtok 42 "zchar" 32 0 88) (mkPtok 3 "}" 46 18 136)) (mkPtok 42 "zchar" 32 0 88) (mkPtok 2 "{" 32 7 89) [(MatchField (mkSpan (mkPtok 38 "match" 33 0 90) (mkPtok 40 "," 46 16 135)) (mkMatchFieldDecl (mkSpan (mkPtok 38 "match" 33 0 90) (mkPtok 3 "}" 46 15 134)) (mkPtok 38 "match" 33 0 90) (mkPtok 42 "Logon" 34 0 91) (mkPtok 17 "as" 34 7 92) (mkPtok 42 "rootA" 34 10 93) (mkPtok 2 "{" 34 16 94) [(mkMatchPair (mkSpan (mkPtok 30 "0" 34 18 95) (mkPtok 40 "," 36 10 98)) (MKDigits (mkPtok 30 "0" 34 18 95)) (mkPtok 39 ":" 35 0 96) (mkPtok 42 "chars" 36 4 97) (Some (mkPtok 40 "," 36 10 98))); (mkMatchPair (mkSpan (mkPtok 18 "[" 36 12 99) (mkPtok 40 "," 39 4 105)) (MKList (mkKeyList (mkSpan (mkPtok 18 "[" 36 12 99) (mkPtok 13 "]" 37 0 101)) (mkPtok 18 "[" 36 12 99) (mkPtok 30 "42" 36 14 100) [] (mkPtok 13 "]" 37 0 101))) (mkPtok 39 ":" 37 2 102) (mkPtok 42 "repeatCount" 37 3 103) (Some (mkPtok 40 "," 39 4 105))); (mkMatchPair (mkSpan (mkPtok 31 (string_of_bytes [34; 195; 169; 116; 195; 169; 34]%N) 40 0 106) (mkPtok 40 "," 41 12 109)) (MKString (mkPtok 31 (string_of_bytes [34; 195; 169; 116; 195; 169; 34]%N) 40 0 106)) (mkPtok 39 ":" 41 0 107) (mkPtok 42 "BodyLength" 41 2 108) (Some (mkPtok 40 "," 41 12 109))); (mkMatchPair (mkSpan (mkPtok 31 """x y""" 41 14 110) (mkPtok 40 "," 42 0 113)) (MKString (mkPtok 31 """x y""" 41 14 110)) (mkPtok 39 ":" 41 20 111) (mkPtok 42 "Z9_" 41 22 112) (Some (mkPtok 40 "," 42 0 113))); (mkMatchPair (mkSpan (mkPtok 18 "[" 42 2 114) (mkPtok 40 "," 46 13 133)) (MKList (mkKeyList (mkSpan (mkPtok 18 "[" 42 2 114) (mkPtok 13 "]" 45 9 130)) (mkPtok 18 "[" 42 2 114) (mkPtok 30 "4294967296" 42 3 115) [((mkPtok 40 "," 42 14 116), (mkPtok 30 "42" 42 16 117)); ((mkPtok 40 "," 42 19 118), (mkPtok 30 "3" 43 0 119)); ((mkPtok 40 "," 43 2 120), (mkPtok 30 "255" 43 4 121)); ((mkPtok 40 "," 43 8 122), (mkPtok 30 "00" 43 10 123)); ((mkPtok 40 "," 43 13 124), (mkPtok 31 """x y""" 44 4 125)); ((mkPtok 40 "," 44 10 126), (mkPtok 30 "10" 44 12 127)); ((mkPtok 40 "," 45 4 128), (mkPtok 30 "42" 45 6 129))] (mkPtok 13 "]" 45 9 130))) (mkPtok 39 ":" 46 4 131) (mkPtok 42 "falsey" 46 6 132) (Some (mkPtok 40 "," 46 13 133)))] (mkPtok 3 "}" 46 15 134)) (mkPtok 40 "," 46 16 135))] (mkPtok 3 "}" 46 18 136)) (mkPtok 40 "," 46 19 137))] (mkPtok 3 "}" 47 0 138)) (mkPtok 40 "," 47 3 139)))] (mkPtok 3 "}" 47 5 140))); (DPacket (mkPacketDef (mkSpan (mkPtok 35 "packet" 48 0 142) (mkPtok 3 "}" 51 3 152)) None (mkPtok 35 "packet" 48 0 142) (mkPtok 42 "options1" 48 7 143) (mkPtok 2 "{" 49 0 145) [(mkFieldWithAttr (mkSpan (mkPtok 42 "len" 50 0 147) (mkPtok 40 "," 51 1 151)) [] (LengthField (mkSpan (mkPtok 42 "len" 50 0 147) (mkPtok 40 "," 51 1 151)) (mkLengthFieldDecl (mkSpan (mkPtok 42 "len" 50 0 147) (mkPtok 40 "," 51 1 151)) None (mkPtok 42 "len" 50 0 147) (mkLengthOf (mkSpan (mkPtok 7 "@lengthOf(" 50 4 148) (mkPtok 6 ")" 51 0 150)) (mkPtok 7 "@lengthOf(" 50 4 148) (mkPtok 42 "T" 50 14 149) (mkPtok 6 ")" 51 0 150)) None (mkPtok 40 "," 51 1 151))))] (mkPtok 3 "}" 51 3 152)))])).
-Eval vm_compute in ("<<<M1487>>>" ++ check (runes_of_ascii "packet i64_{
-char
-i64_ @calculatedFrom(
-""\n"")
-    ,// c
-@tag( 1 )MetaDataX {
-    uint32 options1 @calculatedFrom( ""a	b""),repeat
-    zchar `" ++ [28040; 24687; 31867; 22411]%N ++ runes_of_ascii "` ,
-    body @calculatedFrom(""x y"" )	`doc`	,
-    zchar[ 10
-// a // b
-// trailing space 
-]
-string_ @calculatedFrom( // trailing space 
-""1""
-    ) `doc`,	} , T
-    ,
-    @calculatedFrom( ""CRC32"" ) matchKey {	_x@lengthOf(u8x )`" ++ [28040; 24687; 31867; 22411]%N ++ runes_of_ascii "` , }
-, } options{float
-=
-char[00 ] ;
-    string_ = // @lengthOf(
-i16
-; //x
-} root  packet rootA {  metadata {
-    float32 pack
-    , repeat	i64 string_	, i16 body `u8 x,`, } ,@calculatedFrom(""CRC32""
-) repeat calculatedFrom{ repeat char[ 00  ] MetaDataX , }
-    , @tag(	65535
-)
-match falsey as
-    lengthOf {
-    7 : // c
-leftPad 1	:o
-    ""packet""
-:// " ++ [27880; 37322]%N ++ runes_of_ascii "
-asx ,// packet A { u8 x, }
-0123456789 : pack , [ 0123456789 , ""\n"" , ""abc"" , 00
-,""x y"" // " ++ [128512]%N ++ runes_of_ascii " emoji
-, 10
-]	: f32a , 42 :x ,} ,
-    lengthOf @lengthOf( float  )
-    //
-    ,
-// c
-//
-match _x
-as x  {
-    10 :options1	, ""packet"": chars
-//
-// `tick` ""quote"" 'q'
-, 42 :
-    o ,""1"":
-    // " ++ [128512]%N ++ runes_of_ascii " emoji
-    msg_type
-    [ ""a	b"" , ""\" ++ [233]%N ++ runes_of_ascii """ ,
-255,  ""it's"", 10 ] : // " ++ [27880; 37322]%N ++ runes_of_ascii "
-Pad
-,} , @calculatedFrom( ""\n"" )
-    @leftPad () @lengthOf( x ) zchar[00
-]
-    Header,
-a1
+Eval vm_compute in ("<<<M1391>>>" ++ check (runes_of_ascii "options {Z9_ = 007  ;
+    falsey= """ ++ [128512]%N ++ runes_of_ascii """	; }options {asx
+    = uint16 ; }options
+{ T=  string ;
+lengthOf
+= false ; }")).
+Eval vm_compute in ("<<<M1423>>>" ++ check (runes_of_ascii "packet
     // a // b
-    {repeat f32 chars , float64 Foo ,
-    }, //	t
-}
-//x
+    calculatedFrom
+{ @calculatedFrom(
+    ""1"" )
+repeat options1
+{ crc @lengthOf(	i8i8 ) `it's` , i8 lengthOf
+    `tab	here` ,
+    zchar @lengthOf( pack) , }
+, char[ 42 ] trueish @lengthOf( // " ++ [27880; 37322]%N ++ runes_of_ascii "
+Packet ) ,zchar[10 ] a1  , }MetaData // c
+lengthOf { string float , }
 ")).
-Eval vm_compute in ("<<<M1519>>>" ++ check (runes_of_ascii "root packet // a // b
-repeatCount { u8	matchKey // " ++ [128512]%N ++ runes_of_ascii " emoji
-@lengthOf(
-Pad
-), }")).
-Eval vm_compute in ("<<<M1551>>>" ++ check (runes_of_ascii "packet
-    T
-{// @lengthOf(
-@leftPad ( '\x00') @calculatedFrom( """ ++ [128512]%N ++ runes_of_ascii """ ) char[
-    42 ] Packet
-    `say ""hi""` ,
-// trailing space 
-//
-tag Foo `
-` ,
-}
+Eval vm_compute in ("<<<M1455>>>" ++ check (runes_of_ascii " // packet A { u8 x, }")).
+Eval vm_compute in ("<<<T1455>>>" ++ terms [mkTok 44 "// packet A { u8 x, }" 1 1 true; mkTok 0 "<EOF>" 1 22 false] (mkPacket (mkPtok 0 "<EOF>" 1 22 1) None [])).
+Eval vm_compute in ("<<<M1487>>>" ++ check (runes_of_ascii "
 ")).
-Eval vm_compute in ("<<<M1583>>>" ++ check (runes_of_ascii "packet
-// " ++ [27880; 37322]%N ++ runes_of_ascii "
-//x
-string_
+Eval vm_compute in ("<<<M1519>>>" ++ check (runes_of_ascii "MetaData
 /// triple
-// `tick` ""quote"" 'q'
-{int64 pack
-    // packet A { u8 x, }
-    @calculatedFrom( ""1""),
-    }	root packet
-    //
-    rootA
 // " ++ [27880; 37322]%N ++ runes_of_ascii "
-//x
-{ @lengthOf( rootA
-)@lengthOf( int )float64 roots/// triple
-`
-`
-,  uint16 leftPad @calculatedFrom(""// no comment""
-// a // b
-// `tick` ""quote"" 'q'
-)
-    `" ++ [233]%N ++ runes_of_ascii "` , repeat uint8x {repeat f64 float`two words`
-    , } , @tag(
-4294967296
-) BodyLength pack , }
+A
+    { x_y_z Logon
+,
+    }
+// c
 ")).
-Eval vm_compute in ("<<<M1615>>>" ++ check (runes_of_ascii "packet i64_ {
-@calculatedFrom( ""`tick`"" /// triple
-) match pack as
-i64_ { [ 65535 ]
+Eval vm_compute in ("<<<M1551>>>" ++ check (runes_of_ascii "packet stringy { u8
+u128,
+// 50% %s
+// c
+}root
+    packet	MetaDataX {
+repeat charz
+// " ++ [27880; 37322]%N ++ runes_of_ascii "
+//
+, @leftPad
+//
+// 50% %s
+( )@lengthOf(
+crc
+    ) repeat char[
+10
 //	t
 // " ++ [128512]%N ++ runes_of_ascii " emoji
-:
-    i8i8, [
-""abc"" , 3 , ""CRC32"" , ""abc"" , //x
-0 , 1 ,
-//x
-//x
-10
-] :// " ++ [27880; 37322]%N ++ runes_of_ascii "
-o
-    }
-// packet A { u8 x, }
-//
-, MetaDataX {
-    match body
-as // " ++ [27880; 37322]%N ++ runes_of_ascii "
-Z9_
-{ // `tick` ""quote"" 'q'
-[65535
-]: u128 ,""a\""b"" : T
-,}
-    ,  repeat char[
-    65535 ] //x
-MetaDataX `tab	here`	, asx
-    @lengthOf( x_y_z // packet A { u8 x, }
-) ,	}, @tag( 7 ) falsey @lengthOf(
-    // `tick` ""quote"" 'q'
-    As )
-,
-    zchar[ 10
-    ] repeatCount  @lengthOf(
-stringy) , @calculatedFrom(""" ++ [28040; 24687]%N ++ runes_of_ascii """ ) string tag `a\`
-, @calculatedFrom( ""a	b"" ) match
-T
-    //x
-    as// " ++ [27880; 37322]%N ++ runes_of_ascii "
-body {""1"" : crc,
-//x
-//
-""a\""b"" : charz,	[ ""`tick`"" ]	:
-stringy ,
-[
-    ""a\""b""
-    // @lengthOf(
-    ,""CRC32"" , 0,0  , ""packet"" ,
-    ""\n"" , 7
-,
-// @lengthOf(
-// " ++ [27880; 37322]%N ++ runes_of_ascii "
-42 ]
-    : // packet A { u8 x, }
-repeatCount} ,@tag(
-0 ) string body
-    ,char[] x_y_z
-,
-    tag	`crlf
-line`,
-    @lengthOf( i64_
-    ) match	falsey	as Foo { [
-""1""
-]
-:
-string_ 3 :
-    lengthOf } ,  }
-    // " ++ [27880; 37322]%N ++ runes_of_ascii "
-    MetaData chars {
-string// c
-metadata`
-` ,
-char[] MetaDataX
-    ,
-// c
-//
-string
-    Z9_ `" ++ [233]%N ++ runes_of_ascii "`
-, i32 i8i8
-    //x
-    , }
-root packet	trueish
-{calculatedFrom @lengthOf(i64_// @lengthOf(
-) `" ++ [28040; 24687; 31867; 22411]%N ++ runes_of_ascii "`,	trueish@calculatedFrom(
-""// no comment"" ) , @tag( 00 ) zchar[
-255 ] Packet
-, } // c
-root packet metadata{
-repeat  msg_type packetx
-,	}
+]  T
+, f32	Header @calculatedFrom( ""abc"" ) ,}options{
+int= 1 Z9_ = ' '
+matchKey =""it's"" // " ++ [27880; 37322]%N ++ runes_of_ascii "
+;}
 ")).
-Eval vm_compute in ("<<<M1647>>>" ++ check (runes_of_ascii "options
-    {
-// c
-// a // b
-o
-=
-    ' ' ;// packet A { u8 x, }
-falsey	=1 float
-=
-    """ ++ [233]%N ++ runes_of_ascii "t" ++ [233]%N ++ runes_of_ascii """
-    ; MetaDataX  = char[007 ];
-    // `tick` ""quote"" 'q'
-    }")).
-Eval vm_compute in ("<<<M1679>>>" ++ check (runes_of_ascii "// a // b
-root// trailing space 
-packet pack {@leftPad (
-/// triple
-// `tick` ""quote"" 'q'
+Eval vm_compute in ("<<<M1583>>>" ++ check (runes_of_ascii "
+root packet
+    metadata
+    { @calculatedFrom( ""\" ++ [233]%N ++ runes_of_ascii """ // c
 )
-    char[ 42
-    ]
-Z9_ `say ""hi""`// trailing space 
+    u8 _x , // packet A { u8 x, }
+i8i8 , @lengthOf( metadata
+) match Header as	float
+    // 50% %s
+    {  ""packet"" :
+    pack , } ,zchar[ 7 ]
+u @calculatedFrom(""a	b""
+    // " ++ [128512]%N ++ runes_of_ascii " emoji
+    ) `a\`,  repeat // @lengthOf(
+o
 ,
-// packet A { u8 x, }
 // @lengthOf(
+//	t
+x `100% of %d`
+    ,	@tag(
+// a // b
+// 50% %s
+007)  match Header
+//x
+//	t
+as BodyLength {4294967296 : zchar , ""a	b"" : roots
+, } , a1 ,}
+packet string_ { char[] Header , repeat
+string_ `a\`	, Pad`tab	here`
+    , uint32//	t
+matchKey @calculatedFrom(
+    """" ) `tab	here`, }options
+    {
+    matchKey =float32 ;
+    Z9_
+= true // trailing space 
+; i8i8=
+""" ++ [233]%N ++ runes_of_ascii "t" ++ [233]%N ++ runes_of_ascii """  }packet
+    chars { char[42 ]// @lengthOf(
+trueish
+    @calculatedFrom( """ ++ [233]%N ++ runes_of_ascii "t" ++ [233]%N ++ runes_of_ascii """ )`line1
+line2` ,
+//
+// trailing space 
+@calculatedFrom( ""\" ++ [233]%N ++ runes_of_ascii """ // packet A { u8 x, }
+)	uint16 i64_ `{ , }`
+    ,  Foo @lengthOf( stringy)`crlf
+line`, @leftPad ( '\x00' )	char[3 ] leftPad @calculatedFrom(
+    ""{,}""
+) ,
+@leftPad ( )@rightPad
+( '\x00' )options1  @lengthOf(
+    // `tick` ""quote"" 'q'
+    uint8x )
+, @calculatedFrom( """ ++ [128512]%N ++ runes_of_ascii """
+)f64 i64_ `100% of %d` , char[]
+calculatedFrom@lengthOf(chars ),
+i8 leftPad@lengthOf( _x )  , } root packet chars
+    // " ++ [27880; 37322]%N ++ runes_of_ascii "
+    { @lengthOf( Pad )	matchKey Logon `line1
+line2`
+    , uint16  body @lengthOf(
+BodyLength
+    // packet A { u8 x, }
+    ),
+// packet A { u8 x, }
+// " ++ [128512]%N ++ runes_of_ascii " emoji
+len @lengthOf( options1 )
+    `` , u8x `" ++ [28040; 24687; 31867; 22411]%N ++ runes_of_ascii "`  ,@lengthOf(
+    As ) @tag(
+0
+)	@calculatedFrom( ""`tick`"")x_y_z u `doc` ,  int16 len@lengthOf(chars) , @lengthOf(options1 ) u128
+`a\`
+,//	t
+int8 len@lengthOf(
+    // " ++ [128512]%N ++ runes_of_ascii " emoji
+    float
+) `" ++ [233]%N ++ runes_of_ascii "` ,
+@rightPad (
+//
+/// triple
+) @tag( 007
+    )@lengthOf(f32a ) char[	0123456789 ]	MetaDataX , @leftPad ( '0' ) match roots as
+calculatedFrom//	t
+{ [ 0123456789 // 50% %s
+, """ ++ [128512]%N ++ runes_of_ascii """ ]	:u ,
+    //	t
+    007 :
+_x // trailing space 
+, 007 : // trailing space 
+a1
+,
+00 : options1 // @lengthOf(
+,
+[4294967296 ,""// no comment""
+    , 00
+    , 7,	""// no comment"" ] :i8i8 ,} ,
 }")).
-Eval vm_compute in ("<<<T1679>>>" ++ terms [mkTok 44 "// a // b" 1 0 true; mkTok 34 "root" 2 0 false; mkTok 44 "// trailing space " 2 4 true; mkTok 35 "packet" 3 0 false; mkTok 42 "pack" 3 7 false; mkTok 2 "{" 3 12 false; mkTok 32 "@leftPad" 3 13 false; mkTok 8 "(" 3 22 false; mkTok 44 "/// triple" 4 0 true; mkTok 44 "// `tick` ""quote"" 'q'" 5 0 true; mkTok 6 ")" 6 0 false; mkTok 12 "char[" 7 4 false; mkTok 30 "42" 7 10 false; mkTok 13 "]" 8 4 false; mkTok 42 "Z9_" 9 0 false; mkTok 43 "`say ""hi""`" 9 4 false; mkTok 44 "// trailing space " 9 14 true; mkTok 40 "," 10 0 false; mkTok 44 "// packet A { u8 x, }" 11 0 true; mkTok 44 "// @lengthOf(" 12 0 true; mkTok 3 "}" 13 0 false; mkTok 0 "<EOF>" 13 1 false] (mkPacket (mkPtok 34 "root" 2 0 1) (Some (mkPtok 3 "}" 13 0 20)) [(DPacket (mkPacketDef (mkSpan (mkPtok 34 "root" 2 0 1) (mkPtok 3 "}" 13 0 20)) (Some (mkPtok 34 "root" 2 0 1)) (mkPtok 35 "packet" 3 0 3) (mkPtok 42 "pack" 3 7 4) (mkPtok 2 "{" 3 12 5) [(mkFieldWithAttr (mkSpan (mkPtok 32 "@leftPad" 3 13 6) (mkPtok 40 "," 10 0 17)) [(FAPadding (mkSpan (mkPtok 32 "@leftPad" 3 13 6) (mkPtok 6 ")" 6 0 10)) (mkPaddingAttr (mkSpan (mkPtok 32 "@leftPad" 3 13 6) (mkPtok 6 ")" 6 0 10)) (mkPtok 32 "@leftPad" 3 13 6) (mkPtok 8 "(" 3 22 7) None (mkPtok 6 ")" 6 0 10)))] (MetaField (mkSpan (mkPtok 12 "char[" 7 4 11) (mkPtok 40 "," 10 0 17)) None (mkMetaDecl (mkSpan (mkPtok 12 "char[" 7 4 11) (mkPtok 40 "," 10 0 17)) (TyFixed (mkSpan (mkPtok 12 "char[" 7 4 11) (mkPtok 13 "]" 8 4 13)) (mkFixedString (mkSpan (mkPtok 12 "char[" 7 4 11) (mkPtok 13 "]" 8 4 13)) (mkPtok 12 "char[" 7 4 11) (mkPtok 30 "42" 7 10 12) (mkPtok 13 "]" 8 4 13))) (mkPtok 42 "Z9_" 9 0 14) (Some (mkPtok 43 "`say ""hi""`" 9 4 15)) (mkPtok 40 "," 10 0 17))))] (mkPtok 3 "}" 13 0 20)))])).
-Eval vm_compute in ("<<<M1711>>>" ++ check (runes_of_ascii "
-root packet int {leftPad @calculatedFrom(""x y"" )
-    , }MetaData roots { // a // b
-char[ 007
-] Header `it's` ,int16 Packet //
-`say ""hi""` , u i8i8 , char[ 0 //	t
-] string_`" ++ [233]%N ++ runes_of_ascii "` , char[
-007]
-    float	,
-    i32 u8x , }
-packet
-    u
-    { @lengthOf(A )
-    float64
-msg_type @calculatedFrom(	"""" ) , } options{// " ++ [27880; 37322]%N ++ runes_of_ascii "
-Foo =  '\x00' ;T =""a	b""}
+Eval vm_compute in ("<<<M1615>>>" ++ check (runes_of_ascii "
+// " ++ [27880; 37322]%N ++ runes_of_ascii "
+")).
+Eval vm_compute in ("<<<M1647>>>" ++ check (runes_of_ascii "
+MetaData uint8x
+// " ++ [27880; 37322]%N ++ runes_of_ascii "
+// a // b
+{	Pad As,A asx `" ++ [28040; 24687; 31867; 22411]%N ++ runes_of_ascii "` ,string_ trueish `
+` ,
+repeatCount Packet
+,int8
+stringy
+,
+zchar[
+    1 ]
+x_y_z, }
+    options {// @lengthOf(
+}
+")).
+Eval vm_compute in ("<<<M1679>>>" ++ check (runes_of_ascii "  options// @lengthOf(
+{
+    } MetaData BodyLength{} packet Packet
+    { // @lengthOf(
+@tag(  10 )
+repeat // c
+uint16 charz
+`u8 x,` ,
+// @lengthOf(
+//	t
+string_ ,  As packetx
+    `doc`,
+@leftPad ( '\x00' ) roots u128 ,
+    string
+string_ , pack
+`u8 x,` ,u16 Logon `say ""hi""` ,
+zchar[ 65535 ]leftPad ,@tag(0)
+    chars matchKey , @calculatedFrom(""abc"" ) @tag(	10)	@rightPad	('\x00'
+) u128
+    //x
+    , } packet options1 {
+// `tick` ""quote"" 'q'
+// @lengthOf(
+@calculatedFrom(
+""1"" )	metadata @calculatedFrom(
+    // a // b
+    ""CRC32"" ) `two words` , repeat string matchKey ,body Logon ``
+,
+    @lengthOf( matchKey ) char[] repeatCount``,
+    float32
+/// triple
+//
+i8i8@lengthOf(
+    metadata  ),@tag( 4294967296
+    ) repeat u32
+rootA
+`
+`
+    // " ++ [27880; 37322]%N ++ runes_of_ascii "
+    ,} options
+    { }
+")).
+Eval vm_compute in ("<<<T1679>>>" ++ terms [mkTok 1 "options" 1 2 false; mkTok 44 "// @lengthOf(" 1 9 true; mkTok 2 "{" 2 0 false; mkTok 3 "}" 3 4 false; mkTok 37 "MetaData" 3 6 false; mkTok 42 "BodyLength" 3 15 false; mkTok 2 "{" 3 25 false; mkTok 3 "}" 3 26 false; mkTok 35 "packet" 3 28 false; mkTok 42 "Packet" 3 35 false; mkTok 2 "{" 4 4 false; mkTok 44 "// @lengthOf(" 4 6 true; mkTok 9 "@tag(" 5 0 false; mkTok 30 "10" 5 7 false; mkTok 6 ")" 5 10 false; mkTok 36 "repeat" 6 0 false; mkTok 44 "// c" 6 7 true; mkTok 21 "uint16" 7 0 false; mkTok 42 "charz" 7 7 false; mkTok 43 "`u8 x,`" 8 0 false; mkTok 40 "," 8 8 false; mkTok 44 "// @lengthOf(" 9 0 true; mkTok 44 (string_of_bytes [47; 47; 9; 116]%N) 10 0 true; mkTok 42 "string_" 11 0 false; mkTok 40 "," 11 8 false; mkTok 42 "As" 11 11 false; mkTok 42 "packetx" 11 14 false; mkTok 43 "`doc`" 12 4 false; mkTok 40 "," 12 9 false; mkTok 32 "@leftPad" 13 0 false; mkTok 8 "(" 13 9 false; mkTok 33 "'\x00'" 13 11 false; mkTok 6 ")" 13 18 false; mkTok 42 "roots" 13 20 false; mkTok 42 "u128" 13 26 false; mkTok 40 "," 13 31 false; mkTok 15 "string" 14 4 false; mkTok 42 "string_" 15 0 false; mkTok 40 "," 15 8 false; mkTok 42 "pack" 15 10 false; mkTok 43 "`u8 x,`" 16 0 false; mkTok 40 "," 16 8 false; mkTok 21 "u16" 16 9 false; mkTok 42 "Logon" 16 13 false; mkTok 43 "`say ""hi""`" 16 19 false; mkTok 40 "," 16 30 false; mkTok 14 "zchar[" 17 0 false; mkTok 30 "65535" 17 7 false; mkTok 13 "]" 17 13 false; mkTok 42 "leftPad" 17 14 false; mkTok 40 "," 17 22 false; mkTok 9 "@tag(" 17 23 false; mkTok 30 "0" 17 28 false; mkTok 6 ")" 17 29 false; mkTok 42 "chars" 18 4 false; mkTok 42 "matchKey" 18 10 false; mkTok 40 "," 18 19 false; mkTok 5 "@calculatedFrom(" 18 21 false; mkTok 31 """abc""" 18 37 false; mkTok 6 ")" 18 43 false; mkTok 9 "@tag(" 18 45 false; mkTok 30 "10" 18 51 false; mkTok 6 ")" 18 53 false; mkTok 32 "@rightPad" 18 55 false; mkTok 8 "(" 18 65 false; mkTok 33 "'\x00'" 18 66 false; mkTok 6 ")" 19 0 false; mkTok 42 "u128" 19 2 false; mkTok 44 "//x" 20 4 true; mkTok 40 "," 21 4 false; mkTok 3 "}" 21 6 false; mkTok 35 "packet" 21 8 false; mkTok 42 "options1" 21 15 false; mkTok 2 "{" 21 24 false; mkTok 44 "// `tick` ""quote"" 'q'" 22 0 true; mkTok 44 "// @lengthOf(" 23 0 true; mkTok 5 "@calculatedFrom(" 24 0 false; mkTok 31 """1""" 25 0 false; mkTok 6 ")" 25 4 false; mkTok 42 "metadata" 25 6 false; mkTok 5 "@calculatedFrom(" 25 15 false; mkTok 44 "// a // b" 26 4 true; mkTok 31 """CRC32""" 27 4 false; mkTok 6 ")" 27 12 false; mkTok 43 "`two words`" 27 14 false; mkTok 40 "," 27 26 false; mkTok 36 "repeat" 27 28 false; mkTok 15 "string" 27 35 false; mkTok 42 "matchKey" 27 42 false; mkTok 40 "," 27 51 false; mkTok 42 "body" 27 52 false; mkTok 42 "Logon" 27 57 false; mkTok 43 "``" 27 63 false; mkTok 40 "," 28 0 false; mkTok 7 "@lengthOf(" 29 4 false; mkTok 42 "matchKey" 29 15 false; mkTok 6 ")" 29 24 false; mkTok 16 "char[]" 29 26 false; mkTok 42 "repeatCount" 29 33 false; mkTok 43 "``" 29 44 false; mkTok 40 "," 29 46 false; mkTok 28 "float32" 30 4 false; mkTok 44 "/// triple" 31 0 true; mkTok 44 "//" 32 0 true; mkTok 42 "i8i8" 33 0 false; mkTok 7 "@lengthOf(" 33 4 false; mkTok 42 "metadata" 34 4 false; mkTok 6 ")" 34 14 false; mkTok 40 "," 34 15 false; mkTok 9 "@tag(" 34 16 false; mkTok 30 "4294967296" 34 22 false; mkTok 6 ")" 35 4 false; mkTok 36 "repeat" 35 6 false; mkTok 22 "u32" 35 13 false; mkTok 42 "rootA" 36 0 false; mkTok 43 (string_of_bytes [96; 10; 96]%N) 37 0 false; mkTok 44 (string_of_bytes [47; 47; 32; 230; 179; 168; 233; 135; 138]%N) 39 4 true; mkTok 40 "," 40 4 false; mkTok 3 "}" 40 5 false; mkTok 1 "options" 40 7 false; mkTok 2 "{" 41 4 false; mkTok 3 "}" 41 6 false; mkTok 0 "<EOF>" 42 0 false] (mkPacket (mkPtok 1 "options" 1 2 0) (Some (mkPtok 3 "}" 41 6 121)) [(DOption (mkOptionDef (mkSpan (mkPtok 1 "options" 1 2 0) (mkPtok 3 "}" 3 4 3)) (mkPtok 1 "options" 1 2 0) (mkPtok 2 "{" 2 0 2) [] (mkPtok 3 "}" 3 4 3))); (DMeta (mkMetaDef (mkSpan (mkPtok 37 "MetaData" 3 6 4) (mkPtok 3 "}" 3 26 7)) (mkPtok 37 "MetaData" 3 6 4) (mkPtok 42 "BodyLength" 3 15 5) (mkPtok 2 "{" 3 25 6) [] (mkPtok 3 "}" 3 26 7))); (DPacket (mkPacketDef (mkSpan (mkPtok 35 "packet" 3 28 8) (mkPtok 3 "}" 21 6 70)) None (mkPtok 35 "packet" 3 28 8) (mkPtok 42 "Packet" 3 35 9) (mkPtok 2 "{" 4 4 10) [(mkFieldWithAttr (mkSpan (mkPtok 9 "@tag(" 5 0 12) (mkPtok 40 "," 8 8 20)) [(FATag (mkSpan (mkPtok 9 "@tag(" 5 0 12) (mkPtok 6 ")" 5 10 14)) (mkTagAttr (mkSpan (mkPtok 9 "@tag(" 5 0 12) (mkPtok 6 ")" 5 10 14)) (mkPtok 9 "@tag(" 5 0 12) (mkPtok 30 "10" 5 7 13) (mkPtok 6 ")" 5 10 14)))] (MetaField (mkSpan (mkPtok 36 "repeat" 6 0 15) (mkPtok 40 "," 8 8 20)) (Some (mkPtok 36 "repeat" 6 0 15)) (mkMetaDecl (mkSpan (mkPtok 21 "uint16" 7 0 17) (mkPtok 40 "," 8 8 20)) (TyBasic (mkSpan (mkPtok 21 "uint16" 7 0 17) (mkPtok 21 "uint16" 7 0 17)) (mkBasicType (mkSpan (mkPtok 21 "uint16" 7 0 17) (mkPtok 21 "uint16" 7 0 17)) (mkPtok 21 "uint16" 7 0 17))) (mkPtok 42 "charz" 7 7 18) (Some (mkPtok 43 "`u8 x,`" 8 0 19)) (mkPtok 40 "," 8 8 20)))); (mkFieldWithAttr (mkSpan (mkPtok 42 "string_" 11 0 23) (mkPtok 40 "," 11 8 24)) [] (ObjectField (mkSpan (mkPtok 42 "string_" 11 0 23) (mkPtok 40 "," 11 8 24)) None (mkPtok 42 "string_" 11 0 23) None None (mkPtok 40 "," 11 8 24))); (mkFieldWithAttr (mkSpan (mkPtok 42 "As" 11 11 25) (mkPtok 40 "," 12 9 28)) [] (ObjectField (mkSpan (mkPtok 42 "As" 11 11 25) (mkPtok 40 "," 12 9 28)) None (mkPtok 42 "As" 11 11 25) (Some (mkPtok 42 "packetx" 11 14 26)) (Some (mkPtok 43 "`doc`" 12 4 27)) (mkPtok 40 "," 12 9 28))); (mkFieldWithAttr (mkSpan (mkPtok 32 "@leftPad" 13 0 29) (mkPtok 40 "," 13 31 35)) [(FAPadding (mkSpan (mkPtok 32 "@leftPad" 13 0 29) (mkPtok 6 ")" 13 18 32)) (mkPaddingAttr (mkSpan (mkPtok 32 "@leftPad" 13 0 29) (mkPtok 6 ")" 13 18 32)) (mkPtok 32 "@leftPad" 13 0 29) (mkPtok 8 "(" 13 9 30) (Some (mkPtok 33 "'\x00'" 13 11 31)) (mkPtok 6 ")" 13 18 32)))] (ObjectField (mkSpan (mkPtok 42 "roots" 13 20 33) (mkPtok 40 "," 13 31 35)) None (mkPtok 42 "roots" 13 20 33) (Some (mkPtok 42 "u128" 13 26 34)) None (mkPtok 40 "," 13 31 35))); (mkFieldWithAttr (mkSpan (mkPtok 15 "string" 14 4 36) (mkPtok 40 "," 15 8 38)) [] (MetaField (mkSpan (mkPtok 15 "string" 14 4 36) (mkPtok 40 "," 15 8 38)) None (mkMetaDecl (mkSpan (mkPtok 15 "string" 14 4 36) (mkPtok 40 "," 15 8 38)) (TyDynamic (mkSpan (mkPtok 15 "string" 14 4 36) (mkPtok 15 "string" 14 4 36)) (mkDynamicString (mkSpan (mkPtok 15 "string" 14 4 36) (mkPtok 15 "string" 14 4 36)) (mkPtok 15 "string" 14 4 36))) (mkPtok 42 "string_" 15 0 37) None (mkPtok 40 "," 15 8 38)))); (mkFieldWithAttr (mkSpan (mkPtok 42 "pack" 15 10 39) (mkPtok 40 "," 16 8 41)) [] (ObjectField (mkSpan (mkPtok 42 "pack" 15 10 39) (mkPtok 40 "," 16 8 41)) None (mkPtok 42 "pack" 15 10 39) None (Some (mkPtok 43 "`u8 x,`" 16 0 40)) (mkPtok 40 "," 16 8 41))); (mkFieldWithAttr (mkSpan (mkPtok 21 "u16" 16 9 42) (mkPtok 40 "," 16 30 45)) [] (MetaField (mkSpan (mkPtok 21 "u16" 16 9 42) (mkPtok 40 "," 16 30 45)) None (mkMetaDecl (mkSpan (mkPtok 21 "u16" 16 9 42) (mkPtok 40 "," 16 30 45)) (TyBasic (mkSpan (mkPtok 21 "u16" 16 9 42) (mkPtok 21 "u16" 16 9 42)) (mkBasicType (mkSpan (mkPtok 21 "u16" 16 9 42) (mkPtok 21 "u16" 16 9 42)) (mkPtok 21 "u16" 16 9 42))) (mkPtok 42 "Logon" 16 13 43) (Some (mkPtok 43 "`say ""hi""`" 16 19 44)) (mkPtok 40 "," 16 30 45)))); (mkFieldWithAttr (mkSpan (mkPtok 14 "zchar[" 17 0 46) (mkPtok 40 "," 17 22 50)) [] (MetaField (mkSpan (mkPtok 14 "zchar[" 17 0 46) (mkPtok 40 "," 17 22 50)) None (mkMetaDecl (mkSpan (mkPtok 14 "zchar[" 17 0 46) (mkPtok 40 "," 17 22 50)) (TyFixed (mkSpan (mkPtok 14 "zchar[" 17 0 46) (mkPtok 13 "]" 17 13 48)) (mkFixedString (mkSpan (mkPtok 14 "zchar[" 17 0 46) (mkPtok 13 "]" 17 13 48)) (mkPtok 14 "zchar[" 17 0 46) (mkPtok 30 "65535" 17 7 47) (mkPtok 13 "]" 17 13 48))) (mkPtok 42 "leftPad" 17 14 49) None (mkPtok 40 "," 17 22 50)))); (mkFieldWithAttr (mkSpan (mkPtok 9 "@tag(" 17 23 51) (mkPtok 40 "," 18 19 56)) [(FATag (mkSpan (mkPtok 9 "@tag(" 17 23 51) (mkPtok 6 ")" 17 29 53)) (mkTagAttr (mkSpan (mkPtok 9 "@tag(" 17 23 51) (mkPtok 6 ")" 17 29 53)) (mkPtok 9 "@tag(" 17 23 51) (mkPtok 30 "0" 17 28 52) (mkPtok 6 ")" 17 29 53)))] (ObjectField (mkSpan (mkPtok 42 "chars" 18 4 54) (mkPtok 40 "," 18 19 56)) None (mkPtok 42 "chars" 18 4 54) (Some (mkPtok 42 "matchKey" 18 10 55)) None (mkPtok 40 "," 18 19 56))); (mkFieldWithAttr (mkSpan (mkPtok 5 "@calculatedFrom(" 18 21 57) (mkPtok 40 "," 21 4 69)) [(FACalculatedFrom (mkSpan (mkPtok 5 "@calculatedFrom(" 18 21 57) (mkPtok 6 ")" 18 43 59)) (mkCalculatedFrom (mkSpan (mkPtok 5 "@calculatedFrom(" 18 21 57) (mkPtok 6 ")" 18 43 59)) (mkPtok 5 "@calculatedFrom(" 18 21 57) (mkPtok 31 """abc""" 18 37 58) (mkPtok 6 ")" 18 43 59))); (FATag (mkSpan (mkPtok 9 "@tag(" 18 45 60) (mkPtok 6 ")" 18 53 62)) (mkTagAttr (mkSpan (mkPtok 9 "@tag(" 18 45 60) (mkPtok 6 ")" 18 53 62)) (mkPtok 9 "@tag(" 18 45 60) (mkPtok 30 "10" 18 51 61) (mkPtok 6 ")" 18 53 62))); (FAPadding (mkSpan (mkPtok 32 "@rightPad" 18 55 63) (mkPtok 6 ")" 19 0 66)) (mkPaddingAttr (mkSpan (mkPtok 32 "@rightPad" 18 55 63) (mkPtok 6 ")" 19 0 66)) (mkPtok 32 "@rightPad" 18 55 63) (mkPtok 8 "(" 18 65 64) (Some (mkPtok 33 "'\x00'" 18 66 65)) (mkPtok 6 ")" 19 0 66)))] (ObjectField (mkSpan (mkPtok 42 "u128" 19 2 67) (mkPtok 40 "," 21 4 69)) None (mkPtok 42 "u128" 19 2 67) None None (mkPtok 40 "," 21 4 69)))] (mkPtok 3 "}" 21 6 70))); (DPacket (mkPacketDef (mkSpan (mkPtok 35 "packet" 21 8 71) (mkPtok 3 "}" 40 5 118)) None (mkPtok 35 "packet" 21 8 71) (mkPtok 42 "options1" 21 15 72) (mkPtok 2 "{" 21 24 73) [(mkFieldWithAttr (mkSpan (mkPtok 5 "@calculatedFrom(" 24 0 76) (mkPtok 40 "," 27 26 85)) [(FACalculatedFrom (mkSpan (mkPtok 5 "@calculatedFrom(" 24 0 76) (mkPtok 6 ")" 25 4 78)) (mkCalculatedFrom (mkSpan (mkPtok 5 "@calculatedFrom(" 24 0 76) (mkPtok 6 ")" 25 4 78)) (mkPtok 5 "@calculatedFrom(" 24 0 76) (mkPtok 31 """1""" 25 0 77) (mkPtok 6 ")" 25 4 78)))] (CheckSumField (mkSpan (mkPtok 42 "metadata" 25 6 79) (mkPtok 40 "," 27 26 85)) (mkChecksumFieldDecl (mkSpan (mkPtok 42 "metadata" 25 6 79) (mkPtok 40 "," 27 26 85)) None (mkPtok 42 "metadata" 25 6 79) (mkCalculatedFrom (mkSpan (mkPtok 5 "@calculatedFrom(" 25 15 80) (mkPtok 6 ")" 27 12 83)) (mkPtok 5 "@calculatedFrom(" 25 15 80) (mkPtok 31 """CRC32""" 27 4 82) (mkPtok 6 ")" 27 12 83)) (Some (mkPtok 43 "`two words`" 27 14 84)) (mkPtok 40 "," 27 26 85)))); (mkFieldWithAttr (mkSpan (mkPtok 36 "repeat" 27 28 86) (mkPtok 40 "," 27 51 89)) [] (MetaField (mkSpan (mkPtok 36 "repeat" 27 28 86) (mkPtok 40 "," 27 51 89)) (Some (mkPtok 36 "repeat" 27 28 86)) (mkMetaDecl (mkSpan (mkPtok 15 "string" 27 35 87) (mkPtok 40 "," 27 51 89)) (TyDynamic (mkSpan (mkPtok 15 "string" 27 35 87) (mkPtok 15 "string" 27 35 87)) (mkDynamicString (mkSpan (mkPtok 15 "string" 27 35 87) (mkPtok 15 "string" 27 35 87)) (mkPtok 15 "string" 27 35 87))) (mkPtok 42 "matchKey" 27 42 88) None (mkPtok 40 "," 27 51 89)))); (mkFieldWithAttr (mkSpan (mkPtok 42 "body" 27 52 90) (mkPtok 40 "," 28 0 93)) [] (ObjectField (mkSpan (mkPtok 42 "body" 27 52 90) (mkPtok 40 "," 28 0 93)) None (mkPtok 42 "body" 27 52 90) (Some (mkPtok 42 "Logon" 27 57 91)) (Some (mkPtok 43 "``" 27 63 92)) (mkPtok 40 "," 28 0 93))); (mkFieldWithAttr (mkSpan (mkPtok 7 "@lengthOf(" 29 4 94) (mkPtok 40 "," 29 46 100)) [(FALengthOf (mkSpan (mkPtok 7 "@lengthOf(" 29 4 94) (mkPtok 6 ")" 29 24 96)) (mkLengthOf (mkSpan (mkPtok 7 "@lengthOf(" 29 4 94) (mkPtok 6 ")" 29 24 96)) (mkPtok 7 "@lengthOf(" 29 4 94) (mkPtok 42 "matchKey" 29 15 95) (mkPtok 6 ")" 29 24 96)))] (MetaField (mkSpan (mkPtok 16 "char[]" 29 26 97) (mkPtok 40 "," 29 46 100)) None (mkMetaDecl (mkSpan (mkPtok 16 "char[]" 29 26 97) (mkPtok 40 "," 29 46 100)) (TyDynamic (mkSpan (mkPtok 16 "char[]" 29 26 97) (mkPtok 16 "char[]" 29 26 97)) (mkDynamicString (mkSpan (mkPtok 16 "char[]" 29 26 97) (mkPtok 16 "char[]" 29 26 97)) (mkPtok 16 "char[]" 29 26 97))) (mkPtok 42 "repeatCount" 29 33 98) (Some (mkPtok 43 "``" 29 44 99)) (mkPtok 40 "," 29 46 100)))); (mkFieldWithAttr (mkSpan (mkPtok 28 "float32" 30 4 101) (mkPtok 40 "," 34 15 108)) [] (LengthField (mkSpan (mkPtok 28 "float32" 30 4 101) (mkPtok 40 "," 34 15 108)) (mkLengthFieldDecl (mkSpan (mkPtok 28 "float32" 30 4 101) (mkPtok 40 "," 34 15 108)) (Some (TyBasic (mkSpan (mkPtok 28 "float32" 30 4 101) (mkPtok 28 "float32" 30 4 101)) (mkBasicType (mkSpan (mkPtok 28 "float32" 30 4 101) (mkPtok 28 "float32" 30 4 101)) (mkPtok 28 "float32" 30 4 101)))) (mkPtok 42 "i8i8" 33 0 104) (mkLengthOf (mkSpan (mkPtok 7 "@lengthOf(" 33 4 105) (mkPtok 6 ")" 34 14 107)) (mkPtok 7 "@lengthOf(" 33 4 105) (mkPtok 42 "metadata" 34 4 106) (mkPtok 6 ")" 34 14 107)) None (mkPtok 40 "," 34 15 108)))); (mkFieldWithAttr (mkSpan (mkPtok 9 "@tag(" 34 16 109) (mkPtok 40 "," 40 4 117)) [(FATag (mkSpan (mkPtok 9 "@tag(" 34 16 109) (mkPtok 6 ")" 35 4 111)) (mkTagAttr (mkSpan (mkPtok 9 "@tag(" 34 16 109) (mkPtok 6 ")" 35 4 111)) (mkPtok 9 "@tag(" 34 16 109) (mkPtok 30 "4294967296" 34 22 110) (mkPtok 6 ")" 35 4 111)))] (MetaField (mkSpan (mkPtok 36 "repeat" 35 6 112) (mkPtok 40 "," 40 4 117)) (Some (mkPtok 36 "repeat" 35 6 112)) (mkMetaDecl (mkSpan (mkPtok 22 "u32" 35 13 113) (mkPtok 40 "," 40 4 117)) (TyBasic (mkSpan (mkPtok 22 "u32" 35 13 113) (mkPtok 22 "u32" 35 13 113)) (mkBasicType (mkSpan (mkPtok 22 "u32" 35 13 113) (mkPtok 22 "u32" 35 13 113)) (mkPtok 22 "u32" 35 13 113))) (mkPtok 42 "rootA" 36 0 114) (Some (mkPtok 43 (string_of_bytes [96; 10; 96]%N) 37 0 115)) (mkPtok 40 "," 40 4 117))))] (mkPtok 3 "}" 40 5 118))); (DOption (mkOptionDef (mkSpan (mkPtok 1 "options" 40 7 119) (mkPtok 3 "}" 41 6 121)) (mkPtok 1 "options" 40 7 119) (mkPtok 2 "{" 41 4 120) [] (mkPtok 3 "}" 41 6 121)))])).
+Eval vm_compute in ("<<<M1711>>>" ++ check (runes_of_ascii "options{ // 50% %s
+Foo = 3 x =
+    4294967296
+leftPad  = false ; _x
+    = 0123456789 ; }packet a1
+//	t
+// " ++ [128512]%N ++ runes_of_ascii " emoji
+{ } packet
+u8x
+    { int32 asx @calculatedFrom(
+    ""packet"" ) `it's` , }
 ")).
 Eval vm_compute in ("<<<M1743>>>" ++ check (runes_of_ascii "
-options
-    { repeatCount  =
-""" ++ [128512]%N ++ runes_of_ascii """ ; } 	 ")).
-Eval vm_compute in ("<<<M1775>>>" ++ check (runes_of_ascii "packet float { @leftPad( // " ++ [128512]%N ++ runes_of_ascii " emoji
-'0'
-    // " ++ [128512]%N ++ runes_of_ascii " emoji
-    ) string charz ,
-    match
-// @lengthOf(
+options{ u8x =""abc"" // a // b
+;body= float64 ;
+    Foo=
+    ""a	b"" ;
+    u8x= '\x00' ; // c
+x_y_z = zchar[ 65535 ] }
+")).
+Eval vm_compute in ("<<<M1775>>>" ++ check (runes_of_ascii "root packet trueish
+{match
+u128
+as charz
+{[ 1 // " ++ [128512]%N ++ runes_of_ascii " emoji
+, ""a\\""] : rootA ,
+},	@leftPad
+( '\x00')
+u `{ , }` ,
+} packet stringy
+    { // 50% %s
+}packet i64_
+{ zchar@calculatedFrom(	""" ++ [28040; 24687]%N ++ runes_of_ascii """
 /// triple
-roots as  u128 {[ ""CRC32""
-] : i64_,}  ,repeat
-calculatedFrom Logon`{ , }`, char[ 10
-    ] f32a // trailing space 
-@lengthOf(// " ++ [128512]%N ++ runes_of_ascii " emoji
-i8i8 ) , charz@lengthOf( charz )
-, Foo{uint8 A , //x
-repeat
-a1 { char[ 0123456789 ] calculatedFrom ,
-string
-    stringy @calculatedFrom( ""a	b""
-) , pack ,
-} ,} // `tick` ""quote"" 'q'
-,
-    @lengthOf( T
-    //
-    ) string
-    u8x,}	MetaData lengthOf { u8x x
+// " ++ [27880; 37322]%N ++ runes_of_ascii "
+) `100% of %d` , repeat i64_ metadata , float{ u16 len `" ++ [28040; 24687; 31867; 22411]%N ++ runes_of_ascii "`
+,string // " ++ [128512]%N ++ runes_of_ascii " emoji
+T
+    , repeat zchar[4294967296 ]  calculatedFrom , stringy, } ,  @lengthOf(
+    i64_ ) @rightPad ( )
+    repeat
+zchar[ 65535 ] Packet	`say ""hi""` , i8i8  `100% of %d`
     ,
-//x
-//	t
-uint8 asx,u8	o
-    , repeatCount len ,float32
-pack
-//	t
+    match u128
+as stringy {""a\""b"" : Logon , } // packet A { u8 x, }
+, i64 msg_type	,
+    match matchKey  as T  { 007 :
+    MetaDataX , [	""1""
+//
+// @lengthOf(
+] :uint8x ,
+[
+    // " ++ [128512]%N ++ runes_of_ascii " emoji
+    0
+    ] : As , }
+,	repeat
+matchKey
+{ repeat char[ 4294967296
+]// trailing space 
+o	`tab	here`
 /// triple
-, matchKey matchKey ,} options {}	MetaData leftPad {
-    // `tick` ""quote"" 'q'
-    i64 // trailing space 
-metadata `" ++ [28040; 24687; 31867; 22411]%N ++ runes_of_ascii "` ,
-string  As ``
-, }
+/// triple
+,}, u128 // " ++ [128512]%N ++ runes_of_ascii " emoji
+@calculatedFrom( ""\n""  ) , }
+    packet _x { // 50% %s
+T`" ++ [28040; 24687; 31867; 22411]%N ++ runes_of_ascii "` ,float ,
+@lengthOf( tag )
+// c
+//x
+@lengthOf(Header  )
+@calculatedFrom(
+""" ++ [128512]%N ++ runes_of_ascii """
+) uint16 x_y_z@lengthOf( u128 ),
+/// triple
+// trailing space 
+i8
+    tag ,}
 ")).
 Eval vm_compute in ("<<<M1807>>>" ++ check (runes_of_ascii "
-packet
-    lengthOf
-// " ++ [27880; 37322]%N ++ runes_of_ascii "
-// " ++ [128512]%N ++ runes_of_ascii " emoji
-{	}
-options  {len	= ""`tick`""
-BodyLength
-=
-    0123456789 //	t
-;
-}	packet stringy
-{}")).
-Eval vm_compute in ("<<<M1839>>>" ++ check (@nil rune)).
-Eval vm_compute in ("<<<M1871>>>" ++ check (runes_of_ascii "
-packet options1
-{ @lengthOf( o	)  repeat uint8x,i64
-    Logon// " ++ [27880; 37322]%N ++ runes_of_ascii "
-, repeat
-a1 charz
-, int
-    @calculatedFrom( """ ++ [28040; 24687]%N ++ runes_of_ascii """//
-) , charz{a1 //x
-{ repeat u8
-As , }	, } , @lengthOf( u128 ) zchar[  4294967296 ]	leftPad
-@lengthOf(
-    u
-)	, }
-    packet
-Foo { repeat u128
-    {u `a\` , } , @tag( 0
-) int8 repeatCount
-// a // b
-//
-@lengthOf( // packet A { u8 x, }
-i8i8 ) `line1
-line2`,	@rightPad( '\x00')@tag( 0
-)string rootA `it's`	, match a1 as i64_ {//	t
-007
-    :T }
-,
-    @lengthOf( lengthOf // c
-)
-match rootA
-as  As {[ 7 ,
-    0 // " ++ [27880; 37322]%N ++ runes_of_ascii "
-] : u128 // packet A { u8 x, }
-,
-    255  :
-    lengthOf , } , @tag(
-    0123456789 ) roots{ Z9_@lengthOf(float) , chars { i64 rootA `
-` ,
-match // trailing space 
-roots
-as
-chars
-{42	: Packet ,
-""a\\"" : Z9_  , 1 : Foo ,
-    [ 65535 , """"
-, ""it's""
-,0123456789  , """ ++ [28040; 24687]%N ++ runes_of_ascii """ ] :o
-, ""CRC32""
-: a1 , }, } , repeat // @lengthOf(
-crc o`tab	here`
-,
-} , }
-    packet
-trueish{ repeat char[ 0123456789  ]	metadata, calculatedFrom{
-repeat Z9_, //
-},	} options { } root packet Pad { //x
-@rightPad
-    ( '\x00' ) charz@lengthOf( metadata
-// packet A { u8 x, }
-// trailing space 
-) `line1
-line2` , char[] // packet A { u8 x, }
-u@lengthOf( T )
-    , @tag(
-//	t
-//x
-0123456789 )@leftPad ( ) repeatCount , T @lengthOf(int ) ,
-repeat
-    char[ 00 ] tag
-    `u8 x,`, @rightPad
-    ( '0' ) match u8x // " ++ [128512]%N ++ runes_of_ascii " emoji
-as falsey { [ 42, 0,3 , ""\" ++ [233]%N ++ runes_of_ascii """ // @lengthOf(
-, 007,// a // b
-""" ++ [128512]%N ++ runes_of_ascii """] : Packet , 7:Foo , [0123456789 ,""\" ++ [233]%N ++ runes_of_ascii """ ] : zchar [ 0  ,
-    ""packet""	]
-:roots }
-,
-    /// triple
-    repeat u128{ int32 leftPad
-    @lengthOf(
-    leftPad ) ,crc `a\`,	repeat/// triple
-string metadata, //
-} ,}
-// " ++ [27880; 37322]%N ++ runes_of_ascii "
 ")).
-Eval vm_compute in ("<<<M1903>>>" ++ check (runes_of_ascii "// packet A { u8 x, }
-packet
-packetx  { uint8 x_y_z
-, @rightPad/// triple
-( )
-len { char[]
-roots @lengthOf(options1 ), }
-,
-repeat int , repeat
-u8x Z9_ `say ""hi""`,	@tag( // a // b
-0123456789 ) zchar[ 00 ]
-    //x
-    Pad `say ""hi""`	, falsey crc ,  T , Z9_
-, // " ++ [27880; 37322]%N ++ runes_of_ascii "
-match roots as i8i8 { 10 : asx,[ ""\" ++ [233]%N ++ runes_of_ascii """ , 42 ,
-    """ ++ [233]%N ++ runes_of_ascii "t" ++ [233]%N ++ runes_of_ascii """  , 4294967296 ,
-""" ++ [128512]%N ++ runes_of_ascii """	, // c
-""\n"" , 0123456789
-    ] : _x ""a\\"" :
-    _x, [""a	b"" ] :
-    metadata	, 1
-:  Z9_
-    // `tick` ""quote"" 'q'
-    """ ++ [128512]%N ++ runes_of_ascii """  : repeatCount }
-,} MetaData MetaDataX {
-int16
-    // `tick` ""quote"" 'q'
-    u8x ,
-} packet charz {
-repeat As `" ++ [28040; 24687; 31867; 22411]%N ++ runes_of_ascii "`
-    , } MetaData x_y_z { uint8
-    // " ++ [27880; 37322]%N ++ runes_of_ascii "
-    lengthOf,	}")).
-Eval vm_compute in ("<<<T1903>>>" ++ terms [mkTok 44 "// packet A { u8 x, }" 1 0 true; mkTok 35 "packet" 2 0 false; mkTok 42 "packetx" 3 0 false; mkTok 2 "{" 3 9 false; mkTok 20 "uint8" 3 11 false; mkTok 42 "x_y_z" 3 17 false; mkTok 40 "," 4 0 false; mkTok 32 "@rightPad" 4 2 false; mkTok 44 "/// triple" 4 11 true; mkTok 8 "(" 5 0 false; mkTok 6 ")" 5 2 false; mkTok 42 "len" 6 0 false; mkTok 2 "{" 6 4 false; mkTok 16 "char[]" 6 6 false; mkTok 42 "roots" 7 0 false; mkTok 7 "@lengthOf(" 7 6 false; mkTok 42 "options1" 7 16 false; mkTok 6 ")" 7 25 false; mkTok 40 "," 7 26 false; mkTok 3 "}" 7 28 false; mkTok 40 "," 8 0 false; mkTok 36 "repeat" 9 0 false; mkTok 42 "int" 9 7 false; mkTok 40 "," 9 11 false; mkTok 36 "repeat" 9 13 false; mkTok 42 "u8x" 10 0 false; mkTok 42 "Z9_" 10 4 false; mkTok 43 "`say ""hi""`" 10 8 false; mkTok 40 "," 10 18 false; mkTok 9 "@tag(" 10 20 false; mkTok 44 "// a // b" 10 26 true; mkTok 30 "0123456789" 11 0 false; mkTok 6 ")" 11 11 false; mkTok 14 "zchar[" 11 13 false; mkTok 30 "00" 11 20 false; mkTok 13 "]" 11 23 false; mkTok 44 "//x" 12 4 true; mkTok 42 "Pad" 13 4 false; mkTok 43 "`say ""hi""`" 13 8 false; mkTok 40 "," 13 19 false; mkTok 42 "falsey" 13 21 false; mkTok 42 "crc" 13 28 false; mkTok 40 "," 13 32 false; mkTok 42 "T" 13 35 false; mkTok 40 "," 13 37 false; mkTok 42 "Z9_" 13 39 false; mkTok 40 "," 14 0 false; mkTok 44 (string_of_bytes [47; 47; 32; 230; 179; 168; 233; 135; 138]%N) 14 2 true; mkTok 38 "match" 15 0 false; mkTok 42 "roots" 15 6 false; mkTok 17 "as" 15 12 false; mkTok 42 "i8i8" 15 15 false; mkTok 2 "{" 15 20 false; mkTok 30 "10" 15 22 false; mkTok 39 ":" 15 25 false; mkTok 42 "asx" 15 27 false; mkTok 40 "," 15 30 false; mkTok 18 "[" 15 31 false; mkTok 31 (string_of_bytes [34; 92; 195; 169; 34]%N) 15 33 false; mkTok 40 "," 15 38 false; mkTok 30 "42" 15 40 false; mkTok 40 "," 15 43 false; mkTok 31 (string_of_bytes [34; 195; 169; 116; 195; 169; 34]%N) 16 4 false; mkTok 40 "," 16 11 false; mkTok 30 "4294967296" 16 13 false; mkTok 40 "," 16 24 false; mkTok 31 (string_of_bytes [34; 240; 159; 152; 128; 34]%N) 17 0 false; mkTok 40 "," 17 4 false; mkTok 44 "// c" 17 6 true; mkTok 31 """\n""" 18 0 false; mkTok 40 "," 18 5 false; mkTok 30 "0123456789" 18 7 false; mkTok 13 "]" 19 4 false; mkTok 39 ":" 19 6 false; mkTok 42 "_x" 19 8 false; mkTok 31 """a\\""" 19 11 false; mkTok 39 ":" 19 17 false; mkTok 42 "_x" 20 4 false; mkTok 40 "," 20 6 false; mkTok 18 "[" 20 8 false; mkTok 31 (string_of_bytes [34; 97; 9; 98; 34]%N) 20 9 false; mkTok 13 "]" 20 15 false; mkTok 39 ":" 20 17 false; mkTok 42 "metadata" 21 4 false; mkTok 40 "," 21 13 false; mkTok 30 "1" 21 15 false; mkTok 39 ":" 22 0 false; mkTok 42 "Z9_" 22 3 false; mkTok 44 "// `tick` ""quote"" 'q'" 23 4 true; mkTok 31 (string_of_bytes [34; 240; 159; 152; 128; 34]%N) 24 4 false; mkTok 39 ":" 24 9 false; mkTok 42 "repeatCount" 24 11 false; mkTok 3 "}" 24 23 false; mkTok 40 "," 25 0 false; mkTok 3 "}" 25 1 false; mkTok 37 "MetaData" 25 3 false; mkTok 42 "MetaDataX" 25 12 false; mkTok 2 "{" 25 22 false; mkTok 25 "int16" 26 0 false; mkTok 44 "// `tick` ""quote"" 'q'" 27 4 true; mkTok 42 "u8x" 28 4 false; mkTok 40 "," 28 8 false; mkTok 3 "}" 29 0 false; mkTok 35 "packet" 29 2 false; mkTok 42 "charz" 29 9 false; mkTok 2 "{" 29 15 false; mkTok 36 "repeat" 30 0 false; mkTok 42 "As" 30 7 false; mkTok 43 (string_of_bytes [96; 230; 182; 136; 230; 129; 175; 231; 177; 187; 229; 158; 139; 96]%N) 30 10 false; mkTok 40 "," 31 4 false; mkTok 3 "}" 31 6 false; mkTok 37 "MetaData" 31 8 false; mkTok 42 "x_y_z" 31 17 false; mkTok 2 "{" 31 23 false; mkTok 20 "uint8" 31 25 false; mkTok 44 (string_of_bytes [47; 47; 32; 230; 179; 168; 233; 135; 138]%N) 32 4 true; mkTok 42 "lengthOf" 33 4 false; mkTok 40 "," 33 12 false; mkTok 3 "}" 33 14 false; mkTok 0 "<EOF>" 33 15 false] (mkPacket (mkPtok 35 "packet" 2 0 1) (Some (mkPtok 3 "}" 33 14 118)) [(DPacket (mkPacketDef (mkSpan (mkPtok 35 "packet" 2 0 1) (mkPtok 3 "}" 25 1 94)) None (mkPtok 35 "packet" 2 0 1) (mkPtok 42 "packetx" 3 0 2) (mkPtok 2 "{" 3 9 3) [(mkFieldWithAttr (mkSpan (mkPtok 20 "uint8" 3 11 4) (mkPtok 40 "," 4 0 6)) [] (MetaField (mkSpan (mkPtok 20 "uint8" 3 11 4) (mkPtok 40 "," 4 0 6)) None (mkMetaDecl (mkSpan (mkPtok 20 "uint8" 3 11 4) (mkPtok 40 "," 4 0 6)) (TyBasic (mkSpan (mkPtok 20 "uint8" 3 11 4) (mkPtok 20 "uint8" 3 11 4)) (mkBasicType (mkSpan (mkPtok 20 "uint8" 3 11 4) (mkPtok 20 "uint8" 3 11 4)) (mkPtok 20 "uint8" 3 11 4))) (mkPtok 42 "x_y_z" 3 17 5) None (mkPtok 40 "," 4 0 6)))); (mkFieldWithAttr (mkSpan (mkPtok 32 "@rightPad" 4 2 7) (mkPtok 40 "," 8 0 20)) [(FAPadding (mkSpan (mkPtok 32 "@rightPad" 4 2 7) (mkPtok 6 ")" 5 2 10)) (mkPaddingAttr (mkSpan (mkPtok 32 "@rightPad" 4 2 7) (mkPtok 6 ")" 5 2 10)) (mkPtok 32 "@rightPad" 4 2 7) (mkPtok 8 "(" 5 0 9) None (mkPtok 6 ")" 5 2 10)))] (InerObjectField (mkSpan (mkPtok 42 "len" 6 0 11) (mkPtok 40 "," 8 0 20)) None (InerObjectDecl (mkSpan (mkPtok 42 "len" 6 0 11) (mkPtok 3 "}" 7 28 19)) (mkPtok 42 "len" 6 0 11) (mkPtok 2 "{" 6 4 12) [(LengthField (mkSpan (mkPtok 16 "char[]" 6 6 13) (mkPtok 40 "," 7 26 18)) (mkLengthFieldDecl (mkSpan (mkPtok 16 "char[]" 6 6 13) (mkPtok 40 "," 7 26 18)) (Some (TyDynamic (mkSpan (mkPtok 16 "char[]" 6 6 13) (mkPtok 16 "char[]" 6 6 13)) (mkDynamicString (mkSpan (mkPtok 16 "char[]" 6 6 13) (mkPtok 16 "char[]" 6 6 13)) (mkPtok 16 "char[]" 6 6 13)))) (mkPtok 42 "roots" 7 0 14) (mkLengthOf (mkSpan (mkPtok 7 "@lengthOf(" 7 6 15) (mkPtok 6 ")" 7 25 17)) (mkPtok 7 "@lengthOf(" 7 6 15) (mkPtok 42 "options1" 7 16 16) (mkPtok 6 ")" 7 25 17)) None (mkPtok 40 "," 7 26 18)))] (mkPtok 3 "}" 7 28 19)) (mkPtok 40 "," 8 0 20))); (mkFieldWithAttr (mkSpan (mkPtok 36 "repeat" 9 0 21) (mkPtok 40 "," 9 11 23)) [] (ObjectField (mkSpan (mkPtok 36 "repeat" 9 0 21) (mkPtok 40 "," 9 11 23)) (Some (mkPtok 36 "repeat" 9 0 21)) (mkPtok 42 "int" 9 7 22) None None (mkPtok 40 "," 9 11 23))); (mkFieldWithAttr (mkSpan (mkPtok 36 "repeat" 9 13 24) (mkPtok 40 "," 10 18 28)) [] (ObjectField (mkSpan (mkPtok 36 "repeat" 9 13 24) (mkPtok 40 "," 10 18 28)) (Some (mkPtok 36 "repeat" 9 13 24)) (mkPtok 42 "u8x" 10 0 25) (Some (mkPtok 42 "Z9_" 10 4 26)) (Some (mkPtok 43 "`say ""hi""`" 10 8 27)) (mkPtok 40 "," 10 18 28))); (mkFieldWithAttr (mkSpan (mkPtok 9 "@tag(" 10 20 29) (mkPtok 40 "," 13 19 39)) [(FATag (mkSpan (mkPtok 9 "@tag(" 10 20 29) (mkPtok 6 ")" 11 11 32)) (mkTagAttr (mkSpan (mkPtok 9 "@tag(" 10 20 29) (mkPtok 6 ")" 11 11 32)) (mkPtok 9 "@tag(" 10 20 29) (mkPtok 30 "0123456789" 11 0 31) (mkPtok 6 ")" 11 11 32)))] (MetaField (mkSpan (mkPtok 14 "zchar[" 11 13 33) (mkPtok 40 "," 13 19 39)) None (mkMetaDecl (mkSpan (mkPtok 14 "zchar[" 11 13 33) (mkPtok 40 "," 13 19 39)) (TyFixed (mkSpan (mkPtok 14 "zchar[" 11 13 33) (mkPtok 13 "]" 11 23 35)) (mkFixedString (mkSpan (mkPtok 14 "zchar[" 11 13 33) (mkPtok 13 "]" 11 23 35)) (mkPtok 14 "zchar[" 11 13 33) (mkPtok 30 "00" 11 20 34) (mkPtok 13 "]" 11 23 35))) (mkPtok 42 "Pad" 13 4 37) (Some (mkPtok 43 "`say ""hi""`" 13 8 38)) (mkPtok 40 "," 13 19 39)))); (mkFieldWithAttr (mkSpan (mkPtok 42 "falsey" 13 21 40) (mkPtok 40 "," 13 32 42)) [] (ObjectField (mkSpan (mkPtok 42 "falsey" 13 21 40) (mkPtok 40 "," 13 32 42)) None (mkPtok 42 "falsey" 13 21 40) (Some (mkPtok 42 "crc" 13 28 41)) None (mkPtok 40 "," 13 32 42))); (mkFieldWithAttr (mkSpan (mkPtok 42 "T" 13 35 43) (mkPtok 40 "," 13 37 44)) [] (ObjectField (mkSpan (mkPtok 42 "T" 13 35 43) (mkPtok 40 "," 13 37 44)) None (mkPtok 42 "T" 13 35 43) None None (mkPtok 40 "," 13 37 44))); (mkFieldWithAttr (mkSpan (mkPtok 42 "Z9_" 13 39 45) (mkPtok 40 "," 14 0 46)) [] (ObjectField (mkSpan (mkPtok 42 "Z9_" 13 39 45) (mkPtok 40 "," 14 0 46)) None (mkPtok 42 "Z9_" 13 39 45) None None (mkPtok 40 "," 14 0 46))); (mkFieldWithAttr (mkSpan (mkPtok 38 "match" 15 0 48) (mkPtok 40 "," 25 0 93)) [] (MatchField (mkSpan (mkPtok 38 "match" 15 0 48) (mkPtok 40 "," 25 0 93)) (mkMatchFieldDecl (mkSpan (mkPtok 38 "match" 15 0 48) (mkPtok 3 "}" 24 23 92)) (mkPtok 38 "match" 15 0 48) (mkPtok 42 "roots" 15 6 49) (mkPtok 17 "as" 15 12 50) (mkPtok 42 "i8i8" 15 15 51) (mkPtok 2 "{" 15 20 52) [(mkMatchPair (mkSpan (mkPtok 30 "10" 15 22 53) (mkPtok 40 "," 15 30 56)) (MKDigits (mkPtok 30 "10" 15 22 53)) (mkPtok 39 ":" 15 25 54) (mkPtok 42 "asx" 15 27 55) (Some (mkPtok 40 "," 15 30 56))); (mkMatchPair (mkSpan (mkPtok 18 "[" 15 31 57) (mkPtok 42 "_x" 19 8 74)) (MKList (mkKeyList (mkSpan (mkPtok 18 "[" 15 31 57) (mkPtok 13 "]" 19 4 72)) (mkPtok 18 "[" 15 31 57) (mkPtok 31 (string_of_bytes [34; 92; 195; 169; 34]%N) 15 33 58) [((mkPtok 40 "," 15 38 59), (mkPtok 30 "42" 15 40 60)); ((mkPtok 40 "," 15 43 61), (mkPtok 31 (string_of_bytes [34; 195; 169; 116; 195; 169; 34]%N) 16 4 62)); ((mkPtok 40 "," 16 11 63), (mkPtok 30 "4294967296" 16 13 64)); ((mkPtok 40 "," 16 24 65), (mkPtok 31 (string_of_bytes [34; 240; 159; 152; 128; 34]%N) 17 0 66)); ((mkPtok 40 "," 17 4 67), (mkPtok 31 """\n""" 18 0 69)); ((mkPtok 40 "," 18 5 70), (mkPtok 30 "0123456789" 18 7 71))] (mkPtok 13 "]" 19 4 72))) (mkPtok 39 ":" 19 6 73) (mkPtok 42 "_x" 19 8 74) None); (mkMatchPair (mkSpan (mkPtok 31 """a\\""" 19 11 75) (mkPtok 40 "," 20 6 78)) (MKString (mkPtok 31 """a\\""" 19 11 75)) (mkPtok 39 ":" 19 17 76) (mkPtok 42 "_x" 20 4 77) (Some (mkPtok 40 "," 20 6 78))); (mkMatchPair (mkSpan (mkPtok 18 "[" 20 8 79) (mkPtok 40 "," 21 13 84)) (MKList (mkKeyList (mkSpan (mkPtok 18 "[" 20 8 79) (mkPtok 13 "]" 20 15 81)) (mkPtok 18 "[" 20 8 79) (mkPtok 31 (string_of_bytes [34; 97; 9; 98; 34]%N) 20 9 80) [] (mkPtok 13 "]" 20 15 81))) (mkPtok 39 ":" 20 17 82) (mkPtok 42 "metadata" 21 4 83) (Some (mkPtok 40 "," 21 13 84))); (mkMatchPair (mkSpan (mkPtok 30 "1" 21 15 85) (mkPtok 42 "Z9_" 22 3 87)) (MKDigits (mkPtok 30 "1" 21 15 85)) (mkPtok 39 ":" 22 0 86) (mkPtok 42 "Z9_" 22 3 87) None); (mkMatchPair (mkSpan (mkPtok 31 (string_of_bytes [34; 240; 159; 152; 128; 34]%N) 24 4 89) (mkPtok 42 "repeatCount" 24 11 91)) (MKString (mkPtok 31 (string_of_bytes [34; 240; 159; 152; 128; 34]%N) 24 4 89)) (mkPtok 39 ":" 24 9 90) (mkPtok 42 "repeatCount" 24 11 91) None)] (mkPtok 3 "}" 24 23 92)) (mkPtok 40 "," 25 0 93)))] (mkPtok 3 "}" 25 1 94))); (DMeta (mkMetaDef (mkSpan (mkPtok 37 "MetaData" 25 3 95) (mkPtok 3 "}" 29 0 102)) (mkPtok 37 "MetaData" 25 3 95) (mkPtok 42 "MetaDataX" 25 12 96) (mkPtok 2 "{" 25 22 97) [(MIDecl (mkMetaDecl (mkSpan (mkPtok 25 "int16" 26 0 98) (mkPtok 40 "," 28 8 101)) (TyBasic (mkSpan (mkPtok 25 "int16" 26 0 98) (mkPtok 25 "int16" 26 0 98)) (mkBasicType (mkSpan (mkPtok 25 "int16" 26 0 98) (mkPtok 25 "int16" 26 0 98)) (mkPtok 25 "int16" 26 0 98))) (mkPtok 42 "u8x" 28 4 100) None (mkPtok 40 "," 28 8 101)))] (mkPtok 3 "}" 29 0 102))); (DPacket (mkPacketDef (mkSpan (mkPtok 35 "packet" 29 2 103) (mkPtok 3 "}" 31 6 110)) None (mkPtok 35 "packet" 29 2 103) (mkPtok 42 "charz" 29 9 104) (mkPtok 2 "{" 29 15 105) [(mkFieldWithAttr (mkSpan (mkPtok 36 "repeat" 30 0 106) (mkPtok 40 "," 31 4 109)) [] (ObjectField (mkSpan (mkPtok 36 "repeat" 30 0 106) (mkPtok 40 "," 31 4 109)) (Some (mkPtok 36 "repeat" 30 0 106)) (mkPtok 42 "As" 30 7 107) None (Some (mkPtok 43 (string_of_bytes [96; 230; 182; 136; 230; 129; 175; 231; 177; 187; 229; 158; 139; 96]%N) 30 10 108)) (mkPtok 40 "," 31 4 109)))] (mkPtok 3 "}" 31 6 110))); (DMeta (mkMetaDef (mkSpan (mkPtok 37 "MetaData" 31 8 111) (mkPtok 3 "}" 33 14 118)) (mkPtok 37 "MetaData" 31 8 111) (mkPtok 42 "x_y_z" 31 17 112) (mkPtok 2 "{" 31 23 113) [(MIDecl (mkMetaDecl (mkSpan (mkPtok 20 "uint8" 31 25 114) (mkPtok 40 "," 33 12 117)) (TyBasic (mkSpan (mkPtok 20 "uint8" 31 25 114) (mkPtok 20 "uint8" 31 25 114)) (mkBasicType (mkSpan (mkPtok 20 "uint8" 31 25 114) (mkPtok 20 "uint8" 31 25 114)) (mkPtok 20 "uint8" 31 25 114))) (mkPtok 42 "lengthOf" 33 4 116) None (mkPtok 40 "," 33 12 117)))] (mkPtok 3 "}" 33 14 118)))])).
-Eval vm_compute in ("<<<M1935>>>" ++ check (runes_of_ascii "
-root packet/// triple
-BodyLength {@lengthOf( repeatCount // packet A { u8 x, }
-) @lengthOf( T
-) @tag( 007
-    //	t
-    ) // @lengthOf(
-f32 // @lengthOf(
-o  `{ , }`
-,match//	t
-trueish as	int{ """ ++ [28040; 24687]%N ++ runes_of_ascii """ : len, //	t
-4294967296 : A
-0
-:string_ , 0123456789: Z9_ ,""`tick`"" // packet A { u8 x, }
-: matchKey , } , // packet A { u8 x, }
-float32 // " ++ [128512]%N ++ runes_of_ascii " emoji
-int
-    //
-    @lengthOf( i8i8 )
-    , char _x
-    @lengthOf(	trueish ), }MetaData int
-{ uint16 //x
-MetaDataX
-    ,} packet T	{@calculatedFrom( ""{,}"" ) zchar
-@lengthOf( BodyLength )
-,@calculatedFrom( ""// no comment""
-)@lengthOf( Pad
-) u64
-    Header
-@lengthOf(
-calculatedFrom // packet A { u8 x, }
-) , repeat  Logon tag ,//x
-}
-")).
-Eval vm_compute in ("<<<M1967>>>" ++ check (runes_of_ascii "packet
-options1 {
-u32 lengthOf @lengthOf( metadata ) `" ++ [233]%N ++ runes_of_ascii "` //	t
-, int@calculatedFrom(
-""a\\""
-    //x
-    ), crc /// triple
-{ repeat char[]
-//x
-// " ++ [128512]%N ++ runes_of_ascii " emoji
-u8x , } ,
-@rightPad
-    // " ++ [128512]%N ++ runes_of_ascii " emoji
-    ( // c
-' ')float64 repeatCount `doc`,// trailing space 
-@rightPad ( '\x00') @calculatedFrom(
-    """ ++ [233]%N ++ runes_of_ascii "t" ++ [233]%N ++ runes_of_ascii """ )// packet A { u8 x, }
-@leftPad () lengthOf { match i64_
-as metadata
-    {""{,}""
-    :
-rootA,
-    // c
-    }
-    ,
-Packet @lengthOf( Packet )	, } ,
-@tag(	42 )uint8 repeatCount , }MetaData Foo
-{zchar[
-10
-] stringy, f32a float
-, uint16// a // b
-rootA`tab	here`, } options { roots	= '0'
+Eval vm_compute in ("<<<M1839>>>" ++ check (runes_of_ascii "MetaData	len{ // " ++ [27880; 37322]%N ++ runes_of_ascii "
+} options { len = true // packet A { u8 x, }
 ;
-i64_ = char[]	;stringy // trailing space 
-= char[ 42 ]
-//x
-// @lengthOf(
-i64_=  zchar[	65535] }")).
-Eval vm_compute in ("<<<M1999>>>" ++ check (runes_of_ascii "packet Pad
-    { }
-packet u
-{ @tag(
-00 ) repeatCount chars ,// " ++ [27880; 37322]%N ++ runes_of_ascii "
-@tag( 7	)@tag( 3 )int64
-i8i8  , @calculatedFrom( ""CRC32"" ) // a // b
-@calculatedFrom(
-    ""it's"" ) @lengthOf( stringy
+    Header = int8 ; uint8x
+=f64 ;rootA
+    =""" ++ [233]%N ++ runes_of_ascii "t" ++ [233]%N ++ runes_of_ascii """; }
+    // `tick` ""quote"" 'q'
+    packet u8x {// trailing space 
+@lengthOf(repeatCount)
+    repeat  pack , repeat trueish T , }")).
+Eval vm_compute in ("<<<M1871>>>" ++ check (runes_of_ascii "  packet u128  { }
+")).
+Eval vm_compute in ("<<<M1903>>>" ++ check (runes_of_ascii "packet lengthOf
+{
+@calculatedFrom(""a\\""
     )
-    u`crlf
-line` ,
-    @tag(  007 )
-x_y_z `crlf
-line`	, } options { leftPad =
-zchar[ 10 // `tick` ""quote"" 'q'
-]
-    ;
-stringy
-=' 'float = 7 u =// packet A { u8 x, }
-zchar[10
-    ] ;chars=
-'\x00'
+@calculatedFrom( ""\n""
+//	t
+// @lengthOf(
+)
+    @lengthOf( roots) int32
+    u8x , char[ 0123456789
+]calculatedFrom `it's`	,
+} options { uint8x = """ ++ [128512]%N ++ runes_of_ascii """ ; body//x
+=
+""packet"" ;}options
+{ u
+= 7 T = ""1"" Pad =1}
+    options
+{
+Packet ='\x00' ; calculatedFrom = /// triple
+'0' }")).
+Eval vm_compute in ("<<<T1903>>>" ++ terms [mkTok 35 "packet" 1 0 false; mkTok 42 "lengthOf" 1 7 false; mkTok 2 "{" 2 0 false; mkTok 5 "@calculatedFrom(" 3 0 false; mkTok 31 """a\\""" 3 16 false; mkTok 6 ")" 4 4 false; mkTok 5 "@calculatedFrom(" 5 0 false; mkTok 31 """\n""" 5 17 false; mkTok 44 (string_of_bytes [47; 47; 9; 116]%N) 6 0 true; mkTok 44 "// @lengthOf(" 7 0 true; mkTok 6 ")" 8 0 false; mkTok 7 "@lengthOf(" 9 4 false; mkTok 42 "roots" 9 15 false; mkTok 6 ")" 9 20 false; mkTok 26 "int32" 9 22 false; mkTok 42 "u8x" 10 4 false; mkTok 40 "," 10 8 false; mkTok 12 "char[" 10 10 false; mkTok 30 "0123456789" 10 16 false; mkTok 13 "]" 11 0 false; mkTok 42 "calculatedFrom" 11 1 false; mkTok 43 "`it's`" 11 16 false; mkTok 40 "," 11 23 false; mkTok 3 "}" 12 0 false; mkTok 1 "options" 12 2 false; mkTok 2 "{" 12 10 false; mkTok 42 "uint8x" 12 12 false; mkTok 4 "=" 12 19 false; mkTok 31 (string_of_bytes [34; 240; 159; 152; 128; 34]%N) 12 21 false; mkTok 41 ";" 12 25 false; mkTok 42 "body" 12 27 false; mkTok 44 "//x" 12 31 true; mkTok 4 "=" 13 0 false; mkTok 31 """packet""" 14 0 false; mkTok 41 ";" 14 9 false; mkTok 3 "}" 14 10 false; mkTok 1 "options" 14 11 false; mkTok 2 "{" 15 0 false; mkTok 42 "u" 15 2 false; mkTok 4 "=" 16 0 false; mkTok 30 "7" 16 2 false; mkTok 42 "T" 16 4 false; mkTok 4 "=" 16 6 false; mkTok 31 """1""" 16 8 false; mkTok 42 "Pad" 16 12 false; mkTok 4 "=" 16 16 false; mkTok 30 "1" 16 17 false; mkTok 3 "}" 16 18 false; mkTok 1 "options" 17 4 false; mkTok 2 "{" 18 0 false; mkTok 42 "Packet" 19 0 false; mkTok 4 "=" 19 7 false; mkTok 33 "'\x00'" 19 8 false; mkTok 41 ";" 19 15 false; mkTok 42 "calculatedFrom" 19 17 false; mkTok 4 "=" 19 32 false; mkTok 44 "/// triple" 19 34 true; mkTok 33 "'0'" 20 0 false; mkTok 3 "}" 20 4 false; mkTok 0 "<EOF>" 20 5 false] (mkPacket (mkPtok 35 "packet" 1 0 0) (Some (mkPtok 3 "}" 20 4 58)) [(DPacket (mkPacketDef (mkSpan (mkPtok 35 "packet" 1 0 0) (mkPtok 3 "}" 12 0 23)) None (mkPtok 35 "packet" 1 0 0) (mkPtok 42 "lengthOf" 1 7 1) (mkPtok 2 "{" 2 0 2) [(mkFieldWithAttr (mkSpan (mkPtok 5 "@calculatedFrom(" 3 0 3) (mkPtok 40 "," 10 8 16)) [(FACalculatedFrom (mkSpan (mkPtok 5 "@calculatedFrom(" 3 0 3) (mkPtok 6 ")" 4 4 5)) (mkCalculatedFrom (mkSpan (mkPtok 5 "@calculatedFrom(" 3 0 3) (mkPtok 6 ")" 4 4 5)) (mkPtok 5 "@calculatedFrom(" 3 0 3) (mkPtok 31 """a\\""" 3 16 4) (mkPtok 6 ")" 4 4 5))); (FACalculatedFrom (mkSpan (mkPtok 5 "@calculatedFrom(" 5 0 6) (mkPtok 6 ")" 8 0 10)) (mkCalculatedFrom (mkSpan (mkPtok 5 "@calculatedFrom(" 5 0 6) (mkPtok 6 ")" 8 0 10)) (mkPtok 5 "@calculatedFrom(" 5 0 6) (mkPtok 31 """\n""" 5 17 7) (mkPtok 6 ")" 8 0 10))); (FALengthOf (mkSpan (mkPtok 7 "@lengthOf(" 9 4 11) (mkPtok 6 ")" 9 20 13)) (mkLengthOf (mkSpan (mkPtok 7 "@lengthOf(" 9 4 11) (mkPtok 6 ")" 9 20 13)) (mkPtok 7 "@lengthOf(" 9 4 11) (mkPtok 42 "roots" 9 15 12) (mkPtok 6 ")" 9 20 13)))] (MetaField (mkSpan (mkPtok 26 "int32" 9 22 14) (mkPtok 40 "," 10 8 16)) None (mkMetaDecl (mkSpan (mkPtok 26 "int32" 9 22 14) (mkPtok 40 "," 10 8 16)) (TyBasic (mkSpan (mkPtok 26 "int32" 9 22 14) (mkPtok 26 "int32" 9 22 14)) (mkBasicType (mkSpan (mkPtok 26 "int32" 9 22 14) (mkPtok 26 "int32" 9 22 14)) (mkPtok 26 "int32" 9 22 14))) (mkPtok 42 "u8x" 10 4 15) None (mkPtok 40 "," 10 8 16)))); (mkFieldWithAttr (mkSpan (mkPtok 12 "char[" 10 10 17) (mkPtok 40 "," 11 23 22)) [] (MetaField (mkSpan (mkPtok 12 "char[" 10 10 17) (mkPtok 40 "," 11 23 22)) None (mkMetaDecl (mkSpan (mkPtok 12 "char[" 10 10 17) (mkPtok 40 "," 11 23 22)) (TyFixed (mkSpan (mkPtok 12 "char[" 10 10 17) (mkPtok 13 "]" 11 0 19)) (mkFixedString (mkSpan (mkPtok 12 "char[" 10 10 17) (mkPtok 13 "]" 11 0 19)) (mkPtok 12 "char[" 10 10 17) (mkPtok 30 "0123456789" 10 16 18) (mkPtok 13 "]" 11 0 19))) (mkPtok 42 "calculatedFrom" 11 1 20) (Some (mkPtok 43 "`it's`" 11 16 21)) (mkPtok 40 "," 11 23 22))))] (mkPtok 3 "}" 12 0 23))); (DOption (mkOptionDef (mkSpan (mkPtok 1 "options" 12 2 24) (mkPtok 3 "}" 14 10 35)) (mkPtok 1 "options" 12 2 24) (mkPtok 2 "{" 12 10 25) [(mkOptionDecl (mkSpan (mkPtok 42 "uint8x" 12 12 26) (mkPtok 41 ";" 12 25 29)) (mkPtok 42 "uint8x" 12 12 26) (mkPtok 4 "=" 12 19 27) (VString (mkSpan (mkPtok 31 (string_of_bytes [34; 240; 159; 152; 128; 34]%N) 12 21 28) (mkPtok 31 (string_of_bytes [34; 240; 159; 152; 128; 34]%N) 12 21 28)) (mkPtok 31 (string_of_bytes [34; 240; 159; 152; 128; 34]%N) 12 21 28)) (Some (mkPtok 41 ";" 12 25 29))); (mkOptionDecl (mkSpan (mkPtok 42 "body" 12 27 30) (mkPtok 41 ";" 14 9 34)) (mkPtok 42 "body" 12 27 30) (mkPtok 4 "=" 13 0 32) (VString (mkSpan (mkPtok 31 """packet""" 14 0 33) (mkPtok 31 """packet""" 14 0 33)) (mkPtok 31 """packet""" 14 0 33)) (Some (mkPtok 41 ";" 14 9 34)))] (mkPtok 3 "}" 14 10 35))); (DOption (mkOptionDef (mkSpan (mkPtok 1 "options" 14 11 36) (mkPtok 3 "}" 16 18 47)) (mkPtok 1 "options" 14 11 36) (mkPtok 2 "{" 15 0 37) [(mkOptionDecl (mkSpan (mkPtok 42 "u" 15 2 38) (mkPtok 30 "7" 16 2 40)) (mkPtok 42 "u" 15 2 38) (mkPtok 4 "=" 16 0 39) (VDigits (mkSpan (mkPtok 30 "7" 16 2 40) (mkPtok 30 "7" 16 2 40)) (mkPtok 30 "7" 16 2 40)) None); (mkOptionDecl (mkSpan (mkPtok 42 "T" 16 4 41) (mkPtok 31 """1""" 16 8 43)) (mkPtok 42 "T" 16 4 41) (mkPtok 4 "=" 16 6 42) (VString (mkSpan (mkPtok 31 """1""" 16 8 43) (mkPtok 31 """1""" 16 8 43)) (mkPtok 31 """1""" 16 8 43)) None); (mkOptionDecl (mkSpan (mkPtok 42 "Pad" 16 12 44) (mkPtok 30 "1" 16 17 46)) (mkPtok 42 "Pad" 16 12 44) (mkPtok 4 "=" 16 16 45) (VDigits (mkSpan (mkPtok 30 "1" 16 17 46) (mkPtok 30 "1" 16 17 46)) (mkPtok 30 "1" 16 17 46)) None)] (mkPtok 3 "}" 16 18 47))); (DOption (mkOptionDef (mkSpan (mkPtok 1 "options" 17 4 48) (mkPtok 3 "}" 20 4 58)) (mkPtok 1 "options" 17 4 48) (mkPtok 2 "{" 18 0 49) [(mkOptionDecl (mkSpan (mkPtok 42 "Packet" 19 0 50) (mkPtok 41 ";" 19 15 53)) (mkPtok 42 "Packet" 19 0 50) (mkPtok 4 "=" 19 7 51) (VPaddingChar (mkSpan (mkPtok 33 "'\x00'" 19 8 52) (mkPtok 33 "'\x00'" 19 8 52)) (mkPtok 33 "'\x00'" 19 8 52)) (Some (mkPtok 41 ";" 19 15 53))); (mkOptionDecl (mkSpan (mkPtok 42 "calculatedFrom" 19 17 54) (mkPtok 33 "'0'" 20 0 57)) (mkPtok 42 "calculatedFrom" 19 17 54) (mkPtok 4 "=" 19 32 55) (VPaddingChar (mkSpan (mkPtok 33 "'0'" 20 0 57) (mkPtok 33 "'0'" 20 0 57)) (mkPtok 33 "'0'" 20 0 57)) None)] (mkPtok 3 "}" 20 4 58)))])).
+Eval vm_compute in ("<<<M1935>>>" ++ check (runes_of_ascii "packet  asx {string
+pack
+,  @calculatedFrom(
+    ""1"" ) repeat string  falsey
+`// not a comment`
+, @tag( 42)char[ 255 ] body, }
+    // 50% %s
+    MetaData crc
+{
+i32 // trailing space 
+roots , char[255
+]  x
+, i64_
+    // trailing space 
+    crc	`line1
+line2`, char[] float,
+f64 i8i8	,}
+//	t
+")).
+Eval vm_compute in ("<<<M1967>>>" ++ check (runes_of_ascii "packet Foo{ @rightPad ( '0' ) crc
+    `crlf
+line`
+    ,
+repeat string matchKey `u8 x,`  , stringy
+    @lengthOf( MetaDataX ) /// triple
+`{ , }`// trailing space 
+, int32 // packet A { u8 x, }
+_x @lengthOf(	int
+    ) , } MetaData roots{pack len
+    // " ++ [128512]%N ++ runes_of_ascii " emoji
+    , int
+    BodyLength	`{ , }`
+, rootA// c
+trueish , lengthOf
+uint8x ,
+    u8 trueish`u8 x,` , string
+    falsey
+`100% of %d`,} packet string_ { @lengthOf( pack ) int options1 `" ++ [28040; 24687; 31867; 22411]%N ++ runes_of_ascii "`
+, zchar[ 10] // @lengthOf(
+charz `crlf
+line`,
+    }
+options { Pad=
+    7 }")).
+Eval vm_compute in ("<<<M1999>>>" ++ check (runes_of_ascii "
+root packet packetx
+{
+    match int as
+    T{ [42 ]
+: tag/// triple
+, //x
+""`tick`"" : BodyLength, [
+    // `tick` ""quote"" 'q'
+    ""x y"", 00]: // trailing space 
+zchar ""CRC32""
+: len ,""" ++ [128512]%N ++ runes_of_ascii """	:
+    lengthOf , }	, stringy
+@calculatedFrom( ""a\\""
+) `crlf
+line`
+    ,
+@tag(
+// trailing space 
+//
+007 ) u32 u8x @calculatedFrom( ""it's"" // c
+)`tab	here` , @rightPad ( ' ' )  zchar[ 10 ] zchar @lengthOf( string_ ) //x
+`it's` //
+,
+@lengthOf(
+_x)
+leftPad, Pad
+o
+,f32a{ repeat int {u64 BodyLength // " ++ [27880; 37322]%N ++ runes_of_ascii "
+`100% of %d`
+,char[ 10]stringy, f64 matchKey ,	} // c
+, }, repeat zchar[ 10 ]
+    u128
+`tab	here`
+, @rightPad (	'\x00') Z9_, @lengthOf(o)	Z9_
+`100% of %d` /// triple
+, }
+MetaData BodyLength {u128
+rootA	,
+} 	 ")).
+Eval vm_compute in ("<<<M2031>>>" ++ check (runes_of_ascii "MetaData repeatCount { float64 ,packetx
+} root packet  metadata {
+char _x @lengthOf( trueish ), @leftPad
+( ' '// " ++ [27880; 37322]%N ++ runes_of_ascii "
+)/// triple
+char[] len`doc` , // packet A { u8 x, }
+repeatCount , }
+")).
+Eval vm_compute in ("<<<M2063>>>" ++ check (runes_of_ascii "MetaData repeatCount { float64 packetx,
+} root packet  metadata")).
+Eval vm_compute in ("<<<M2095>>>" ++ check (runes_of_ascii "MetaData repeatCount { float64 packetx,
+} root packet  metadata {
+char _x @lengthOf( trueish ), @leftPad @leftPad
+( ' '// " ++ [27880; 37322]%N ++ runes_of_ascii "
+)/// triple
+char[] len`doc` , // packet A { u8 x, }
+repeatCount , }
+")).
+Eval vm_compute in ("<<<M2127>>>" ++ check (runes_of_ascii "MetaData repeatCount { float64 packetx,
+} root packet  metadata {
+char _x @lengthOf( trueish ), @leftPad
+( ' '// " ++ [27880; 37322]%N ++ runes_of_ascii "
+)/// triple
+char[] len@leftPad , // packet A { u8 x, }
+repeatCount , }
+")).
+Eval vm_compute in ("<<<M2159>>>" ++ check (runes_of_ascii "MetaData repeatCount " ++ [65279]%N ++ runes_of_ascii " { float64 packetx,
+} root packet  metadata {
+char _x @lengthOf( trueish ), @leftPad
+( ' '// " ++ [27880; 37322]%N ++ runes_of_ascii "
+)/// triple
+char[] len`doc` , // packet A { u8 x, }
+repeatCount , }
+")).
+Eval vm_compute in ("<<<M2191>>>" ++ check (runes_of_ascii "options{
+leftPad
+    =65535 65535
+;
+a1 = true ; packetx=  '\x00' ; packetx
+=  """ ++ [28040; 24687]%N ++ runes_of_ascii """MetaDataX= // " ++ [27880; 37322]%N ++ runes_of_ascii "
+false }root // c
+packet // packet A { u8 x, }
+Pad { repeat
+u8 Header
+// packet A { u8 x, }
+//	t
+`{ , }`
+// a // b
+//x
+, }
+")).
+Eval vm_compute in ("<<<M2223>>>" ++ check (runes_of_ascii "options{
+leftPad
+    =65535
+;
+a1 = true ; options=  '\x00' ; packetx
+=  """ ++ [28040; 24687]%N ++ runes_of_ascii """MetaDataX= // " ++ [27880; 37322]%N ++ runes_of_ascii "
+false }root // c
+packet // packet A { u8 x, }
+Pad { repeat
+u8 Header
+// packet A { u8 x, }
+//	t
+`{ , }`
+// a // b
+//x
+, }
+")).
+Eval vm_compute in ("<<<M2255>>>" ++ check (runes_of_ascii "options{
+leftPad
+    =65535
+;
+a1 = true ; packetx=  '\x00' ; packetx
+=  """ ++ [28040; 24687]%N ++ runes_of_ascii """= // " ++ [27880; 37322]%N ++ runes_of_ascii "
+false }root // c
+packet // packet A { u8 x, }
+Pad { repeat
+u8 Header
+// packet A { u8 x, }
+//	t
+`{ , }`
+// a // b
+//x
+, }
+")).
+Eval vm_compute in ("<<<M2287>>>" ++ check (runes_of_ascii "options{
+leftPad
+    =65535
+;
+a1 = true ; packetx=  '\x00' ; packetx
+=  """ ++ [28040; 24687]%N ++ runes_of_ascii """MetaDataX= // " ++ [27880; 37322]%N ++ runes_of_ascii "
+false }root // c
+packet // packet A { u8 x, }
+{ Pad repeat
+u8 Header
+// packet A { u8 x, }
+//	t
+`{ , }`
+// a // b
+//x
+, }
+")).
+Eval vm_compute in ("<<<M2319>>>" ++ check (runes_of_ascii "options{
+leftPad
+    =65535
+;
+a1 = true ; packetx=  '\x00' ; packetx
+=  """ ++ [28040; 24687]%N ++ runes_of_ascii """MetaDataX= // " ++ [27880; 37322]%N ++ runes_of_ascii "
+false }root // c
+packet // packet A { u8 x, }
+Pad { repeat
+u8 Header
+// packet A { u8 x, }
+//	t
+`{ , }`")).
+Eval vm_compute in ("<<<M2351>>>" ++ check (runes_of_ascii "
+packet 
+{	@calculatedFrom( """ ++ [233]%N ++ runes_of_ascii "t" ++ [233]%N ++ runes_of_ascii """ )
+@rightPad ( '\x00' )
+    @calculatedFrom( ""x y"" ) string chars  ,
+    // a // b
+    char[0 ]
+    u	@lengthOf( i8i8 ) `{ , }` ,repeat char[] o //x
+`// not a comment`, } // c")).
+Eval vm_compute in ("<<<M2383>>>" ++ check (runes_of_ascii "
+packet float
+{	@calculatedFrom( """ ++ [233]%N ++ runes_of_ascii "t" ++ [233]%N ++ runes_of_ascii """ )
+@rightPad '\x00' ( )
+    @calculatedFrom( ""x y"" ) string chars  ,
+    // a // b
+    char[0 ]
+    u	@lengthOf( i8i8 ) `{ , }` ,repeat char[] o //x
+`// not a comment`, } // c")).
+Eval vm_compute in ("<<<M2415>>>" ++ check (runes_of_ascii "
+packet float
+{	@calculatedFrom( """ ++ [233]%N ++ runes_of_ascii "t" ++ [233]%N ++ runes_of_ascii """ )
+@rightPad ( '\x00' )
+    @calculatedFrom( ""x y"" )")).
+Eval vm_compute in ("<<<M2447>>>" ++ check (runes_of_ascii "
+packet float
+{	@calculatedFrom( """ ++ [233]%N ++ runes_of_ascii "t" ++ [233]%N ++ runes_of_ascii """ )
+@rightPad ( '\x00' )
+    @calculatedFrom( ""x y"" ) string chars  ,
+    // a // b
+    char[0 ]
+    u	@lengthOf( @lengthOf( i8i8 ) `{ , }` ,repeat char[] o //x
+`// not a comment`, } // c")).
+Eval vm_compute in ("<<<M2479>>>" ++ check (runes_of_ascii "
+packet float
+{	@calculatedFrom( """ ++ [233]%N ++ runes_of_ascii "t" ++ [233]%N ++ runes_of_ascii """ )
+@rightPad ( '\x00' )
+    @calculatedFrom( ""x y"" ) string chars  ,
+    // a // b
+    char[0 ]
+    u	@lengthOf( i8i8 ) `{ , }` ,repeat @rightPad o //x
+`// not a comment`, } // c")).
+Eval vm_compute in ("<<<M2511>>>" ++ check (runes_of_ascii "
+@leftpad packet float
+{	@calculatedFrom( """ ++ [233]%N ++ runes_of_ascii "t" ++ [233]%N ++ runes_of_ascii """ )
+@rightPad ( '\x00' )
+    @calculatedFrom( ""x y"" ) string chars  ,
+    // a // b
+    char[0 ]
+    u	@lengthOf( i8i8 ) `{ , }` ,repeat char[] o //x
+`// not a comment`, } // c")).
+Eval vm_compute in ("<<<M2543>>>" ++ check (runes_of_ascii "root packet u128{
+    repeat repeat
+    zchar[ 65535 ] u `" ++ [28040; 24687; 31867; 22411]%N ++ runes_of_ascii "` ,// `tick` ""quote"" 'q'
+} packet i64_ {repeatCount
+    `
+` ,	} // " ++ [128512]%N ++ runes_of_ascii " emoji")).
+Eval vm_compute in ("<<<M2575>>>" ++ check (runes_of_ascii "root packet u128{
+    repeat
+    zchar[ 65535 ] u `" ++ [28040; 24687; 31867; 22411]%N ++ runes_of_ascii "` ;// `tick` ""quote"" 'q'
+} packet i64_ {repeatCount
+    `
+` ,	} // " ++ [128512]%N ++ runes_of_ascii " emoji")).
+Eval vm_compute in ("<<<M2607>>>" ++ check (runes_of_ascii "root packet u128{
+    repeat
+    zchar[ 65535 ] u `" ++ [28040; 24687; 31867; 22411]%N ++ runes_of_ascii "` ,// `tick` ""quote"" 'q'
+} packet i64_ {repeatCount
+    `
+` 	} // " ++ [128512]%N ++ runes_of_ascii " emoji")).
+Eval vm_compute in ("<<<M2639>>>" ++ check (runes_of_ascii "
+MetaData MetaData
+roots { int8
+    BodyLength ,//	t
 }
 ")).
-Eval vm_compute in ("<<<M2031>>>" ++ check (runes_of_ascii "options{ i64_ = ; string trueish =
+Eval vm_compute in ("<<<M2671>>>" ++ check (runes_of_ascii "
+MetaData
+roots { int8
+    BodyLength ,")).
+Eval vm_compute in ("<<<M2703>>>" ++ check (runes_of_ascii "options")).
+Eval vm_compute in ("<<<M2735>>>" ++ check (runes_of_ascii "options {Packet = ""CRC32""i8i8 = false; ; leftPad =
     '\x00'
-    leftPad = ""a\\"" /// triple
-; crc
-    = 255; uint8x
-=
-""abc""
-    ;}")).
-Eval vm_compute in ("<<<M2063>>>" ++ check (runes_of_ascii "options{ i64_ = string ; trueish =
+    // `tick` ""quote"" 'q'
+    ; o=255  ;
+    // packet A { u8 x, }
+    }")).
+Eval vm_compute in ("<<<M2767>>>" ++ check (runes_of_ascii "options {Packet = ""CRC32""i8i8 = false; leftPad =
     '\x00'
-    leftPad")).
-Eval vm_compute in ("<<<M2095>>>" ++ check (runes_of_ascii "options{ i64_ = string ; trueish =
+    // `tick` ""quote"" 'q'
+    ; o uint8 255  ;
+    // packet A { u8 x, }
+    }")).
+Eval vm_compute in ("<<<M2799>>>" ++ check (runes_of_ascii "options {Packet = ""CRC32""i8i8 = false; leftPad =
     '\x00'
-    leftPad = ""a\\"" /// triple
-; crc
-    = 255; uint8x uint8x
-=
-""abc""
-    ;}")).
-Eval vm_compute in ("<<<M2127>>>" ++ check (runes_of_ascii "options{ i64_ = string < ; trueish =
-    '\x00'
-    leftPad = ""a\\"" /// triple
-; crc
-    = 255; uint8x
-=
-""abc""
-    ;}")).
-Eval vm_compute in ("<<<M2159>>>" ++ check (runes_of_ascii "  packet
-asx
-{")).
-Eval vm_compute in ("<<<M2191>>>" ++ check (runes_of_ascii "  packet
-asx
-{
-/// triple
-// @lengthOf(
-u32 stringy
-`" ++ [28040; 24687; 31867; 22411]%N ++ runes_of_ascii "` ,} MetaData
-    A { {string  _x, zchar Header `a\`
-// @lengthOf(
-// packet A { u8 x, }
-, char[] MetaDataX
-,zchar[ 1 ]
-    matchKey
-    , char[] //
-u,	char[0123456789 ]
-    matchKey
-    `{ , }`, }
-")).
-Eval vm_compute in ("<<<M2223>>>" ++ check (runes_of_ascii "  packet
-asx
-{
-/// triple
-// @lengthOf(
-u32 stringy
-`" ++ [28040; 24687; 31867; 22411]%N ++ runes_of_ascii "` ,} MetaData
-    A {string  _x, zchar Header char[
-// @lengthOf(
-// packet A { u8 x, }
-, char[] MetaDataX
-,zchar[ 1 ]
-    matchKey
-    , char[] //
-u,	char[0123456789 ]
-    matchKey
-    `{ , }`, }
-")).
-Eval vm_compute in ("<<<M2255>>>" ++ check (runes_of_ascii "  packet
-asx
-{
-/// triple
-// @lengthOf(
-u32 stringy
-`" ++ [28040; 24687; 31867; 22411]%N ++ runes_of_ascii "` ,} MetaData
-    A {string  _x, zchar Header `a\`
-// @lengthOf(
-// packet A { u8 x, }
-, char[] MetaDataX
-,zchar[ 1 
-    matchKey
-    , char[] //
-u,	char[0123456789 ]
-    matchKey
-    `{ , }`, }
-")).
-Eval vm_compute in ("<<<M2287>>>" ++ check (runes_of_ascii "  packet
-asx
-{
-/// triple
-// @lengthOf(
-u32 stringy
-`" ++ [28040; 24687; 31867; 22411]%N ++ runes_of_ascii "` ,} MetaData
-    A {string  _x, zchar Header `a\`
-// @lengthOf(
-// packet A { u8 x, }
-, char[] MetaDataX
-,zchar[ 1 ]
-    matchKey
-    , char[] //
-u,	0123456789 char[ ]
-    matchKey
-    `{ , }`, }
-")).
-Eval vm_compute in ("<<<M2319>>>" ++ check (runes_of_ascii "  packet
-asx")).
-Eval vm_compute in ("<<<M2351>>>" ++ check (runes_of_ascii "root
-    packet
-
-{ // trailing space 
-matchKey `tab	here` ,}")).
-Eval vm_compute in ("<<<M2383>>>" ++ check (runes_of_ascii "root
-    packet
-Packet
-{ // trailing space ")).
-Eval vm_compute in ("<<<M2415>>>" ++ check (runes_of_ascii "options{ zchar[ // a // b
-=
-    '0' } options { repeatCount =
-true ; string_// a // b
-=
-// c
-// " ++ [27880; 37322]%N ++ runes_of_ascii "
-int64
-// trailing space 
-/// triple
-; } // @lengthOf(")).
-Eval vm_compute in ("<<<M2447>>>" ++ check (runes_of_ascii "options{ falsey // a // b
-=
-    '0' } options { repeatCount 
-true ; string_// a // b
-=
-// c
-// " ++ [27880; 37322]%N ++ runes_of_ascii "
-int64
-// trailing space 
-/// triple
-; } // @lengthOf(")).
-Eval vm_compute in ("<<<M2479>>>" ++ check (runes_of_ascii "options{ falsey // a // b
-=
-    '0' } options { repeatCount =
-true ; string_// a // b
-=
-// c
-// " ++ [27880; 37322]%N ++ runes_of_ascii "
-int64
-// trailing space 
-/// triple
-} ; // @lengthOf(")).
-Eval vm_compute in ("<<<M2511>>>" ++ check (runes_of_ascii "root{}root packet
-metadata {
-@lengthOf(x ) float32
-body ``, }
-    MetaData
-Z9_
-    {
-    string string_ , Logon x
-,
-uint32
+    // `t~ick` ""quote"" 'q'
+    ; o=255  ;
     // packet A { u8 x, }
-    Z9_,asx
-_x
-    `tab	here` , }
-")).
-Eval vm_compute in ("<<<M2543>>>" ++ check (runes_of_ascii "options{}root packet
-metadata {
-x ) float32
-body ``, }
-    MetaData
-Z9_
-    {
-    string string_ , Logon x
-,
-uint32
-    // packet A { u8 x, }
-    Z9_,asx
-_x
-    `tab	here` , }
-")).
-Eval vm_compute in ("<<<M2575>>>" ++ check (runes_of_ascii "options{}root packet
-metadata {
-@lengthOf(x ) float32
-body ``} ,
-    MetaData
-Z9_
-    {
-    string string_ , Logon x
-,
-uint32
-    // packet A { u8 x, }
-    Z9_,asx
-_x
-    `tab	here` , }
-")).
-Eval vm_compute in ("<<<M2607>>>" ++ check (runes_of_ascii "options{}root packet
-metadata {
-@lengthOf(x ) float32
-body ``, }
-    MetaData
-Z9_
-    {
-    string")).
-Eval vm_compute in ("<<<M2639>>>" ++ check (runes_of_ascii "options{}root packet
-metadata {
-@lengthOf(x ) float32
-body ``, }
-    MetaData
-Z9_
-    {
-    string string_ , Logon x
-,
-uint32
-    // packet A { u8 x, }
-    Z9_, ,asx
-_x
-    `tab	here` , }
-")).
-Eval vm_compute in ("<<<M2671>>>" ++ check (runes_of_ascii "options{}root packet
-metad")).
-Eval vm_compute in ("<<<M2703>>>" ++ check (runes_of_ascii "options {")).
-Eval vm_compute in ("<<<M2735>>>" ++ check (runes_of_ascii "options {
-    fals" ++ [65279]%N ++ runes_of_ascii "ey=
-""a\\"" ; }")).
-Eval vm_compute in ("<<<M2767>>>" ++ check (runes_of_ascii "MetaData f32a
-{
-    //	t
-    }packet
-    root tag  {
-}
-")).
-Eval vm_compute in ("<<<M2799>>>" ++ check (runes_of_ascii "MetaData f32a
-{
-    //	t
-    }root
-    packet tag  {
-}
-" ++ [233]%N)).
+    }")).
 Eval vm_compute in ("<<<M2831>>>" ++ check (runes_of_ascii "
-options
-    {msg_type =
-      }root
-packet Z9_{ char /// triple
-crc @lengthOf(
-options1 ) //
-,} MetaData a1{}
-")).
+packet metadata { @rightPad (
+    // packet A { u8 x, }
+    ' ' ' ' ) repeat u32	A
+,matchKey ,
+    @lengthOf( string_ ) @lengthOf( body )
+    // a // b
+    @lengthOf(float  )	repeat
+int32 u8x
+    // c
+    `tab	here`
+, } // a // b")).
 Eval vm_compute in ("<<<M2863>>>" ++ check (runes_of_ascii "
-options
-    {msg_type =
-    float32  }root
-packet Z9_{ crc /// triple
-char @lengthOf(
-options1 ) //
-,} MetaData a1{}
-")).
+packet metadata { @rightPad (
+    // packet A { u8 x, }
+    ' ' ) repeat u32	A
+,""`tick`"" ,
+    @lengthOf( string_ ) @lengthOf( body )
+    // a // b
+    @lengthOf(float  )	repeat
+int32 u8x
+    // c
+    `tab	here`
+, } // a // b")).
 Eval vm_compute in ("<<<M2895>>>" ++ check (runes_of_ascii "
-options
-    {msg_type =
-    float32  }root
-packet Z9_{ char /// triple
-crc @lengthOf(
-options1 ) //
-,")).
+packet metadata { @rightPad (
+    // packet A { u8 x, }
+    ' ' ) repeat u32	A
+,matchKey ,
+    @lengthOf( string_ ) @lengthOf( body 
+    // a // b
+    @lengthOf(float  )	repeat
+int32 u8x
+    // c
+    `tab	here`
+, } // a // b")).
 Eval vm_compute in ("<<<M2927>>>" ++ check (runes_of_ascii "
-op~tions
-    {msg_type =
-    float32  }root
-packet Z9_{ char /// triple
-crc @lengthOf(
-options1 ) //
-,} MetaData a1{}
+packet metadata { @rightPad (
+    // packet A { u8 x, }
+    ' ' ) repeat u32	A
+,matchKey ,
+    @lengthOf( string_ ) @lengthOf( body )
+    // a // b
+    @lengthOf(float  )	repeat
+int32 `tab	here`
+    // c
+    u8x
+, } // a // b")).
+Eval vm_compute in ("<<<M2959>>>" ++ check (runes_of_ascii "
+packet metadata { @rightPad (
+    // packet A { u8 x, }
+    ' ' ) repeat u32	A
+,matchKey ,
+    | @lengthOf( string_ ) @lengthOf( body )
+    // a // b
+    @lengthOf(float  )	repeat
+int32 u8x
+    // c
+    `tab	here`
+, } // a // b")).
+Eval vm_compute in ("<<<M2991>>>" ++ check (runes_of_ascii "packet x{
+string
+zchar  //	t
+}
 ")).
-Eval vm_compute in ("<<<M2959>>>" ++ check (runes_of_ascii "packet crc{ // " ++ [128512]%N ++ runes_of_ascii " emoji
-repeat i8i8 string
-`a\`, }
-")).
-Eval vm_compute in ("<<<M2991>>>" ++ check (runes_of_ascii "packet crc{ // `" ++ [128512]%N ++ runes_of_ascii " emoji
-repeat string i8i8
-`a\`, }
-")).
-Eval vm_compute in ("<<<M3023>>>" ++ check (runes_of_ascii "packet BodyLength {}  zchar{ zchar[// @lengthOf(
-42 ]
-    pack , string_
-A , char[]crc , _x trueish ,
-// " ++ [27880; 37322]%N ++ runes_of_ascii "
-// " ++ [128512]%N ++ runes_of_ascii " emoji
-zchar[
-    3 ]	T // trailing space 
-, } packet body
+Eval vm_compute in ("<<<M3023>>>" ++ check (runes_of_ascii "
+MetaData MetaData Logon
+{ // c
+}root packet
+    Pad {
+    } options
 {
-    }
-")).
-Eval vm_compute in ("<<<M3055>>>" ++ check (runes_of_ascii "packet BodyLength {} MetaData zchar{ zchar[// @lengthOf(
-42 ]
-    , pack string_
-A , char[]crc , _x trueish ,
-// " ++ [27880; 37322]%N ++ runes_of_ascii "
-// " ++ [128512]%N ++ runes_of_ascii " emoji
-zchar[
-    3 ]	T // trailing space 
-, } packet body
+u
+    =
+    ""CRC32""
+    // " ++ [128512]%N ++ runes_of_ascii " emoji
+    i64_ = u16;
+T =65535 x = ' '
+    ; u128
+= true ; }")).
+Eval vm_compute in ("<<<M3055>>>" ++ check (runes_of_ascii "
+MetaData Logon
+{ // c
+}root packet
+    int32 {
+    } options
 {
-    }
-")).
-Eval vm_compute in ("<<<M3087>>>" ++ check (runes_of_ascii "packet BodyLength {} MetaData zchar{ zchar[// @lengthOf(
-42 ]
-    pack , string_
-A , char[]")).
-Eval vm_compute in ("<<<M3119>>>" ++ check (runes_of_ascii "packet BodyLength {} MetaData zchar{ zchar[// @lengthOf(
-42 ]
-    pack , string_
-A , char[]crc , _x trueish ,
-// " ++ [27880; 37322]%N ++ runes_of_ascii "
-// " ++ [128512]%N ++ runes_of_ascii " emoji
-zchar[
-    3 ] ]	T // trailing space 
-, } packet body
+u
+    =
+    ""CRC32""
+    // " ++ [128512]%N ++ runes_of_ascii " emoji
+    i64_ = u16;
+T =65535 x = ' '
+    ; u128
+= true ; }")).
+Eval vm_compute in ("<<<M3087>>>" ++ check (runes_of_ascii "
+MetaData Logon
+{ // c
+}root packet
+    Pad {
+    } options
 {
-    }
+u
+    =
+    
+    // " ++ [128512]%N ++ runes_of_ascii " emoji
+    i64_ = u16;
+T =65535 x = ' '
+    ; u128
+= true ; }")).
+Eval vm_compute in ("<<<M3119>>>" ++ check (runes_of_ascii "
+MetaData Logon
+{ // c
+}root packet
+    Pad {
+    } options
+{
+u
+    =
+    ""CRC32""
+    // " ++ [128512]%N ++ runes_of_ascii " emoji
+    i64_ = u16;
+T 65535= x = ' '
+    ; u128
+= true ; }")).
+Eval vm_compute in ("<<<M3151>>>" ++ check (runes_of_ascii "
+MetaData Logon
+{ // c
+}root packet
+    Pad {
+    } options
+{
+u
+    =
+    ""CRC32""
+    // " ++ [128512]%N ++ runes_of_ascii " emoji
+    i64_ = u16;
+T =65535 x = ' '
+    ;")).
+Eval vm_compute in ("<<<M3183>>>" ++ check (runes_of_ascii "
+Met" ++ [0]%N ++ runes_of_ascii "aData Logon
+{ // c
+}root packet
+    Pad {
+    } options
+{
+u
+    =
+    ""CRC32""
+    // " ++ [128512]%N ++ runes_of_ascii " emoji
+    i64_ = u16;
+T =65535 x = ' '
+    ; u128
+= true ; }")).
+Eval vm_compute in ("<<<M3215>>>" ++ check (runes_of_ascii "MetaData body{}
+Packet	packet { x_y_z @calculatedFrom(  ""a\\"")// `tick` ""quote"" 'q'
+, }
 ")).
-Eval vm_compute in ("<<<M3151>>>" ++ check (runes_of_ascii "packet BodyLength {} MetaData zchar{ zchar[// @lengthOf(
-42 ]
-    pack , string_
-A , char[]crc , _x trueish ,
-// " ++ [27880; 37322]%N ++ runes_of_ascii "
-// " ++ [128512]%N ++ runes_of_ascii " emoji
-zchar[
-    3 ]	T // trailing space 
-, } packet body
-uint8
-    }
+Eval vm_compute in ("<<<M3247>>>" ++ check (runes_of_ascii "MetaData body{}
+packet	Packet { x_y_z @calculatedFrom(  ""a\\""")).
+Eval vm_compute in ("<<<M3279>>>" ++ check (runes_of_ascii " f32a {} root packet len {repeat u // " ++ [128512]%N ++ runes_of_ascii " emoji
+`{ , }` , }
 ")).
-Eval vm_compute in ("<<<M3183>>>" ++ check (@nil rune)).
-Eval vm_compute in ("<<<M3215>>>" ++ check (runes_of_ascii "packet
-string_ {@lengthOf( int ) match packetx packetx as f32a {
-    1 :	calculatedFrom , }  ,
-    } packet len
-    //	t
-    { @calculatedFrom( """ ++ [233]%N ++ runes_of_ascii "t" ++ [233]%N ++ runes_of_ascii """ ) body Header , char[] lengthOf  `two words` ,chars{repeat string_ matchKey ,
-    } ,
-    }
+Eval vm_compute in ("<<<M3311>>>" ++ check (runes_of_ascii "packet f32a {} root packet { len repeat u // " ++ [128512]%N ++ runes_of_ascii " emoji
+`{ , }` , }
 ")).
-Eval vm_compute in ("<<<M3247>>>" ++ check (runes_of_ascii "packet
-string_ {@lengthOf( int ) match packetx as f32a {
-    1 :	u64 , }  ,
-    } packet len
-    //	t
-    { @calculatedFrom( """ ++ [233]%N ++ runes_of_ascii "t" ++ [233]%N ++ runes_of_ascii """ ) body Header , char[] lengthOf  `two words` ,chars{repeat string_ matchKey ,
-    } ,
-    }
-")).
-Eval vm_compute in ("<<<M3279>>>" ++ check (runes_of_ascii "packet
-string_ {@lengthOf( int ) match packetx as f32a {
-    1 :	calculatedFrom , }  ,
-    } packet len
-    //	t
-     @calculatedFrom( """ ++ [233]%N ++ runes_of_ascii "t" ++ [233]%N ++ runes_of_ascii """ ) body Header , char[] lengthOf  `two words` ,chars{repeat string_ matchKey ,
-    } ,
-    }
-")).
-Eval vm_compute in ("<<<M3311>>>" ++ check (runes_of_ascii "packet
-string_ {@lengthOf( int ) match packetx as f32a {
-    1 :	calculatedFrom , }  ,
-    } packet len
-    //	t
-    { @calculatedFrom( """ ++ [233]%N ++ runes_of_ascii "t" ++ [233]%N ++ runes_of_ascii """ ) body Header char[] , lengthOf  `two words` ,chars{repeat string_ matchKey ,
-    } ,
-    }
-")).
-Eval vm_compute in ("<<<M3343>>>" ++ check (runes_of_ascii "packet
-string_ {@lengthOf( int ) match packetx as f32a {
-    1 :	calculatedFrom , }  ,
-    } packet len
-    //	t
-    { @calculatedFrom( """ ++ [233]%N ++ runes_of_ascii "t" ++ [233]%N ++ runes_of_ascii """ ) body Header , char[] lengthOf  `two words` ,chars")).
-Eval vm_compute in ("<<<M3375>>>" ++ check (runes_of_ascii "packet
-string_ {@lengthOf( int ) match packetx as f32a {
-    1 :	calculatedFrom , }  ,
-    } packet len
-    //	t
-    { @calculatedFrom( """ ++ [233]%N ++ runes_of_ascii "t" ++ [233]%N ++ runes_of_ascii """ ) body Header , char[] lengthOf  `two words` ,chars{repeat string_ matchKey ,
-    } ,
-    } }
-")).
-Eval vm_compute in ("<<<M3407>>>" ++ check (runes_of_ascii "/// triple
-root
-packet // packet A { u8 x, }
-chars { @lengthOf(charz )
-stringy,  @tag(  0 ) // a // b
-
-    As
-,
-// trailing space 
-// trailing space 
-x_y_z {
-repeat i16 charz , } ,	int16  crc ,}
-")).
-Eval vm_compute in ("<<<M3439>>>" ++ check (runes_of_ascii "/// triple
-root
-packet // packet A { u8 x, }
-chars { @lengthOf(charz )
-stringy,  @tag(  0 ) // $a // b
-asx
-    As
-,
-// trailing space 
-// trailing space 
-x_y_z {
-repeat i16 charz , } ,	int16  crc ,}
-")).
-Eval vm_compute in ("<<<M3471>>>" ++ check (runes_of_ascii "/// triple
-root
-packet // packet A { u8 x, }
-chars { @lengthOf(charz )
-stringy,  @tag(  0 ) // a // b
-asx
-    As
-,
-// trailing space 
-// trailing space 
-x_y_z {")).
+Eval vm_compute in ("<<<M3343>>>" ++ check (runes_of_ascii "packet f32a {} r")).
+Eval vm_compute in ("<<<M3375>>>" ++ check (runes_of_ascii "options{ _x=""\" ++ [233]%N ++ runes_of_ascii """;
+    Logon = 10	; Foo= 7;
+i64_= char[]} options {
+matchKey = ""// no comment"" // a // b
+falsey = string
+; trueish =
+    4294967296
+options1=
+    ""it's"" string_	= true } options {
+    /// trip<le
+    }")).
+Eval vm_compute in ("<<<T3375>>>" ++ terms [mkTok 1 "options" 1 0 false; mkTok 2 "{" 1 7 false; mkTok 42 "_x" 1 9 false; mkTok 4 "=" 1 11 false; mkTok 31 (string_of_bytes [34; 92; 195; 169; 34]%N) 1 12 false; mkTok 41 ";" 1 16 false; mkTok 42 "Logon" 2 4 false; mkTok 4 "=" 2 10 false; mkTok 30 "10" 2 12 false; mkTok 41 ";" 2 15 false; mkTok 42 "Foo" 2 17 false; mkTok 4 "=" 2 20 false; mkTok 30 "7" 2 22 false; mkTok 41 ";" 2 23 false; mkTok 42 "i64_" 3 0 false; mkTok 4 "=" 3 4 false; mkTok 16 "char[]" 3 6 false; mkTok 3 "}" 3 12 false; mkTok 1 "options" 3 14 false; mkTok 2 "{" 3 22 false; mkTok 42 "matchKey" 4 0 false; mkTok 4 "=" 4 9 false; mkTok 31 """// no comment""" 4 11 false; mkTok 44 "// a // b" 4 27 true; mkTok 42 "falsey" 5 0 false; mkTok 4 "=" 5 7 false; mkTok 15 "string" 5 9 false; mkTok 41 ";" 6 0 false; mkTok 42 "trueish" 6 2 false; mkTok 4 "=" 6 10 false; mkTok 30 "4294967296" 7 4 false; mkTok 42 "options1" 8 0 false; mkTok 4 "=" 8 8 false; mkTok 31 """it's""" 9 4 false; mkTok 42 "string_" 9 11 false; mkTok 4 "=" 9 19 false; mkTok 10 "true" 9 21 false; mkTok 3 "}" 9 26 false; mkTok 1 "options" 9 28 false; mkTok 2 "{" 9 36 false; mkTok 44 "/// trip<le" 10 4 true; mkTok 3 "}" 11 4 false; mkTok 0 "<EOF>" 11 5 false] (mkPacket (mkPtok 1 "options" 1 0 0) (Some (mkPtok 3 "}" 11 4 41)) [(DOption (mkOptionDef (mkSpan (mkPtok 1 "options" 1 0 0) (mkPtok 3 "}" 3 12 17)) (mkPtok 1 "options" 1 0 0) (mkPtok 2 "{" 1 7 1) [(mkOptionDecl (mkSpan (mkPtok 42 "_x" 1 9 2) (mkPtok 41 ";" 1 16 5)) (mkPtok 42 "_x" 1 9 2) (mkPtok 4 "=" 1 11 3) (VString (mkSpan (mkPtok 31 (string_of_bytes [34; 92; 195; 169; 34]%N) 1 12 4) (mkPtok 31 (string_of_bytes [34; 92; 195; 169; 34]%N) 1 12 4)) (mkPtok 31 (string_of_bytes [34; 92; 195; 169; 34]%N) 1 12 4)) (Some (mkPtok 41 ";" 1 16 5))); (mkOptionDecl (mkSpan (mkPtok 42 "Logon" 2 4 6) (mkPtok 41 ";" 2 15 9)) (mkPtok 42 "Logon" 2 4 6) (mkPtok 4 "=" 2 10 7) (VDigits (mkSpan (mkPtok 30 "10" 2 12 8) (mkPtok 30 "10" 2 12 8)) (mkPtok 30 "10" 2 12 8)) (Some (mkPtok 41 ";" 2 15 9))); (mkOptionDecl (mkSpan (mkPtok 42 "Foo" 2 17 10) (mkPtok 41 ";" 2 23 13)) (mkPtok 42 "Foo" 2 17 10) (mkPtok 4 "=" 2 20 11) (VDigits (mkSpan (mkPtok 30 "7" 2 22 12) (mkPtok 30 "7" 2 22 12)) (mkPtok 30 "7" 2 22 12)) (Some (mkPtok 41 ";" 2 23 13))); (mkOptionDecl (mkSpan (mkPtok 42 "i64_" 3 0 14) (mkPtok 16 "char[]" 3 6 16)) (mkPtok 42 "i64_" 3 0 14) (mkPtok 4 "=" 3 4 15) (VType (mkSpan (mkPtok 16 "char[]" 3 6 16) (mkPtok 16 "char[]" 3 6 16)) (TyDynamic (mkSpan (mkPtok 16 "char[]" 3 6 16) (mkPtok 16 "char[]" 3 6 16)) (mkDynamicString (mkSpan (mkPtok 16 "char[]" 3 6 16) (mkPtok 16 "char[]" 3 6 16)) (mkPtok 16 "char[]" 3 6 16)))) None)] (mkPtok 3 "}" 3 12 17))); (DOption (mkOptionDef (mkSpan (mkPtok 1 "options" 3 14 18) (mkPtok 3 "}" 9 26 37)) (mkPtok 1 "options" 3 14 18) (mkPtok 2 "{" 3 22 19) [(mkOptionDecl (mkSpan (mkPtok 42 "matchKey" 4 0 20) (mkPtok 31 """// no comment""" 4 11 22)) (mkPtok 42 "matchKey" 4 0 20) (mkPtok 4 "=" 4 9 21) (VString (mkSpan (mkPtok 31 """// no comment""" 4 11 22) (mkPtok 31 """// no comment""" 4 11 22)) (mkPtok 31 """// no comment""" 4 11 22)) None); (mkOptionDecl (mkSpan (mkPtok 42 "falsey" 5 0 24) (mkPtok 41 ";" 6 0 27)) (mkPtok 42 "falsey" 5 0 24) (mkPtok 4 "=" 5 7 25) (VType (mkSpan (mkPtok 15 "string" 5 9 26) (mkPtok 15 "string" 5 9 26)) (TyDynamic (mkSpan (mkPtok 15 "string" 5 9 26) (mkPtok 15 "string" 5 9 26)) (mkDynamicString (mkSpan (mkPtok 15 "string" 5 9 26) (mkPtok 15 "string" 5 9 26)) (mkPtok 15 "string" 5 9 26)))) (Some (mkPtok 41 ";" 6 0 27))); (mkOptionDecl (mkSpan (mkPtok 42 "trueish" 6 2 28) (mkPtok 30 "4294967296" 7 4 30)) (mkPtok 42 "trueish" 6 2 28) (mkPtok 4 "=" 6 10 29) (VDigits (mkSpan (mkPtok 30 "4294967296" 7 4 30) (mkPtok 30 "4294967296" 7 4 30)) (mkPtok 30 "4294967296" 7 4 30)) None); (mkOptionDecl (mkSpan (mkPtok 42 "options1" 8 0 31) (mkPtok 31 """it's""" 9 4 33)) (mkPtok 42 "options1" 8 0 31) (mkPtok 4 "=" 8 8 32) (VString (mkSpan (mkPtok 31 """it's""" 9 4 33) (mkPtok 31 """it's""" 9 4 33)) (mkPtok 31 """it's""" 9 4 33)) None); (mkOptionDecl (mkSpan (mkPtok 42 "string_" 9 11 34) (mkPtok 10 "true" 9 21 36)) (mkPtok 42 "string_" 9 11 34) (mkPtok 4 "=" 9 19 35) (VTrue (mkSpan (mkPtok 10 "true" 9 21 36) (mkPtok 10 "true" 9 21 36)) (mkPtok 10 "true" 9 21 36)) None)] (mkPtok 3 "}" 9 26 37))); (DOption (mkOptionDef (mkSpan (mkPtok 1 "options" 9 28 38) (mkPtok 3 "}" 11 4 41)) (mkPtok 1 "options" 9 28 38) (mkPtok 2 "{" 9 36 39) [] (mkPtok 3 "}" 11 4 41)))])).
+Eval vm_compute in ("<<<M3407>>>" ++ check (runes_of_ascii "options{ _x=""\" ++ [233]%N ++ runes_of_ascii """;
+    Logon = 10	; Foo= 7;
+i64_= char[]} options {
+matchKey = ""// no comment"" // a // b
+falsey = string
+; trueish =
+    4294967296
+options1=
+    ""it's""")).
+Eval vm_compute in ("<<<M3439>>>" ++ check (runes_of_ascii "options{ _x=""\" ++ [233]%N ++ runes_of_ascii """;
+    Logon = 10	; Foo= 7;
+i64_= char[]} options {
+matchKey = ""// no comment"" // a // b
+falsey falsey = string
+; trueish =
+    4294967296
+options1=
+    ""it's"" string_	= true } options {
+    /// triple
+    }")).
+Eval vm_compute in ("<<<M3471>>>" ++ check (runes_of_ascii "options{ _x=""\" ++ [233]%N ++ runes_of_ascii """;
+    Logon = 10	; Foo= 7;
+i64_= char[]} opti")).
 Eval vm_compute in ("<<<M3503>>>" ++ check (runes_of_ascii "u8")).
 Eval vm_compute in ("<<<M3535>>>" ++ check (runes_of_ascii "Packet")).
 Eval vm_compute in ("<<<M3567>>>" ++ check (runes_of_ascii "// x")).
+Eval vm_compute in ("<<<T3567>>>" ++ terms [mkTok 44 "// x" 1 0 true; mkTok 0 "<EOF>" 1 4 false] (mkPacket (mkPtok 0 "<EOF>" 1 4 1) None [])).
 Eval vm_compute in ("<<<M3599>>>" ++ check (runes_of_ascii "a.b")).
 Eval vm_compute in ("<<<M3631>>>" ++ check (runes_of_ascii "packet A { repeat }")).
 Eval vm_compute in ("<<<M3663>>>" ++ check (runes_of_ascii "packet A { B { u8 x, } }")).
@@ -1728,12 +1604,10 @@ Eval vm_compute in ("<<<M3727>>>" ++ check (runes_of_ascii "options { a = ; }"))
 Eval vm_compute in ("<<<M3759>>>" ++ check (runes_of_ascii "// a
 // b
 ")).
-Eval vm_compute in ("<<<M3791>>>" ++ check (runes_of_ascii "packet match")).
-Eval vm_compute in ("<<<M3823>>>" ++ check (runes_of_ascii "i8 root 4294967296 , packet int64 , i64 } }")).
-Eval vm_compute in ("<<<M3855>>>" ++ check (runes_of_ascii "@calculatedFrom( char msg_type int8 float32 repeat")).
-Eval vm_compute in ("<<<M3887>>>" ++ check (runes_of_ascii "uint32 true MetaData char[] ; `line1
-line2` MetaData @leftPad = as ( i32")).
-Eval vm_compute in ("<<<M3919>>>" ++ check (runes_of_ascii ": """ ++ [28040; 24687]%N ++ runes_of_ascii """ float64 } ;")).
-Eval vm_compute in ("<<<M3951>>>" ++ check (runes_of_ascii "= } false `line1
-line2` @lengthOf(")).
-Eval vm_compute in ("<<<M3983>>>" ++ check (runes_of_ascii "uint64 string ) @tag( uint32 u32 string u8 zchar[ match falsey false }")).
+Eval vm_compute in ("<<<M3791>>>" ++ check (runes_of_ascii "= match `{ , }` [ , )")).
+Eval vm_compute in ("<<<M3823>>>" ++ check (runes_of_ascii "; packet `doc` @lengthOf( @calculatedFrom( f64 string '0' uint32")).
+Eval vm_compute in ("<<<M3855>>>" ++ check (runes_of_ascii "uint8 ] { u16")).
+Eval vm_compute in ("<<<M3887>>>" ++ check (runes_of_ascii """"" int string = uint32 string [ as uint64 repeat ) [ @leftPad")).
+Eval vm_compute in ("<<<M3919>>>" ++ check (runes_of_ascii "u8 ] @tag( packet packet ""{,}"" = float32 @tag(")).
+Eval vm_compute in ("<<<M3951>>>" ++ check (runes_of_ascii "true i32 u64 u32 true @lengthOf( match repeat")).
+Eval vm_compute in ("<<<M3983>>>" ++ check (runes_of_ascii "] ) `say ""hi""` MetaData options MetaData uint16 string false ]")).
